@@ -1,4 +1,9 @@
 
+(** val xorb : bool -> bool -> bool **)
+
+let xorb b6 b7 =
+  if b6 then if b7 then false else true else b7
+
 (** val negb : bool -> bool **)
 
 let negb = function
@@ -44,6 +49,12 @@ let compOpp = function
 | Lt -> Gt
 | Gt -> Lt
 
+(** val pred : nat -> nat **)
+
+let pred n0 = match n0 with
+| O -> n0
+| S u -> u
+
 module Coq__1 = struct
  (** val add : nat -> nat -> nat **)
  let rec add n0 m =
@@ -69,10 +80,35 @@ let rec sub n0 m =
             | O -> n0
             | S l -> sub k l)
 
-(** val eqb : bool -> bool -> bool **)
+(** val eqb : nat -> nat -> bool **)
 
-let eqb b5 b6 =
-  if b5 then b6 else if b6 then false else true
+let rec eqb n0 m =
+  match n0 with
+  | O -> (match m with
+          | O -> true
+          | S _ -> false)
+  | S n' -> (match m with
+             | O -> false
+             | S m' -> eqb n' m')
+
+(** val leb : nat -> nat -> bool **)
+
+let rec leb n0 m =
+  match n0 with
+  | O -> true
+  | S n' -> (match m with
+             | O -> false
+             | S m' -> leb n' m')
+
+(** val ltb : nat -> nat -> bool **)
+
+let ltb n0 m =
+  leb (S n0) m
+
+(** val eqb0 : bool -> bool -> bool **)
+
+let eqb0 b6 b7 =
+  if b6 then b7 else if b7 then false else true
 
 module Nat =
  struct
@@ -118,6 +154,14 @@ module Nat =
     | S n' -> (match m with
                | O -> n0
                | S m' -> S (max n' m'))
+
+  (** val even : nat -> bool **)
+
+  let rec even = function
+  | O -> true
+  | S n1 -> (match n1 with
+             | O -> false
+             | S n' -> even n')
 
   (** val divmod : nat -> nat -> nat -> nat -> nat * nat **)
 
@@ -534,6 +578,13 @@ module N =
     match compare x y with
     | Gt -> false
     | _ -> true
+
+  (** val ltb : n -> n -> bool **)
+
+  let ltb x y =
+    match compare x y with
+    | Lt -> true
+    | _ -> false
 
   (** val div2 : n -> n **)
 
@@ -2302,6 +2353,307 @@ let g_VendorSpecific =
     false)), EmptyString)))))))))))); gop = OpLT; glit = (Zpos (XI (XO
     XH))) } :: []
 
+(** val b_rfc2759_magic1 : n list **)
+
+let b_rfc2759_magic1 =
+  (Npos (XI (XO (XI (XI (XO (XO XH))))))) :: ((Npos (XI (XO (XO (XO (XO (XI
+    XH))))))) :: ((Npos (XI (XI (XI (XO (XO (XI XH))))))) :: ((Npos (XI (XO
+    (XO (XI (XO (XI XH))))))) :: ((Npos (XI (XI (XO (XO (XO (XI
+    XH))))))) :: ((Npos (XO (XO (XO (XO (XO XH)))))) :: ((Npos (XI (XI (XO
+    (XO (XI (XI XH))))))) :: ((Npos (XI (XO (XI (XO (XO (XI
+    XH))))))) :: ((Npos (XO (XI (XO (XO (XI (XI XH))))))) :: ((Npos (XO (XI
+    (XI (XO (XI (XI XH))))))) :: ((Npos (XI (XO (XI (XO (XO (XI
+    XH))))))) :: ((Npos (XO (XI (XO (XO (XI (XI XH))))))) :: ((Npos (XO (XO
+    (XO (XO (XO XH)))))) :: ((Npos (XO (XO (XI (XO (XI (XI
+    XH))))))) :: ((Npos (XI (XI (XI (XI (XO (XI XH))))))) :: ((Npos (XO (XO
+    (XO (XO (XO XH)))))) :: ((Npos (XI (XI (XO (XO (XO (XI
+    XH))))))) :: ((Npos (XO (XO (XI (XI (XO (XI XH))))))) :: ((Npos (XI (XO
+    (XO (XI (XO (XI XH))))))) :: ((Npos (XI (XO (XI (XO (XO (XI
+    XH))))))) :: ((Npos (XO (XI (XI (XI (XO (XI XH))))))) :: ((Npos (XO (XO
+    (XI (XO (XI (XI XH))))))) :: ((Npos (XO (XO (XO (XO (XO
+    XH)))))) :: ((Npos (XI (XI (XO (XO (XI (XI XH))))))) :: ((Npos (XI (XO
+    (XO (XI (XO (XI XH))))))) :: ((Npos (XI (XI (XI (XO (XO (XI
+    XH))))))) :: ((Npos (XO (XI (XI (XI (XO (XI XH))))))) :: ((Npos (XI (XO
+    (XO (XI (XO (XI XH))))))) :: ((Npos (XO (XI (XI (XI (XO (XI
+    XH))))))) :: ((Npos (XI (XI (XI (XO (XO (XI XH))))))) :: ((Npos (XO (XO
+    (XO (XO (XO XH)))))) :: ((Npos (XI (XI (XO (XO (XO (XI
+    XH))))))) :: ((Npos (XI (XI (XI (XI (XO (XI XH))))))) :: ((Npos (XO (XI
+    (XI (XI (XO (XI XH))))))) :: ((Npos (XI (XI (XO (XO (XI (XI
+    XH))))))) :: ((Npos (XO (XO (XI (XO (XI (XI XH))))))) :: ((Npos (XI (XO
+    (XO (XO (XO (XI XH))))))) :: ((Npos (XO (XI (XI (XI (XO (XI
+    XH))))))) :: ((Npos (XO (XO (XI (XO (XI (XI
+    XH))))))) :: []))))))))))))))))))))))))))))))))))))))
+
+(** val b_rfc2759_magic2 : n list **)
+
+let b_rfc2759_magic2 =
+  (Npos (XO (XO (XO (XO (XI (XO XH))))))) :: ((Npos (XI (XO (XO (XO (XO (XI
+    XH))))))) :: ((Npos (XO (XO (XI (XO (XO (XI XH))))))) :: ((Npos (XO (XO
+    (XO (XO (XO XH)))))) :: ((Npos (XO (XO (XI (XO (XI (XI
+    XH))))))) :: ((Npos (XI (XI (XI (XI (XO (XI XH))))))) :: ((Npos (XO (XO
+    (XO (XO (XO XH)))))) :: ((Npos (XI (XO (XI (XI (XO (XI
+    XH))))))) :: ((Npos (XI (XO (XO (XO (XO (XI XH))))))) :: ((Npos (XI (XI
+    (XO (XI (XO (XI XH))))))) :: ((Npos (XI (XO (XI (XO (XO (XI
+    XH))))))) :: ((Npos (XO (XO (XO (XO (XO XH)))))) :: ((Npos (XI (XO (XO
+    (XI (XO (XI XH))))))) :: ((Npos (XO (XO (XI (XO (XI (XI
+    XH))))))) :: ((Npos (XO (XO (XO (XO (XO XH)))))) :: ((Npos (XO (XO (XI
+    (XO (XO (XI XH))))))) :: ((Npos (XI (XI (XI (XI (XO (XI
+    XH))))))) :: ((Npos (XO (XO (XO (XO (XO XH)))))) :: ((Npos (XI (XO (XI
+    (XI (XO (XI XH))))))) :: ((Npos (XI (XI (XI (XI (XO (XI
+    XH))))))) :: ((Npos (XO (XI (XO (XO (XI (XI XH))))))) :: ((Npos (XI (XO
+    (XI (XO (XO (XI XH))))))) :: ((Npos (XO (XO (XO (XO (XO
+    XH)))))) :: ((Npos (XO (XO (XI (XO (XI (XI XH))))))) :: ((Npos (XO (XO
+    (XO (XI (XO (XI XH))))))) :: ((Npos (XI (XO (XO (XO (XO (XI
+    XH))))))) :: ((Npos (XO (XI (XI (XI (XO (XI XH))))))) :: ((Npos (XO (XO
+    (XO (XO (XO XH)))))) :: ((Npos (XI (XI (XI (XI (XO (XI
+    XH))))))) :: ((Npos (XO (XI (XI (XI (XO (XI XH))))))) :: ((Npos (XI (XO
+    (XI (XO (XO (XI XH))))))) :: ((Npos (XO (XO (XO (XO (XO
+    XH)))))) :: ((Npos (XI (XO (XO (XI (XO (XI XH))))))) :: ((Npos (XO (XO
+    (XI (XO (XI (XI XH))))))) :: ((Npos (XI (XO (XI (XO (XO (XI
+    XH))))))) :: ((Npos (XO (XI (XO (XO (XI (XI XH))))))) :: ((Npos (XI (XO
+    (XO (XO (XO (XI XH))))))) :: ((Npos (XO (XO (XI (XO (XI (XI
+    XH))))))) :: ((Npos (XI (XO (XO (XI (XO (XI XH))))))) :: ((Npos (XI (XI
+    (XI (XI (XO (XI XH))))))) :: ((Npos (XO (XI (XI (XI (XO (XI
+    XH))))))) :: []))))))))))))))))))))))))))))))))))))))))
+
+(** val g_rfc2759_DESCrypt : guard list **)
+
+let g_rfc2759_DESCrypt =
+  { gexpr = (String ((Ascii (false, false, true, true, false, true, true,
+    false)), (String ((Ascii (true, false, true, false, false, true, true,
+    false)), (String ((Ascii (false, true, true, true, false, true, true,
+    false)), (String ((Ascii (false, false, false, true, false, true, false,
+    false)), (String ((Ascii (true, true, false, true, false, true, true,
+    false)), (String ((Ascii (true, false, false, true, false, true, false,
+    false)), EmptyString)))))))))))); gop = OpEQ; glit = (Zpos (XI (XI
+    XH))) } :: []
+
+(** val k_rfc3079_KeyLength128Bit : z **)
+
+let k_rfc3079_KeyLength128Bit =
+  Zpos (XO (XO (XO (XO XH))))
+
+(** val b_rfc3079_shaPad1 : n list **)
+
+let b_rfc3079_shaPad1 =
+  N0 :: (N0 :: (N0 :: (N0 :: (N0 :: (N0 :: (N0 :: (N0 :: (N0 :: (N0 :: (N0 :: (N0 :: (N0 :: (N0 :: (N0 :: (N0 :: (N0 :: (N0 :: (N0 :: (N0 :: (N0 :: (N0 :: (N0 :: (N0 :: (N0 :: (N0 :: (N0 :: (N0 :: (N0 :: (N0 :: (N0 :: (N0 :: (N0 :: (N0 :: (N0 :: (N0 :: (N0 :: (N0 :: (N0 :: (N0 :: [])))))))))))))))))))))))))))))))))))))))
+
+(** val b_rfc3079_shaPad2 : n list **)
+
+let b_rfc3079_shaPad2 =
+  (Npos (XO (XI (XO (XO (XI (XI (XI XH)))))))) :: ((Npos (XO (XI (XO (XO (XI
+    (XI (XI XH)))))))) :: ((Npos (XO (XI (XO (XO (XI (XI (XI
+    XH)))))))) :: ((Npos (XO (XI (XO (XO (XI (XI (XI XH)))))))) :: ((Npos (XO
+    (XI (XO (XO (XI (XI (XI XH)))))))) :: ((Npos (XO (XI (XO (XO (XI (XI (XI
+    XH)))))))) :: ((Npos (XO (XI (XO (XO (XI (XI (XI XH)))))))) :: ((Npos (XO
+    (XI (XO (XO (XI (XI (XI XH)))))))) :: ((Npos (XO (XI (XO (XO (XI (XI (XI
+    XH)))))))) :: ((Npos (XO (XI (XO (XO (XI (XI (XI XH)))))))) :: ((Npos (XO
+    (XI (XO (XO (XI (XI (XI XH)))))))) :: ((Npos (XO (XI (XO (XO (XI (XI (XI
+    XH)))))))) :: ((Npos (XO (XI (XO (XO (XI (XI (XI XH)))))))) :: ((Npos (XO
+    (XI (XO (XO (XI (XI (XI XH)))))))) :: ((Npos (XO (XI (XO (XO (XI (XI (XI
+    XH)))))))) :: ((Npos (XO (XI (XO (XO (XI (XI (XI XH)))))))) :: ((Npos (XO
+    (XI (XO (XO (XI (XI (XI XH)))))))) :: ((Npos (XO (XI (XO (XO (XI (XI (XI
+    XH)))))))) :: ((Npos (XO (XI (XO (XO (XI (XI (XI XH)))))))) :: ((Npos (XO
+    (XI (XO (XO (XI (XI (XI XH)))))))) :: ((Npos (XO (XI (XO (XO (XI (XI (XI
+    XH)))))))) :: ((Npos (XO (XI (XO (XO (XI (XI (XI XH)))))))) :: ((Npos (XO
+    (XI (XO (XO (XI (XI (XI XH)))))))) :: ((Npos (XO (XI (XO (XO (XI (XI (XI
+    XH)))))))) :: ((Npos (XO (XI (XO (XO (XI (XI (XI XH)))))))) :: ((Npos (XO
+    (XI (XO (XO (XI (XI (XI XH)))))))) :: ((Npos (XO (XI (XO (XO (XI (XI (XI
+    XH)))))))) :: ((Npos (XO (XI (XO (XO (XI (XI (XI XH)))))))) :: ((Npos (XO
+    (XI (XO (XO (XI (XI (XI XH)))))))) :: ((Npos (XO (XI (XO (XO (XI (XI (XI
+    XH)))))))) :: ((Npos (XO (XI (XO (XO (XI (XI (XI XH)))))))) :: ((Npos (XO
+    (XI (XO (XO (XI (XI (XI XH)))))))) :: ((Npos (XO (XI (XO (XO (XI (XI (XI
+    XH)))))))) :: ((Npos (XO (XI (XO (XO (XI (XI (XI XH)))))))) :: ((Npos (XO
+    (XI (XO (XO (XI (XI (XI XH)))))))) :: ((Npos (XO (XI (XO (XO (XI (XI (XI
+    XH)))))))) :: ((Npos (XO (XI (XO (XO (XI (XI (XI XH)))))))) :: ((Npos (XO
+    (XI (XO (XO (XI (XI (XI XH)))))))) :: ((Npos (XO (XI (XO (XO (XI (XI (XI
+    XH)))))))) :: ((Npos (XO (XI (XO (XO (XI (XI (XI
+    XH)))))))) :: [])))))))))))))))))))))))))))))))))))))))
+
+(** val b_rfc3079_magic1 : n list **)
+
+let b_rfc3079_magic1 =
+  (Npos (XO (XO (XI (XO (XI (XO XH))))))) :: ((Npos (XO (XO (XO (XI (XO (XI
+    XH))))))) :: ((Npos (XI (XO (XO (XI (XO (XI XH))))))) :: ((Npos (XI (XI
+    (XO (XO (XI (XI XH))))))) :: ((Npos (XO (XO (XO (XO (XO
+    XH)))))) :: ((Npos (XI (XO (XO (XI (XO (XI XH))))))) :: ((Npos (XI (XI
+    (XO (XO (XI (XI XH))))))) :: ((Npos (XO (XO (XO (XO (XO
+    XH)))))) :: ((Npos (XO (XO (XI (XO (XI (XI XH))))))) :: ((Npos (XO (XO
+    (XO (XI (XO (XI XH))))))) :: ((Npos (XI (XO (XI (XO (XO (XI
+    XH))))))) :: ((Npos (XO (XO (XO (XO (XO XH)))))) :: ((Npos (XI (XO (XI
+    (XI (XO (XO XH))))))) :: ((Npos (XO (XO (XO (XO (XI (XO
+    XH))))))) :: ((Npos (XO (XO (XO (XO (XI (XO XH))))))) :: ((Npos (XI (XO
+    (XI (XO (XO (XO XH))))))) :: ((Npos (XO (XO (XO (XO (XO
+    XH)))))) :: ((Npos (XI (XO (XI (XI (XO (XO XH))))))) :: ((Npos (XI (XO
+    (XO (XO (XO (XI XH))))))) :: ((Npos (XI (XI (XO (XO (XI (XI
+    XH))))))) :: ((Npos (XO (XO (XI (XO (XI (XI XH))))))) :: ((Npos (XI (XO
+    (XI (XO (XO (XI XH))))))) :: ((Npos (XO (XI (XO (XO (XI (XI
+    XH))))))) :: ((Npos (XO (XO (XO (XO (XO XH)))))) :: ((Npos (XI (XI (XO
+    (XI (XO (XO XH))))))) :: ((Npos (XI (XO (XI (XO (XO (XI
+    XH))))))) :: ((Npos (XI (XO (XO (XI (XI (XI
+    XH))))))) :: []))))))))))))))))))))))))))
+
+(** val b_rfc3079_magic2 : n list **)
+
+let b_rfc3079_magic2 =
+  (Npos (XI (XI (XI (XI (XO (XO XH))))))) :: ((Npos (XO (XI (XI (XI (XO (XI
+    XH))))))) :: ((Npos (XO (XO (XO (XO (XO XH)))))) :: ((Npos (XO (XO (XI
+    (XO (XI (XI XH))))))) :: ((Npos (XO (XO (XO (XI (XO (XI
+    XH))))))) :: ((Npos (XI (XO (XI (XO (XO (XI XH))))))) :: ((Npos (XO (XO
+    (XO (XO (XO XH)))))) :: ((Npos (XI (XI (XO (XO (XO (XI
+    XH))))))) :: ((Npos (XO (XO (XI (XI (XO (XI XH))))))) :: ((Npos (XI (XO
+    (XO (XI (XO (XI XH))))))) :: ((Npos (XI (XO (XI (XO (XO (XI
+    XH))))))) :: ((Npos (XO (XI (XI (XI (XO (XI XH))))))) :: ((Npos (XO (XO
+    (XI (XO (XI (XI XH))))))) :: ((Npos (XO (XO (XO (XO (XO
+    XH)))))) :: ((Npos (XI (XI (XO (XO (XI (XI XH))))))) :: ((Npos (XI (XO
+    (XO (XI (XO (XI XH))))))) :: ((Npos (XO (XO (XI (XO (XO (XI
+    XH))))))) :: ((Npos (XI (XO (XI (XO (XO (XI XH))))))) :: ((Npos (XO (XO
+    (XI (XI (XO XH)))))) :: ((Npos (XO (XO (XO (XO (XO XH)))))) :: ((Npos (XO
+    (XO (XI (XO (XI (XI XH))))))) :: ((Npos (XO (XO (XO (XI (XO (XI
+    XH))))))) :: ((Npos (XI (XO (XO (XI (XO (XI XH))))))) :: ((Npos (XI (XI
+    (XO (XO (XI (XI XH))))))) :: ((Npos (XO (XO (XO (XO (XO
+    XH)))))) :: ((Npos (XI (XO (XO (XI (XO (XI XH))))))) :: ((Npos (XI (XI
+    (XO (XO (XI (XI XH))))))) :: ((Npos (XO (XO (XO (XO (XO
+    XH)))))) :: ((Npos (XO (XO (XI (XO (XI (XI XH))))))) :: ((Npos (XO (XO
+    (XO (XI (XO (XI XH))))))) :: ((Npos (XI (XO (XI (XO (XO (XI
+    XH))))))) :: ((Npos (XO (XO (XO (XO (XO XH)))))) :: ((Npos (XI (XI (XO
+    (XO (XI (XI XH))))))) :: ((Npos (XI (XO (XI (XO (XO (XI
+    XH))))))) :: ((Npos (XO (XI (XI (XI (XO (XI XH))))))) :: ((Npos (XO (XO
+    (XI (XO (XO (XI XH))))))) :: ((Npos (XO (XO (XO (XO (XO
+    XH)))))) :: ((Npos (XI (XI (XO (XI (XO (XI XH))))))) :: ((Npos (XI (XO
+    (XI (XO (XO (XI XH))))))) :: ((Npos (XI (XO (XO (XI (XI (XI
+    XH))))))) :: ((Npos (XI (XI (XO (XI (XI XH)))))) :: ((Npos (XO (XO (XO
+    (XO (XO XH)))))) :: ((Npos (XI (XI (XI (XI (XO (XI XH))))))) :: ((Npos
+    (XO (XI (XI (XI (XO (XI XH))))))) :: ((Npos (XO (XO (XO (XO (XO
+    XH)))))) :: ((Npos (XO (XO (XI (XO (XI (XI XH))))))) :: ((Npos (XO (XO
+    (XO (XI (XO (XI XH))))))) :: ((Npos (XI (XO (XI (XO (XO (XI
+    XH))))))) :: ((Npos (XO (XO (XO (XO (XO XH)))))) :: ((Npos (XI (XI (XO
+    (XO (XI (XI XH))))))) :: ((Npos (XI (XO (XI (XO (XO (XI
+    XH))))))) :: ((Npos (XO (XI (XO (XO (XI (XI XH))))))) :: ((Npos (XO (XI
+    (XI (XO (XI (XI XH))))))) :: ((Npos (XI (XO (XI (XO (XO (XI
+    XH))))))) :: ((Npos (XO (XI (XO (XO (XI (XI XH))))))) :: ((Npos (XO (XO
+    (XO (XO (XO XH)))))) :: ((Npos (XI (XI (XO (XO (XI (XI
+    XH))))))) :: ((Npos (XI (XO (XO (XI (XO (XI XH))))))) :: ((Npos (XO (XO
+    (XI (XO (XO (XI XH))))))) :: ((Npos (XI (XO (XI (XO (XO (XI
+    XH))))))) :: ((Npos (XO (XO (XI (XI (XO XH)))))) :: ((Npos (XO (XO (XO
+    (XO (XO XH)))))) :: ((Npos (XI (XO (XO (XI (XO (XI XH))))))) :: ((Npos
+    (XO (XO (XI (XO (XI (XI XH))))))) :: ((Npos (XO (XO (XO (XO (XO
+    XH)))))) :: ((Npos (XI (XO (XO (XI (XO (XI XH))))))) :: ((Npos (XI (XI
+    (XO (XO (XI (XI XH))))))) :: ((Npos (XO (XO (XO (XO (XO
+    XH)))))) :: ((Npos (XO (XO (XI (XO (XI (XI XH))))))) :: ((Npos (XO (XO
+    (XO (XI (XO (XI XH))))))) :: ((Npos (XI (XO (XI (XO (XO (XI
+    XH))))))) :: ((Npos (XO (XO (XO (XO (XO XH)))))) :: ((Npos (XO (XI (XO
+    (XO (XI (XI XH))))))) :: ((Npos (XI (XO (XI (XO (XO (XI
+    XH))))))) :: ((Npos (XI (XI (XO (XO (XO (XI XH))))))) :: ((Npos (XI (XO
+    (XI (XO (XO (XI XH))))))) :: ((Npos (XI (XO (XO (XI (XO (XI
+    XH))))))) :: ((Npos (XO (XI (XI (XO (XI (XI XH))))))) :: ((Npos (XI (XO
+    (XI (XO (XO (XI XH))))))) :: ((Npos (XO (XO (XO (XO (XO
+    XH)))))) :: ((Npos (XI (XI (XO (XI (XO (XI XH))))))) :: ((Npos (XI (XO
+    (XI (XO (XO (XI XH))))))) :: ((Npos (XI (XO (XO (XI (XI (XI
+    XH))))))) :: ((Npos (XO (XI (XI (XI (XO
+    XH)))))) :: [])))))))))))))))))))))))))))))))))))))))))))))))))))))))))))))))))))))))))))))))))))
+
+(** val b_rfc3079_magic3 : n list **)
+
+let b_rfc3079_magic3 =
+  (Npos (XI (XI (XI (XI (XO (XO XH))))))) :: ((Npos (XO (XI (XI (XI (XO (XI
+    XH))))))) :: ((Npos (XO (XO (XO (XO (XO XH)))))) :: ((Npos (XO (XO (XI
+    (XO (XI (XI XH))))))) :: ((Npos (XO (XO (XO (XI (XO (XI
+    XH))))))) :: ((Npos (XI (XO (XI (XO (XO (XI XH))))))) :: ((Npos (XO (XO
+    (XO (XO (XO XH)))))) :: ((Npos (XI (XI (XO (XO (XO (XI
+    XH))))))) :: ((Npos (XO (XO (XI (XI (XO (XI XH))))))) :: ((Npos (XI (XO
+    (XO (XI (XO (XI XH))))))) :: ((Npos (XI (XO (XI (XO (XO (XI
+    XH))))))) :: ((Npos (XO (XI (XI (XI (XO (XI XH))))))) :: ((Npos (XO (XO
+    (XI (XO (XI (XI XH))))))) :: ((Npos (XO (XO (XO (XO (XO
+    XH)))))) :: ((Npos (XI (XI (XO (XO (XI (XI XH))))))) :: ((Npos (XI (XO
+    (XO (XI (XO (XI XH))))))) :: ((Npos (XO (XO (XI (XO (XO (XI
+    XH))))))) :: ((Npos (XI (XO (XI (XO (XO (XI XH))))))) :: ((Npos (XO (XO
+    (XI (XI (XO XH)))))) :: ((Npos (XO (XO (XO (XO (XO XH)))))) :: ((Npos (XO
+    (XO (XI (XO (XI (XI XH))))))) :: ((Npos (XO (XO (XO (XI (XO (XI
+    XH))))))) :: ((Npos (XI (XO (XO (XI (XO (XI XH))))))) :: ((Npos (XI (XI
+    (XO (XO (XI (XI XH))))))) :: ((Npos (XO (XO (XO (XO (XO
+    XH)))))) :: ((Npos (XI (XO (XO (XI (XO (XI XH))))))) :: ((Npos (XI (XI
+    (XO (XO (XI (XI XH))))))) :: ((Npos (XO (XO (XO (XO (XO
+    XH)))))) :: ((Npos (XO (XO (XI (XO (XI (XI XH))))))) :: ((Npos (XO (XO
+    (XO (XI (XO (XI XH))))))) :: ((Npos (XI (XO (XI (XO (XO (XI
+    XH))))))) :: ((Npos (XO (XO (XO (XO (XO XH)))))) :: ((Npos (XO (XI (XO
+    (XO (XI (XI XH))))))) :: ((Npos (XI (XO (XI (XO (XO (XI
+    XH))))))) :: ((Npos (XI (XI (XO (XO (XO (XI XH))))))) :: ((Npos (XI (XO
+    (XI (XO (XO (XI XH))))))) :: ((Npos (XI (XO (XO (XI (XO (XI
+    XH))))))) :: ((Npos (XO (XI (XI (XO (XI (XI XH))))))) :: ((Npos (XI (XO
+    (XI (XO (XO (XI XH))))))) :: ((Npos (XO (XO (XO (XO (XO
+    XH)))))) :: ((Npos (XI (XI (XO (XI (XO (XI XH))))))) :: ((Npos (XI (XO
+    (XI (XO (XO (XI XH))))))) :: ((Npos (XI (XO (XO (XI (XI (XI
+    XH))))))) :: ((Npos (XI (XI (XO (XI (XI XH)))))) :: ((Npos (XO (XO (XO
+    (XO (XO XH)))))) :: ((Npos (XI (XI (XI (XI (XO (XI XH))))))) :: ((Npos
+    (XO (XI (XI (XI (XO (XI XH))))))) :: ((Npos (XO (XO (XO (XO (XO
+    XH)))))) :: ((Npos (XO (XO (XI (XO (XI (XI XH))))))) :: ((Npos (XO (XO
+    (XO (XI (XO (XI XH))))))) :: ((Npos (XI (XO (XI (XO (XO (XI
+    XH))))))) :: ((Npos (XO (XO (XO (XO (XO XH)))))) :: ((Npos (XI (XI (XO
+    (XO (XI (XI XH))))))) :: ((Npos (XI (XO (XI (XO (XO (XI
+    XH))))))) :: ((Npos (XO (XI (XO (XO (XI (XI XH))))))) :: ((Npos (XO (XI
+    (XI (XO (XI (XI XH))))))) :: ((Npos (XI (XO (XI (XO (XO (XI
+    XH))))))) :: ((Npos (XO (XI (XO (XO (XI (XI XH))))))) :: ((Npos (XO (XO
+    (XO (XO (XO XH)))))) :: ((Npos (XI (XI (XO (XO (XI (XI
+    XH))))))) :: ((Npos (XI (XO (XO (XI (XO (XI XH))))))) :: ((Npos (XO (XO
+    (XI (XO (XO (XI XH))))))) :: ((Npos (XI (XO (XI (XO (XO (XI
+    XH))))))) :: ((Npos (XO (XO (XI (XI (XO XH)))))) :: ((Npos (XO (XO (XO
+    (XO (XO XH)))))) :: ((Npos (XI (XO (XO (XI (XO (XI XH))))))) :: ((Npos
+    (XO (XO (XI (XO (XI (XI XH))))))) :: ((Npos (XO (XO (XO (XO (XO
+    XH)))))) :: ((Npos (XI (XO (XO (XI (XO (XI XH))))))) :: ((Npos (XI (XI
+    (XO (XO (XI (XI XH))))))) :: ((Npos (XO (XO (XO (XO (XO
+    XH)))))) :: ((Npos (XO (XO (XI (XO (XI (XI XH))))))) :: ((Npos (XO (XO
+    (XO (XI (XO (XI XH))))))) :: ((Npos (XI (XO (XI (XO (XO (XI
+    XH))))))) :: ((Npos (XO (XO (XO (XO (XO XH)))))) :: ((Npos (XI (XI (XO
+    (XO (XI (XI XH))))))) :: ((Npos (XI (XO (XI (XO (XO (XI
+    XH))))))) :: ((Npos (XO (XI (XI (XI (XO (XI XH))))))) :: ((Npos (XO (XO
+    (XI (XO (XO (XI XH))))))) :: ((Npos (XO (XO (XO (XO (XO
+    XH)))))) :: ((Npos (XI (XI (XO (XI (XO (XI XH))))))) :: ((Npos (XI (XO
+    (XI (XO (XO (XI XH))))))) :: ((Npos (XI (XO (XO (XI (XI (XI
+    XH))))))) :: ((Npos (XO (XI (XI (XI (XO
+    XH)))))) :: [])))))))))))))))))))))))))))))))))))))))))))))))))))))))))))))))))))))))))))))))))))
+
+(** val g_rfc3079_GetAsymmetricStartKey : guard list **)
+
+let g_rfc3079_GetAsymmetricStartKey =
+  { gexpr = (String ((Ascii (false, false, true, true, false, true, true,
+    false)), (String ((Ascii (true, false, true, false, false, true, true,
+    false)), (String ((Ascii (false, true, true, true, false, true, true,
+    false)), (String ((Ascii (false, false, false, true, false, true, false,
+    false)), (String ((Ascii (true, false, true, true, false, true, true,
+    false)), (String ((Ascii (true, false, false, false, false, true, true,
+    false)), (String ((Ascii (true, true, false, false, true, true, true,
+    false)), (String ((Ascii (false, false, true, false, true, true, true,
+    false)), (String ((Ascii (true, false, true, false, false, true, true,
+    false)), (String ((Ascii (false, true, false, false, true, true, true,
+    false)), (String ((Ascii (true, true, false, true, false, false, true,
+    false)), (String ((Ascii (true, false, true, false, false, true, true,
+    false)), (String ((Ascii (true, false, false, true, true, true, true,
+    false)), (String ((Ascii (true, false, false, true, false, true, false,
+    false)), EmptyString)))))))))))))))))))))))))))); gop = OpNE; glit =
+    (Zpos (XO (XO (XO (XO XH))))) } :: []
+
+(** val g_rfc3079_MakeKey : guard list **)
+
+let g_rfc3079_MakeKey =
+  { gexpr = (String ((Ascii (false, false, true, true, false, true, true,
+    false)), (String ((Ascii (true, false, true, false, false, true, true,
+    false)), (String ((Ascii (false, true, true, true, false, true, true,
+    false)), (String ((Ascii (false, false, false, true, false, true, false,
+    false)), (String ((Ascii (false, true, true, true, false, true, true,
+    false)), (String ((Ascii (false, false, true, false, true, true, true,
+    false)), (String ((Ascii (false, true, false, false, true, false, true,
+    false)), (String ((Ascii (true, false, true, false, false, true, true,
+    false)), (String ((Ascii (true, true, false, false, true, true, true,
+    false)), (String ((Ascii (false, false, false, false, true, true, true,
+    false)), (String ((Ascii (true, true, true, true, false, true, true,
+    false)), (String ((Ascii (false, true, true, true, false, true, true,
+    false)), (String ((Ascii (true, true, false, false, true, true, true,
+    false)), (String ((Ascii (true, false, true, false, false, true, true,
+    false)), (String ((Ascii (true, false, false, true, false, true, false,
+    false)), EmptyString)))))))))))))))))))))))))))))); gop = OpNE; glit =
+    (Zpos (XO (XO (XO (XI XH))))) } :: []
+
 (** val k_dictionary_AttributeOctets : z **)
 
 let k_dictionary_AttributeOctets =
@@ -3384,41 +3736,42 @@ let keep_top b k =
 let new_ipv6prefix ip mask0 =
   if holds (gd g_NewIPv6Prefix O) (zlen ip)
   then Err e_invalid
-  else let (ones, bits) = mask_size mask0 in
+  else let (ones0, bits) = mask_size mask0 in
        if holds (gd g_NewIPv6Prefix (S O)) (Z.of_nat bits)
        then Err e_invalid
        else let n0 =
-              Nat.div (add ones (S (S (S (S (S (S (S O)))))))) (S (S (S (S (S
-                (S (S (S O))))))))
+              Nat.div (add ones0 (S (S (S (S (S (S (S O)))))))) (S (S (S (S
+                (S (S (S (S O))))))))
             in
             let body = firstn n0 ip in
             let body' =
               if holds (gd g_NewIPv6Prefix (S (S O)))
                    (Z.of_nat
-                     (Nat.modulo ones (S (S (S (S (S (S (S (S O))))))))))
+                     (Nat.modulo ones0 (S (S (S (S (S (S (S (S O))))))))))
               then (match rev body with
                     | [] -> body
                     | last :: r ->
                       app (rev r)
                         ((keep_top last
-                           (Nat.modulo ones (S (S (S (S (S (S (S (S O)))))))))) :: []))
+                           (Nat.modulo ones0 (S (S (S (S (S (S (S (S
+                             O)))))))))) :: []))
               else body
             in
-            Ok (N0 :: ((zbyte (Z.of_nat ones)) :: body'))
+            Ok (N0 :: ((zbyte (Z.of_nat ones0)) :: body'))
 
 (** val cidr_mask : nat -> nat -> bytes **)
 
-let rec cidr_mask ones = function
+let rec cidr_mask ones0 = function
 | O -> []
 | S n' ->
-  if Nat.leb (S (S (S (S (S (S (S (S O)))))))) ones
+  if Nat.leb (S (S (S (S (S (S (S (S O)))))))) ones0
   then (Npos (XI (XI (XI (XI (XI (XI (XI
          XH)))))))) :: (cidr_mask
-                         (sub ones (S (S (S (S (S (S (S (S O))))))))) n')
+                         (sub ones0 (S (S (S (S (S (S (S (S O))))))))) n')
   else (N.sub (Npos (XI (XI (XI (XI (XI (XI (XI XH))))))))
          (N.sub
            (N.pow (Npos (XO XH))
-             (N.of_nat (sub (S (S (S (S (S (S (S (S O)))))))) ones))) (Npos
+             (N.of_nat (sub (S (S (S (S (S (S (S (S O)))))))) ones0))) (Npos
            XH))) :: (cidr_mask O n')
 
 (** val low_zero : n -> nat -> bool **)
@@ -4278,8 +4631,8 @@ let attr_equals a b =
         ((&&)
           ((&&) ((&&) (beq a.a_name b.a_name) (oid_eqb a.a_oid b.a_oid))
             (Z.eqb a.a_type b.a_type)) (opt_z_eqb a.a_size b.a_size))
-        (opt_z_eqb a.a_encrypt b.a_encrypt)) (eqb a.a_has_tag b.a_has_tag))
-    (eqb a.a_concat b.a_concat)
+        (opt_z_eqb a.a_encrypt b.a_encrypt)) (eqb0 a.a_has_tag b.a_has_tag))
+    (eqb0 a.a_concat b.a_concat)
 
 (** val upd_vendor : dict -> nat -> (vendor -> vendor) -> dict **)
 
@@ -4750,6 +5103,633 @@ let merge legacy h d1 d2 =
 let load h d =
   ((app h d.d_vendors), { p_attrs = d.d_attrs; p_values = d.d_values;
     p_vendors = (seq (length h) (length d.d_vendors)) })
+
+(** val popcount : n -> nat **)
+
+let popcount b =
+  length
+    (filter (fun i -> N.testbit b (N.of_nat i))
+      (seq O (S (S (S (S (S (S (S (S O))))))))))
+
+(** val parity_pad : bytes -> bytes **)
+
+let parity_pad key0 =
+  let inn = be_dec key0 in
+  map (fun i ->
+    let o =
+      N.modulo
+        (N.mul
+          (N.modulo
+            (N.div inn
+              (N.pow (Npos (XO XH))
+                (N.of_nat
+                  (mul (S (S (S (S (S (S (S O)))))))
+                    (sub (S (S (S (S (S (S (S O))))))) i))))) (Npos (XO (XO
+            (XO (XO (XO (XO (XO (XO XH)))))))))) (Npos (XO XH))) (Npos (XO
+        (XO (XO (XO (XO (XO (XO (XO XH)))))))))
+    in
+    if Nat.even (popcount o) then N.coq_lor o (Npos XH) else o)
+    (seq O (S (S (S (S (S (S (S (S O)))))))))
+
+(** val des_crypt : (bytes -> bytes -> bytes) -> bytes -> bytes -> bytes **)
+
+let des_crypt dES key0 clear =
+  let k =
+    if holds (gd g_rfc2759_DESCrypt O) (Z.of_nat (length key0))
+    then parity_pad key0
+    else key0
+  in
+  dES k (firstn (S (S (S (S (S (S (S (S O)))))))) clear)
+
+(** val challenge_hash :
+    (bytes -> bytes) -> bytes -> bytes -> bytes -> bytes **)
+
+let challenge_hash sHA1 peer auth0 user =
+  firstn (S (S (S (S (S (S (S (S O)))))))) (sHA1 (app peer (app auth0 user)))
+
+(** val nt_password_hash : (bytes -> bytes) -> bytes -> bytes **)
+
+let nt_password_hash mD4 =
+  mD4
+
+(** val challenge_response :
+    (bytes -> bytes -> bytes) -> bytes -> bytes -> bytes **)
+
+let challenge_response dES challenge hash =
+  let z0 =
+    firstn (S (S (S (S (S (S (S (S (S (S (S (S (S (S (S (S (S (S (S (S (S
+      O)))))))))))))))))))))
+      (app hash
+        (repeat N0 (S (S (S (S (S (S (S (S (S (S (S (S (S (S (S (S (S (S (S
+          (S (S O)))))))))))))))))))))))
+  in
+  app (des_crypt dES (firstn (S (S (S (S (S (S (S O))))))) z0) challenge)
+    (app
+      (des_crypt dES
+        (firstn (S (S (S (S (S (S (S O)))))))
+          (skipn (S (S (S (S (S (S (S O))))))) z0)) challenge)
+      (des_crypt dES
+        (firstn (S (S (S (S (S (S (S O)))))))
+          (skipn (S (S (S (S (S (S (S (S (S (S (S (S (S (S O)))))))))))))) z0))
+        challenge))
+
+(** val generate_nt_response :
+    (bytes -> bytes) -> (bytes -> bytes) -> (bytes -> bytes) -> (bytes ->
+    bytes -> bytes) -> bytes -> bytes -> bytes -> bytes -> bytes **)
+
+let generate_nt_response sHA1 mD4 uTF16 dES auth0 peer user pw =
+  challenge_response dES (challenge_hash sHA1 peer auth0 user)
+    (nt_password_hash mD4 (uTF16 pw))
+
+(** val hex_upper_digit : n -> n **)
+
+let hex_upper_digit n0 =
+  if N.ltb n0 (Npos (XO (XI (XO XH))))
+  then N.add (Npos (XO (XO (XO (XO (XI XH)))))) n0
+  else N.add (Npos (XI (XI (XI (XO (XI XH)))))) n0
+
+(** val hex_upper : bytes -> bytes **)
+
+let hex_upper b =
+  flat_map (fun x ->
+    (hex_upper_digit (N.div x (Npos (XO (XO (XO (XO XH))))))) :: ((hex_upper_digit
+                                                                    (N.modulo
+                                                                    x (Npos
+                                                                    (XO (XO
+                                                                    (XO (XO
+                                                                    XH))))))) :: []))
+    b
+
+(** val generate_authenticator_response :
+    (bytes -> bytes) -> (bytes -> bytes) -> (bytes -> bytes) -> bytes ->
+    bytes -> bytes -> bytes -> bytes -> bytes **)
+
+let generate_authenticator_response sHA1 mD4 uTF16 auth0 peer ntresp user pw =
+  let hh = nt_password_hash mD4 (nt_password_hash mD4 (uTF16 pw)) in
+  let digest = sHA1 (app hh (app ntresp b_rfc2759_magic1)) in
+  let challenge = challenge_hash sHA1 peer auth0 user in
+  app ((Npos (XI (XI (XO (XO (XI (XO XH))))))) :: ((Npos (XI (XO (XI (XI (XI
+    XH)))))) :: []))
+    (hex_upper (sHA1 (app digest (app challenge b_rfc2759_magic2))))
+
+(** val get_master_key : (bytes -> bytes) -> bytes -> bytes -> bytes **)
+
+let get_master_key sHA1 hh ntresp =
+  firstn (S (S (S (S (S (S (S (S (S (S (S (S (S (S (S (S O))))))))))))))))
+    (sHA1 (app hh (app ntresp b_rfc3079_magic1)))
+
+(** val get_asymmetric_start_key :
+    (bytes -> bytes) -> bytes -> nat -> bool -> bytes res **)
+
+let get_asymmetric_start_key sHA1 master keylen is_send =
+  if holds (gd g_rfc3079_GetAsymmetricStartKey O) (Z.of_nat (length master))
+  then Err e_invalid
+  else let d =
+         sHA1
+           (app master
+             (app b_rfc3079_shaPad1
+               (app (if is_send then b_rfc3079_magic3 else b_rfc3079_magic2)
+                 b_rfc3079_shaPad2)))
+       in
+       if Nat.ltb (length d) keylen then Panic else Ok (firstn keylen d)
+
+(** val make_key :
+    (bytes -> bytes) -> (bytes -> bytes) -> (bytes -> bytes) -> bytes ->
+    bytes -> bool -> bytes res **)
+
+let make_key sHA1 mD4 uTF16 ntresp pw is_send =
+  if holds (gd g_rfc3079_MakeKey O) (Z.of_nat (length ntresp))
+  then Err e_invalid
+  else let h = nt_password_hash mD4 (uTF16 pw) in
+       get_asymmetric_start_key sHA1
+         (get_master_key sHA1 (nt_password_hash mD4 h) ntresp)
+         (Z.to_nat k_rfc3079_KeyLength128Bit) is_send
+
+(** val txt : string -> bytes **)
+
+let txt s =
+  map n_of_ascii (list_ascii_of_string s)
+
+(** val rfc_magic1 : bytes **)
+
+let rfc_magic1 =
+  txt (String ((Ascii (true, false, true, true, false, false, true, false)),
+    (String ((Ascii (true, false, false, false, false, true, true, false)),
+    (String ((Ascii (true, true, true, false, false, true, true, false)),
+    (String ((Ascii (true, false, false, true, false, true, true, false)),
+    (String ((Ascii (true, true, false, false, false, true, true, false)),
+    (String ((Ascii (false, false, false, false, false, true, false, false)),
+    (String ((Ascii (true, true, false, false, true, true, true, false)),
+    (String ((Ascii (true, false, true, false, false, true, true, false)),
+    (String ((Ascii (false, true, false, false, true, true, true, false)),
+    (String ((Ascii (false, true, true, false, true, true, true, false)),
+    (String ((Ascii (true, false, true, false, false, true, true, false)),
+    (String ((Ascii (false, true, false, false, true, true, true, false)),
+    (String ((Ascii (false, false, false, false, false, true, false, false)),
+    (String ((Ascii (false, false, true, false, true, true, true, false)),
+    (String ((Ascii (true, true, true, true, false, true, true, false)),
+    (String ((Ascii (false, false, false, false, false, true, false, false)),
+    (String ((Ascii (true, true, false, false, false, true, true, false)),
+    (String ((Ascii (false, false, true, true, false, true, true, false)),
+    (String ((Ascii (true, false, false, true, false, true, true, false)),
+    (String ((Ascii (true, false, true, false, false, true, true, false)),
+    (String ((Ascii (false, true, true, true, false, true, true, false)),
+    (String ((Ascii (false, false, true, false, true, true, true, false)),
+    (String ((Ascii (false, false, false, false, false, true, false, false)),
+    (String ((Ascii (true, true, false, false, true, true, true, false)),
+    (String ((Ascii (true, false, false, true, false, true, true, false)),
+    (String ((Ascii (true, true, true, false, false, true, true, false)),
+    (String ((Ascii (false, true, true, true, false, true, true, false)),
+    (String ((Ascii (true, false, false, true, false, true, true, false)),
+    (String ((Ascii (false, true, true, true, false, true, true, false)),
+    (String ((Ascii (true, true, true, false, false, true, true, false)),
+    (String ((Ascii (false, false, false, false, false, true, false, false)),
+    (String ((Ascii (true, true, false, false, false, true, true, false)),
+    (String ((Ascii (true, true, true, true, false, true, true, false)),
+    (String ((Ascii (false, true, true, true, false, true, true, false)),
+    (String ((Ascii (true, true, false, false, true, true, true, false)),
+    (String ((Ascii (false, false, true, false, true, true, true, false)),
+    (String ((Ascii (true, false, false, false, false, true, true, false)),
+    (String ((Ascii (false, true, true, true, false, true, true, false)),
+    (String ((Ascii (false, false, true, false, true, true, true, false)),
+    EmptyString))))))))))))))))))))))))))))))))))))))))))))))))))))))))))))))))))))))))))))))
+
+(** val rfc_magic2 : bytes **)
+
+let rfc_magic2 =
+  txt (String ((Ascii (false, false, false, false, true, false, true,
+    false)), (String ((Ascii (true, false, false, false, false, true, true,
+    false)), (String ((Ascii (false, false, true, false, false, true, true,
+    false)), (String ((Ascii (false, false, false, false, false, true, false,
+    false)), (String ((Ascii (false, false, true, false, true, true, true,
+    false)), (String ((Ascii (true, true, true, true, false, true, true,
+    false)), (String ((Ascii (false, false, false, false, false, true, false,
+    false)), (String ((Ascii (true, false, true, true, false, true, true,
+    false)), (String ((Ascii (true, false, false, false, false, true, true,
+    false)), (String ((Ascii (true, true, false, true, false, true, true,
+    false)), (String ((Ascii (true, false, true, false, false, true, true,
+    false)), (String ((Ascii (false, false, false, false, false, true, false,
+    false)), (String ((Ascii (true, false, false, true, false, true, true,
+    false)), (String ((Ascii (false, false, true, false, true, true, true,
+    false)), (String ((Ascii (false, false, false, false, false, true, false,
+    false)), (String ((Ascii (false, false, true, false, false, true, true,
+    false)), (String ((Ascii (true, true, true, true, false, true, true,
+    false)), (String ((Ascii (false, false, false, false, false, true, false,
+    false)), (String ((Ascii (true, false, true, true, false, true, true,
+    false)), (String ((Ascii (true, true, true, true, false, true, true,
+    false)), (String ((Ascii (false, true, false, false, true, true, true,
+    false)), (String ((Ascii (true, false, true, false, false, true, true,
+    false)), (String ((Ascii (false, false, false, false, false, true, false,
+    false)), (String ((Ascii (false, false, true, false, true, true, true,
+    false)), (String ((Ascii (false, false, false, true, false, true, true,
+    false)), (String ((Ascii (true, false, false, false, false, true, true,
+    false)), (String ((Ascii (false, true, true, true, false, true, true,
+    false)), (String ((Ascii (false, false, false, false, false, true, false,
+    false)), (String ((Ascii (true, true, true, true, false, true, true,
+    false)), (String ((Ascii (false, true, true, true, false, true, true,
+    false)), (String ((Ascii (true, false, true, false, false, true, true,
+    false)), (String ((Ascii (false, false, false, false, false, true, false,
+    false)), (String ((Ascii (true, false, false, true, false, true, true,
+    false)), (String ((Ascii (false, false, true, false, true, true, true,
+    false)), (String ((Ascii (true, false, true, false, false, true, true,
+    false)), (String ((Ascii (false, true, false, false, true, true, true,
+    false)), (String ((Ascii (true, false, false, false, false, true, true,
+    false)), (String ((Ascii (false, false, true, false, true, true, true,
+    false)), (String ((Ascii (true, false, false, true, false, true, true,
+    false)), (String ((Ascii (true, true, true, true, false, true, true,
+    false)), (String ((Ascii (false, true, true, true, false, true, true,
+    false)),
+    EmptyString))))))))))))))))))))))))))))))))))))))))))))))))))))))))))))))))))))))))))))))))))
+
+(** val rfc_mppe_magic1 : bytes **)
+
+let rfc_mppe_magic1 =
+  txt (String ((Ascii (false, false, true, false, true, false, true, false)),
+    (String ((Ascii (false, false, false, true, false, true, true, false)),
+    (String ((Ascii (true, false, false, true, false, true, true, false)),
+    (String ((Ascii (true, true, false, false, true, true, true, false)),
+    (String ((Ascii (false, false, false, false, false, true, false, false)),
+    (String ((Ascii (true, false, false, true, false, true, true, false)),
+    (String ((Ascii (true, true, false, false, true, true, true, false)),
+    (String ((Ascii (false, false, false, false, false, true, false, false)),
+    (String ((Ascii (false, false, true, false, true, true, true, false)),
+    (String ((Ascii (false, false, false, true, false, true, true, false)),
+    (String ((Ascii (true, false, true, false, false, true, true, false)),
+    (String ((Ascii (false, false, false, false, false, true, false, false)),
+    (String ((Ascii (true, false, true, true, false, false, true, false)),
+    (String ((Ascii (false, false, false, false, true, false, true, false)),
+    (String ((Ascii (false, false, false, false, true, false, true, false)),
+    (String ((Ascii (true, false, true, false, false, false, true, false)),
+    (String ((Ascii (false, false, false, false, false, true, false, false)),
+    (String ((Ascii (true, false, true, true, false, false, true, false)),
+    (String ((Ascii (true, false, false, false, false, true, true, false)),
+    (String ((Ascii (true, true, false, false, true, true, true, false)),
+    (String ((Ascii (false, false, true, false, true, true, true, false)),
+    (String ((Ascii (true, false, true, false, false, true, true, false)),
+    (String ((Ascii (false, true, false, false, true, true, true, false)),
+    (String ((Ascii (false, false, false, false, false, true, false, false)),
+    (String ((Ascii (true, true, false, true, false, false, true, false)),
+    (String ((Ascii (true, false, true, false, false, true, true, false)),
+    (String ((Ascii (true, false, false, true, true, true, true, false)),
+    EmptyString))))))))))))))))))))))))))))))))))))))))))))))))))))))
+
+(** val rfc_mppe_magic2 : bytes **)
+
+let rfc_mppe_magic2 =
+  txt (String ((Ascii (true, true, true, true, false, false, true, false)),
+    (String ((Ascii (false, true, true, true, false, true, true, false)),
+    (String ((Ascii (false, false, false, false, false, true, false, false)),
+    (String ((Ascii (false, false, true, false, true, true, true, false)),
+    (String ((Ascii (false, false, false, true, false, true, true, false)),
+    (String ((Ascii (true, false, true, false, false, true, true, false)),
+    (String ((Ascii (false, false, false, false, false, true, false, false)),
+    (String ((Ascii (true, true, false, false, false, true, true, false)),
+    (String ((Ascii (false, false, true, true, false, true, true, false)),
+    (String ((Ascii (true, false, false, true, false, true, true, false)),
+    (String ((Ascii (true, false, true, false, false, true, true, false)),
+    (String ((Ascii (false, true, true, true, false, true, true, false)),
+    (String ((Ascii (false, false, true, false, true, true, true, false)),
+    (String ((Ascii (false, false, false, false, false, true, false, false)),
+    (String ((Ascii (true, true, false, false, true, true, true, false)),
+    (String ((Ascii (true, false, false, true, false, true, true, false)),
+    (String ((Ascii (false, false, true, false, false, true, true, false)),
+    (String ((Ascii (true, false, true, false, false, true, true, false)),
+    (String ((Ascii (false, false, true, true, false, true, false, false)),
+    (String ((Ascii (false, false, false, false, false, true, false, false)),
+    (String ((Ascii (false, false, true, false, true, true, true, false)),
+    (String ((Ascii (false, false, false, true, false, true, true, false)),
+    (String ((Ascii (true, false, false, true, false, true, true, false)),
+    (String ((Ascii (true, true, false, false, true, true, true, false)),
+    (String ((Ascii (false, false, false, false, false, true, false, false)),
+    (String ((Ascii (true, false, false, true, false, true, true, false)),
+    (String ((Ascii (true, true, false, false, true, true, true, false)),
+    (String ((Ascii (false, false, false, false, false, true, false, false)),
+    (String ((Ascii (false, false, true, false, true, true, true, false)),
+    (String ((Ascii (false, false, false, true, false, true, true, false)),
+    (String ((Ascii (true, false, true, false, false, true, true, false)),
+    (String ((Ascii (false, false, false, false, false, true, false, false)),
+    (String ((Ascii (true, true, false, false, true, true, true, false)),
+    (String ((Ascii (true, false, true, false, false, true, true, false)),
+    (String ((Ascii (false, true, true, true, false, true, true, false)),
+    (String ((Ascii (false, false, true, false, false, true, true, false)),
+    (String ((Ascii (false, false, false, false, false, true, false, false)),
+    (String ((Ascii (true, true, false, true, false, true, true, false)),
+    (String ((Ascii (true, false, true, false, false, true, true, false)),
+    (String ((Ascii (true, false, false, true, true, true, true, false)),
+    (String ((Ascii (true, true, false, true, true, true, false, false)),
+    (String ((Ascii (false, false, false, false, false, true, false, false)),
+    (String ((Ascii (true, true, true, true, false, true, true, false)),
+    (String ((Ascii (false, true, true, true, false, true, true, false)),
+    (String ((Ascii (false, false, false, false, false, true, false, false)),
+    (String ((Ascii (false, false, true, false, true, true, true, false)),
+    (String ((Ascii (false, false, false, true, false, true, true, false)),
+    (String ((Ascii (true, false, true, false, false, true, true, false)),
+    (String ((Ascii (false, false, false, false, false, true, false, false)),
+    (String ((Ascii (true, true, false, false, true, true, true, false)),
+    (String ((Ascii (true, false, true, false, false, true, true, false)),
+    (String ((Ascii (false, true, false, false, true, true, true, false)),
+    (String ((Ascii (false, true, true, false, true, true, true, false)),
+    (String ((Ascii (true, false, true, false, false, true, true, false)),
+    (String ((Ascii (false, true, false, false, true, true, true, false)),
+    (String ((Ascii (false, false, false, false, false, true, false, false)),
+    (String ((Ascii (true, true, false, false, true, true, true, false)),
+    (String ((Ascii (true, false, false, true, false, true, true, false)),
+    (String ((Ascii (false, false, true, false, false, true, true, false)),
+    (String ((Ascii (true, false, true, false, false, true, true, false)),
+    (String ((Ascii (false, false, true, true, false, true, false, false)),
+    (String ((Ascii (false, false, false, false, false, true, false, false)),
+    (String ((Ascii (true, false, false, true, false, true, true, false)),
+    (String ((Ascii (false, false, true, false, true, true, true, false)),
+    (String ((Ascii (false, false, false, false, false, true, false, false)),
+    (String ((Ascii (true, false, false, true, false, true, true, false)),
+    (String ((Ascii (true, true, false, false, true, true, true, false)),
+    (String ((Ascii (false, false, false, false, false, true, false, false)),
+    (String ((Ascii (false, false, true, false, true, true, true, false)),
+    (String ((Ascii (false, false, false, true, false, true, true, false)),
+    (String ((Ascii (true, false, true, false, false, true, true, false)),
+    (String ((Ascii (false, false, false, false, false, true, false, false)),
+    (String ((Ascii (false, true, false, false, true, true, true, false)),
+    (String ((Ascii (true, false, true, false, false, true, true, false)),
+    (String ((Ascii (true, true, false, false, false, true, true, false)),
+    (String ((Ascii (true, false, true, false, false, true, true, false)),
+    (String ((Ascii (true, false, false, true, false, true, true, false)),
+    (String ((Ascii (false, true, true, false, true, true, true, false)),
+    (String ((Ascii (true, false, true, false, false, true, true, false)),
+    (String ((Ascii (false, false, false, false, false, true, false, false)),
+    (String ((Ascii (true, true, false, true, false, true, true, false)),
+    (String ((Ascii (true, false, true, false, false, true, true, false)),
+    (String ((Ascii (true, false, false, true, true, true, true, false)),
+    (String ((Ascii (false, true, true, true, false, true, false, false)),
+    EmptyString))))))))))))))))))))))))))))))))))))))))))))))))))))))))))))))))))))))))))))))))))))))))))))))))))))))))))))))))))))))))))))))))))))))))))))))))))))))))))))))))))))))))
+
+(** val rfc_mppe_magic3 : bytes **)
+
+let rfc_mppe_magic3 =
+  txt (String ((Ascii (true, true, true, true, false, false, true, false)),
+    (String ((Ascii (false, true, true, true, false, true, true, false)),
+    (String ((Ascii (false, false, false, false, false, true, false, false)),
+    (String ((Ascii (false, false, true, false, true, true, true, false)),
+    (String ((Ascii (false, false, false, true, false, true, true, false)),
+    (String ((Ascii (true, false, true, false, false, true, true, false)),
+    (String ((Ascii (false, false, false, false, false, true, false, false)),
+    (String ((Ascii (true, true, false, false, false, true, true, false)),
+    (String ((Ascii (false, false, true, true, false, true, true, false)),
+    (String ((Ascii (true, false, false, true, false, true, true, false)),
+    (String ((Ascii (true, false, true, false, false, true, true, false)),
+    (String ((Ascii (false, true, true, true, false, true, true, false)),
+    (String ((Ascii (false, false, true, false, true, true, true, false)),
+    (String ((Ascii (false, false, false, false, false, true, false, false)),
+    (String ((Ascii (true, true, false, false, true, true, true, false)),
+    (String ((Ascii (true, false, false, true, false, true, true, false)),
+    (String ((Ascii (false, false, true, false, false, true, true, false)),
+    (String ((Ascii (true, false, true, false, false, true, true, false)),
+    (String ((Ascii (false, false, true, true, false, true, false, false)),
+    (String ((Ascii (false, false, false, false, false, true, false, false)),
+    (String ((Ascii (false, false, true, false, true, true, true, false)),
+    (String ((Ascii (false, false, false, true, false, true, true, false)),
+    (String ((Ascii (true, false, false, true, false, true, true, false)),
+    (String ((Ascii (true, true, false, false, true, true, true, false)),
+    (String ((Ascii (false, false, false, false, false, true, false, false)),
+    (String ((Ascii (true, false, false, true, false, true, true, false)),
+    (String ((Ascii (true, true, false, false, true, true, true, false)),
+    (String ((Ascii (false, false, false, false, false, true, false, false)),
+    (String ((Ascii (false, false, true, false, true, true, true, false)),
+    (String ((Ascii (false, false, false, true, false, true, true, false)),
+    (String ((Ascii (true, false, true, false, false, true, true, false)),
+    (String ((Ascii (false, false, false, false, false, true, false, false)),
+    (String ((Ascii (false, true, false, false, true, true, true, false)),
+    (String ((Ascii (true, false, true, false, false, true, true, false)),
+    (String ((Ascii (true, true, false, false, false, true, true, false)),
+    (String ((Ascii (true, false, true, false, false, true, true, false)),
+    (String ((Ascii (true, false, false, true, false, true, true, false)),
+    (String ((Ascii (false, true, true, false, true, true, true, false)),
+    (String ((Ascii (true, false, true, false, false, true, true, false)),
+    (String ((Ascii (false, false, false, false, false, true, false, false)),
+    (String ((Ascii (true, true, false, true, false, true, true, false)),
+    (String ((Ascii (true, false, true, false, false, true, true, false)),
+    (String ((Ascii (true, false, false, true, true, true, true, false)),
+    (String ((Ascii (true, true, false, true, true, true, false, false)),
+    (String ((Ascii (false, false, false, false, false, true, false, false)),
+    (String ((Ascii (true, true, true, true, false, true, true, false)),
+    (String ((Ascii (false, true, true, true, false, true, true, false)),
+    (String ((Ascii (false, false, false, false, false, true, false, false)),
+    (String ((Ascii (false, false, true, false, true, true, true, false)),
+    (String ((Ascii (false, false, false, true, false, true, true, false)),
+    (String ((Ascii (true, false, true, false, false, true, true, false)),
+    (String ((Ascii (false, false, false, false, false, true, false, false)),
+    (String ((Ascii (true, true, false, false, true, true, true, false)),
+    (String ((Ascii (true, false, true, false, false, true, true, false)),
+    (String ((Ascii (false, true, false, false, true, true, true, false)),
+    (String ((Ascii (false, true, true, false, true, true, true, false)),
+    (String ((Ascii (true, false, true, false, false, true, true, false)),
+    (String ((Ascii (false, true, false, false, true, true, true, false)),
+    (String ((Ascii (false, false, false, false, false, true, false, false)),
+    (String ((Ascii (true, true, false, false, true, true, true, false)),
+    (String ((Ascii (true, false, false, true, false, true, true, false)),
+    (String ((Ascii (false, false, true, false, false, true, true, false)),
+    (String ((Ascii (true, false, true, false, false, true, true, false)),
+    (String ((Ascii (false, false, true, true, false, true, false, false)),
+    (String ((Ascii (false, false, false, false, false, true, false, false)),
+    (String ((Ascii (true, false, false, true, false, true, true, false)),
+    (String ((Ascii (false, false, true, false, true, true, true, false)),
+    (String ((Ascii (false, false, false, false, false, true, false, false)),
+    (String ((Ascii (true, false, false, true, false, true, true, false)),
+    (String ((Ascii (true, true, false, false, true, true, true, false)),
+    (String ((Ascii (false, false, false, false, false, true, false, false)),
+    (String ((Ascii (false, false, true, false, true, true, true, false)),
+    (String ((Ascii (false, false, false, true, false, true, true, false)),
+    (String ((Ascii (true, false, true, false, false, true, true, false)),
+    (String ((Ascii (false, false, false, false, false, true, false, false)),
+    (String ((Ascii (true, true, false, false, true, true, true, false)),
+    (String ((Ascii (true, false, true, false, false, true, true, false)),
+    (String ((Ascii (false, true, true, true, false, true, true, false)),
+    (String ((Ascii (false, false, true, false, false, true, true, false)),
+    (String ((Ascii (false, false, false, false, false, true, false, false)),
+    (String ((Ascii (true, true, false, true, false, true, true, false)),
+    (String ((Ascii (true, false, true, false, false, true, true, false)),
+    (String ((Ascii (true, false, false, true, true, true, true, false)),
+    (String ((Ascii (false, true, true, true, false, true, false, false)),
+    EmptyString))))))))))))))))))))))))))))))))))))))))))))))))))))))))))))))))))))))))))))))))))))))))))))))))))))))))))))))))))))))))))))))))))))))))))))))))))))))))))))))))))))))))
+
+(** val rfc_shspad1 : bytes **)
+
+let rfc_shspad1 =
+  repeat N0 (S (S (S (S (S (S (S (S (S (S (S (S (S (S (S (S (S (S (S (S (S (S
+    (S (S (S (S (S (S (S (S (S (S (S (S (S (S (S (S (S (S
+    O))))))))))))))))))))))))))))))))))))))))
+
+(** val rfc_shspad2 : bytes **)
+
+let rfc_shspad2 =
+  repeat (Npos (XO (XI (XO (XO (XI (XI (XI XH)))))))) (S (S (S (S (S (S (S (S
+    (S (S (S (S (S (S (S (S (S (S (S (S (S (S (S (S (S (S (S (S (S (S (S (S
+    (S (S (S (S (S (S (S (S O))))))))))))))))))))))))))))))))))))))))
+
+(** val digit128 : bytes -> nat -> n **)
+
+let digit128 key0 i =
+  N.modulo
+    (N.div (be_dec key0)
+      (N.pow (Npos (XO (XO (XO (XO (XO (XO (XO XH))))))))
+        (N.of_nat (sub (S (S (S (S (S (S (S O))))))) i)))) (Npos (XO (XO (XO
+    (XO (XO (XO (XO XH))))))))
+
+(** val ones : n -> nat **)
+
+let ones b =
+  length
+    (filter (fun i -> N.testbit b (N.of_nat i))
+      (seq O (S (S (S (S (S (S (S (S O))))))))))
+
+(** val with_odd_parity : n -> n **)
+
+let with_odd_parity seven =
+  let o = N.mul seven (Npos (XO XH)) in
+  if Nat.even (ones o) then N.add o (Npos XH) else o
+
+(** val rfc_des_key : bytes -> bytes **)
+
+let rfc_des_key key7 =
+  map (fun i -> with_odd_parity (digit128 key7 i))
+    (seq O (S (S (S (S (S (S (S (S O)))))))))
+
+(** val rfc_des_encrypt :
+    (bytes -> bytes -> bytes) -> bytes -> bytes -> bytes **)
+
+let rfc_des_encrypt dES clear key7 =
+  dES (rfc_des_key key7) clear
+
+(** val rfc_challenge_hash :
+    (bytes -> bytes) -> bytes -> bytes -> bytes -> bytes **)
+
+let rfc_challenge_hash sHA1 peer auth0 user =
+  firstn (S (S (S (S (S (S (S (S O)))))))) (sHA1 (app peer (app auth0 user)))
+
+(** val rfc_nt_password_hash : (bytes -> bytes) -> bytes -> bytes **)
+
+let rfc_nt_password_hash mD4 =
+  mD4
+
+(** val rfc_challenge_response :
+    (bytes -> bytes -> bytes) -> bytes -> bytes -> bytes **)
+
+let rfc_challenge_response dES challenge hash16 =
+  let z0 = app hash16 (repeat N0 (S (S (S (S (S O)))))) in
+  app
+    (rfc_des_encrypt dES challenge (firstn (S (S (S (S (S (S (S O))))))) z0))
+    (app
+      (rfc_des_encrypt dES challenge
+        (firstn (S (S (S (S (S (S (S O)))))))
+          (skipn (S (S (S (S (S (S (S O))))))) z0)))
+      (rfc_des_encrypt dES challenge
+        (firstn (S (S (S (S (S (S (S O)))))))
+          (skipn (S (S (S (S (S (S (S (S (S (S (S (S (S (S O)))))))))))))) z0))))
+
+(** val rfc_generate_nt_response :
+    (bytes -> bytes) -> (bytes -> bytes) -> (bytes -> bytes) -> (bytes ->
+    bytes -> bytes) -> bytes -> bytes -> bytes -> bytes -> bytes **)
+
+let rfc_generate_nt_response sHA1 mD4 uTF16 dES auth0 peer user pw =
+  rfc_challenge_response dES (rfc_challenge_hash sHA1 peer auth0 user)
+    (rfc_nt_password_hash mD4 (uTF16 pw))
+
+(** val up_hex : n -> n **)
+
+let up_hex n0 =
+  nth (N.to_nat n0)
+    (txt (String ((Ascii (false, false, false, false, true, true, false,
+      false)), (String ((Ascii (true, false, false, false, true, true, false,
+      false)), (String ((Ascii (false, true, false, false, true, true, false,
+      false)), (String ((Ascii (true, true, false, false, true, true, false,
+      false)), (String ((Ascii (false, false, true, false, true, true, false,
+      false)), (String ((Ascii (true, false, true, false, true, true, false,
+      false)), (String ((Ascii (false, true, true, false, true, true, false,
+      false)), (String ((Ascii (true, true, true, false, true, true, false,
+      false)), (String ((Ascii (false, false, false, true, true, true, false,
+      false)), (String ((Ascii (true, false, false, true, true, true, false,
+      false)), (String ((Ascii (true, false, false, false, false, false,
+      true, false)), (String ((Ascii (false, true, false, false, false,
+      false, true, false)), (String ((Ascii (true, true, false, false, false,
+      false, true, false)), (String ((Ascii (false, false, true, false,
+      false, false, true, false)), (String ((Ascii (true, false, true, false,
+      false, false, true, false)), (String ((Ascii (false, true, true, false,
+      false, false, true, false)),
+      EmptyString))))))))))))))))))))))))))))))))) (Npos (XI (XI (XI (XI (XI
+    XH))))))
+
+(** val rfc_hex : bytes -> bytes **)
+
+let rfc_hex b =
+  flat_map (fun x ->
+    (up_hex (N.div x (Npos (XO (XO (XO (XO XH))))))) :: ((up_hex
+                                                           (N.modulo x (Npos
+                                                             (XO (XO (XO (XO
+                                                             XH))))))) :: []))
+    b
+
+(** val rfc_generate_authenticator_response :
+    (bytes -> bytes) -> (bytes -> bytes) -> (bytes -> bytes) -> bytes ->
+    bytes -> bytes -> bytes -> bytes -> bytes **)
+
+let rfc_generate_authenticator_response sHA1 mD4 uTF16 auth0 peer ntresp user pw =
+  let hh = rfc_nt_password_hash mD4 (rfc_nt_password_hash mD4 (uTF16 pw)) in
+  let digest = sHA1 (app hh (app ntresp rfc_magic1)) in
+  app
+    (txt (String ((Ascii (true, true, false, false, true, false, true,
+      false)), (String ((Ascii (true, false, true, true, true, true, false,
+      false)), EmptyString)))))
+    (rfc_hex
+      (sHA1
+        (app digest
+          (app (rfc_challenge_hash sHA1 peer auth0 user) rfc_magic2))))
+
+(** val rfc_get_master_key : (bytes -> bytes) -> bytes -> bytes -> bytes **)
+
+let rfc_get_master_key sHA1 hh ntresp =
+  firstn (S (S (S (S (S (S (S (S (S (S (S (S (S (S (S (S O))))))))))))))))
+    (sHA1 (app hh (app ntresp rfc_mppe_magic1)))
+
+(** val rfc_get_asymmetric_start_key :
+    (bytes -> bytes) -> bytes -> nat -> bool -> bytes **)
+
+let rfc_get_asymmetric_start_key sHA1 master keylen is_send =
+  firstn keylen
+    (sHA1
+      (app master
+        (app rfc_shspad1
+          (app (if is_send then rfc_mppe_magic3 else rfc_mppe_magic2)
+            rfc_shspad2))))
+
+(** val rfc_make_key :
+    (bytes -> bytes) -> (bytes -> bytes) -> (bytes -> bytes) -> bytes ->
+    bytes -> bool -> bytes **)
+
+let rfc_make_key sHA1 mD4 uTF16 ntresp pw is_send =
+  let h = rfc_nt_password_hash mD4 (uTF16 pw) in
+  rfc_get_asymmetric_start_key sHA1
+    (rfc_get_master_key sHA1 (rfc_nt_password_hash mD4 h) ntresp) (S (S (S (S
+    (S (S (S (S (S (S (S (S (S (S (S (S O)))))))))))))))) is_send
+
+(** val spec_get_asymmetric_start_key :
+    (bytes -> bytes) -> bytes -> nat -> bool -> bytes res **)
+
+let spec_get_asymmetric_start_key sHA1 master keylen is_send =
+  if negb
+       (Nat.eqb (length master) (S (S (S (S (S (S (S (S (S (S (S (S (S (S (S
+         (S O)))))))))))))))))
+  then Err e_invalid
+  else Ok (rfc_get_asymmetric_start_key sHA1 master keylen is_send)
+
+(** val spec_make_key :
+    (bytes -> bytes) -> (bytes -> bytes) -> (bytes -> bytes) -> bytes ->
+    bytes -> bool -> bytes res **)
+
+let spec_make_key sHA1 mD4 uTF16 ntresp pw is_send =
+  if negb
+       (Nat.eqb (length ntresp) (S (S (S (S (S (S (S (S (S (S (S (S (S (S (S
+         (S (S (S (S (S (S (S (S (S O)))))))))))))))))))))))))
+  then Err e_invalid
+  else Ok (rfc_make_key sHA1 mD4 uTF16 ntresp pw is_send)
 
 type key = n * n
 
@@ -6477,24 +7457,24 @@ let clear_low b keep =
 
 (** val apply_mask : bytes -> nat -> bytes **)
 
-let rec apply_mask ip ones =
+let rec apply_mask ip ones0 =
   match ip with
   | [] -> []
   | b :: r ->
-    if Nat.leb (S (S (S (S (S (S (S (S O)))))))) ones
-    then b :: (apply_mask r (sub ones (S (S (S (S (S (S (S (S O))))))))))
-    else (clear_low b ones) :: (apply_mask r O)
+    if Nat.leb (S (S (S (S (S (S (S (S O)))))))) ones0
+    then b :: (apply_mask r (sub ones0 (S (S (S (S (S (S (S (S O))))))))))
+    else (clear_low b ones0) :: (apply_mask r O)
 
 (** val mask_of : nat -> nat -> bytes **)
 
-let rec mask_of ones = function
+let rec mask_of ones0 = function
 | O -> []
 | S n' ->
-  if Nat.leb (S (S (S (S (S (S (S (S O)))))))) ones
+  if Nat.leb (S (S (S (S (S (S (S (S O)))))))) ones0
   then (Npos (XI (XI (XI (XI (XI (XI (XI
-         XH)))))))) :: (mask_of (sub ones (S (S (S (S (S (S (S (S O)))))))))
+         XH)))))))) :: (mask_of (sub ones0 (S (S (S (S (S (S (S (S O)))))))))
                          n')
-  else (clear_low (Npos (XI (XI (XI (XI (XI (XI (XI XH)))))))) ones) :: 
+  else (clear_low (Npos (XI (XI (XI (XI (XI (XI (XI XH)))))))) ones0) :: 
          (mask_of O n')
 
 (** val spec_new_ipv6prefix : bytes -> bytes -> bytes res **)
@@ -6509,13 +7489,14 @@ let spec_new_ipv6prefix ip mask0 =
            (S O))))))))))))))))))
   then Err e_invalid
   else (match spec_mask_ones mask0 with
-        | Some ones ->
+        | Some ones0 ->
           Ok
-            (N0 :: ((N.of_nat ones) :: (firstn
-                                         (Nat.div
-                                           (add ones (S (S (S (S (S (S (S
-                                             O)))))))) (S (S (S (S (S (S (S
-                                           (S O))))))))) (apply_mask ip ones))))
+            (N0 :: ((N.of_nat ones0) :: (firstn
+                                          (Nat.div
+                                            (add ones0 (S (S (S (S (S (S (S
+                                              O)))))))) (S (S (S (S (S (S (S
+                                            (S O)))))))))
+                                          (apply_mask ip ones0))))
         | None -> Err e_invalid)
 
 (** val spec_ipv6prefix : bytes -> (bytes * bytes) res **)
@@ -7216,6 +8197,1744 @@ let md5_serialize = function
 let md5 msg =
   let ws = md5_words_le (md5_pad msg) in
   md5_serialize (md5_process (length ws) md5_init_state ws)
+
+(** val sha1_mask32 : n **)
+
+let sha1_mask32 =
+  Npos (XI (XI (XI (XI (XI (XI (XI (XI (XI (XI (XI (XI (XI (XI (XI (XI (XI
+    (XI (XI (XI (XI (XI (XI (XI (XI (XI (XI (XI (XI (XI (XI
+    XH)))))))))))))))))))))))))))))))
+
+(** val sha1_add32 : n -> n -> n **)
+
+let sha1_add32 a b =
+  N.coq_land (N.add a b) sha1_mask32
+
+(** val sha1_not32 : n -> n **)
+
+let sha1_not32 a =
+  N.coq_lxor (N.coq_land a sha1_mask32) sha1_mask32
+
+(** val sha1_rotl32 : n -> n -> n **)
+
+let sha1_rotl32 x s =
+  N.coq_lor (N.coq_land (N.shiftl x s) sha1_mask32)
+    (N.shiftr x (N.sub (Npos (XO (XO (XO (XO (XO XH)))))) s))
+
+(** val sha1_byte0 : n -> n **)
+
+let sha1_byte0 w =
+  N.coq_land (N.shiftr w (Npos (XO (XO (XO (XI XH)))))) (Npos (XI (XI (XI (XI
+    (XI (XI (XI XH))))))))
+
+(** val sha1_byte1 : n -> n **)
+
+let sha1_byte1 w =
+  N.coq_land (N.shiftr w (Npos (XO (XO (XO (XO XH)))))) (Npos (XI (XI (XI (XI
+    (XI (XI (XI XH))))))))
+
+(** val sha1_byte2 : n -> n **)
+
+let sha1_byte2 w =
+  N.coq_land (N.shiftr w (Npos (XO (XO (XO XH))))) (Npos (XI (XI (XI (XI (XI
+    (XI (XI XH))))))))
+
+(** val sha1_byte3 : n -> n **)
+
+let sha1_byte3 w =
+  N.coq_land w (Npos (XI (XI (XI (XI (XI (XI (XI XH))))))))
+
+(** val sha1_word_be : n -> n -> n -> n -> n **)
+
+let sha1_word_be a b c d =
+  N.coq_lor
+    (N.shiftl (N.coq_land a (Npos (XI (XI (XI (XI (XI (XI (XI XH)))))))))
+      (Npos (XO (XO (XO (XI XH))))))
+    (N.coq_lor
+      (N.shiftl (N.coq_land b (Npos (XI (XI (XI (XI (XI (XI (XI XH)))))))))
+        (Npos (XO (XO (XO (XO XH))))))
+      (N.coq_lor
+        (N.shiftl (N.coq_land c (Npos (XI (XI (XI (XI (XI (XI (XI XH)))))))))
+          (Npos (XO (XO (XO XH)))))
+        (N.coq_land d (Npos (XI (XI (XI (XI (XI (XI (XI XH)))))))))))
+
+(** val sha1_words_be : n list -> n list **)
+
+let rec sha1_words_be = function
+| [] -> []
+| a :: l0 ->
+  (match l0 with
+   | [] -> []
+   | b :: l1 ->
+     (match l1 with
+      | [] -> []
+      | c :: l2 ->
+        (match l2 with
+         | [] -> []
+         | d :: tl -> (sha1_word_be a b c d) :: (sha1_words_be tl))))
+
+(** val sha1_pad_zeros : n -> nat **)
+
+let sha1_pad_zeros n0 =
+  N.to_nat
+    (N.modulo
+      (N.sub (Npos (XI (XI (XI (XO (XI (XI XH)))))))
+        (N.modulo n0 (Npos (XO (XO (XO (XO (XO (XO XH))))))))) (Npos (XO (XO
+      (XO (XO (XO (XO XH))))))))
+
+(** val sha1_len_bytes_be : n -> n list **)
+
+let sha1_len_bytes_be bits =
+  (N.coq_land (N.shiftr bits (Npos (XO (XO (XO (XI (XI XH))))))) (Npos (XI
+    (XI (XI (XI (XI (XI (XI XH))))))))) :: ((N.coq_land
+                                              (N.shiftr bits (Npos (XO (XO
+                                                (XO (XO (XI XH))))))) (Npos
+                                              (XI (XI (XI (XI (XI (XI (XI
+                                              XH))))))))) :: ((N.coq_land
+                                                                (N.shiftr
+                                                                  bits (Npos
+                                                                  (XO (XO (XO
+                                                                  (XI (XO
+                                                                  XH)))))))
+                                                                (Npos (XI (XI
+                                                                (XI (XI (XI
+                                                                (XI (XI
+                                                                XH))))))))) :: (
+    (N.coq_land (N.shiftr bits (Npos (XO (XO (XO (XO (XO XH))))))) (Npos (XI
+      (XI (XI (XI (XI (XI (XI XH))))))))) :: ((N.coq_land
+                                                (N.shiftr bits (Npos (XO (XO
+                                                  (XO (XI XH)))))) (Npos (XI
+                                                (XI (XI (XI (XI (XI (XI
+                                                XH))))))))) :: ((N.coq_land
+                                                                  (N.shiftr
+                                                                    bits
+                                                                    (Npos (XO
+                                                                    (XO (XO
+                                                                    (XO
+                                                                    XH))))))
+                                                                  (Npos (XI
+                                                                  (XI (XI (XI
+                                                                  (XI (XI (XI
+                                                                  XH))))))))) :: (
+    (N.coq_land (N.shiftr bits (Npos (XO (XO (XO XH))))) (Npos (XI (XI (XI
+      (XI (XI (XI (XI XH))))))))) :: ((N.coq_land bits (Npos (XI (XI (XI (XI
+                                        (XI (XI (XI XH))))))))) :: [])))))))
+
+(** val sha1_pad : n list -> n list **)
+
+let sha1_pad msg =
+  let n0 = N.of_nat (length msg) in
+  app msg ((Npos (XO (XO (XO (XO (XO (XO (XO
+    XH)))))))) :: (app (repeat N0 (sha1_pad_zeros n0))
+                    (sha1_len_bytes_be (N.mul (Npos (XO (XO (XO XH)))) n0))))
+
+type sha1_state = (((n * n) * n) * n) * n
+
+(** val sha1_init_state : sha1_state **)
+
+let sha1_init_state =
+  (((((Npos (XI (XO (XO (XO (XO (XO (XO (XO (XI (XI (XO (XO (XO (XI (XO (XO
+    (XI (XO (XI (XO (XO (XO (XI (XO (XI (XI (XI (XO (XO (XI
+    XH))))))))))))))))))))))))))))))), (Npos (XI (XO (XO (XI (XO (XO (XO (XI
+    (XI (XI (XO (XI (XO (XI (XO (XI (XI (XO (XI (XI (XO (XO (XI (XI (XI (XI
+    (XI (XI (XO (XI (XI XH))))))))))))))))))))))))))))))))), (Npos (XO (XI
+    (XI (XI (XI (XI (XI (XI (XO (XO (XI (XI (XI (XO (XI (XI (XO (XI (XO (XI
+    (XI (XI (XO (XI (XO (XO (XO (XI (XI (XO (XO
+    XH))))))))))))))))))))))))))))))))), (Npos (XO (XI (XI (XO (XI (XI (XI
+    (XO (XO (XO (XI (XO (XI (XO (XI (XO (XO (XI (XO (XO (XI (XI (XO (XO (XO
+    (XO (XO (XO XH)))))))))))))))))))))))))))))), (Npos (XO (XO (XO (XO (XI
+    (XI (XI (XI (XI (XO (XO (XO (XO (XI (XI (XI (XO (XI (XO (XO (XI (XO (XI
+    (XI (XI (XI (XO (XO (XO (XO (XI XH)))))))))))))))))))))))))))))))))
+
+(** val sha1_ch : n -> n -> n -> n **)
+
+let sha1_ch b c d =
+  N.coq_lor (N.coq_land b c) (N.coq_land (sha1_not32 b) d)
+
+(** val sha1_parity : n -> n -> n -> n **)
+
+let sha1_parity b c d =
+  N.coq_lxor b (N.coq_lxor c d)
+
+(** val sha1_maj : n -> n -> n -> n **)
+
+let sha1_maj b c d =
+  N.coq_lor (N.coq_land b c) (N.coq_lor (N.coq_land b d) (N.coq_land c d))
+
+(** val sha1_schedule : nat -> n list -> n list **)
+
+let rec sha1_schedule n0 win =
+  match n0 with
+  | O -> []
+  | S n' ->
+    (match win with
+     | [] -> []
+     | w0 :: rest ->
+       let x =
+         N.coq_lxor
+           (N.coq_lxor
+             (nth (S (S (S (S (S (S (S (S (S (S (S (S (S O))))))))))))) win
+               N0) (nth (S (S (S (S (S (S (S (S O)))))))) win N0))
+           (N.coq_lxor (nth (S (S O)) win N0) w0)
+       in
+       w0 :: (sha1_schedule n' (app rest ((sha1_rotl32 x (Npos XH)) :: []))))
+
+(** val sha1_f : nat -> n -> n -> n -> n **)
+
+let sha1_f t b c d =
+  if ltb t (S (S (S (S (S (S (S (S (S (S (S (S (S (S (S (S (S (S (S (S
+       O))))))))))))))))))))
+  then sha1_ch b c d
+  else if ltb t (S (S (S (S (S (S (S (S (S (S (S (S (S (S (S (S (S (S (S (S
+            (S (S (S (S (S (S (S (S (S (S (S (S (S (S (S (S (S (S (S (S
+            O))))))))))))))))))))))))))))))))))))))))
+       then sha1_parity b c d
+       else if ltb t (S (S (S (S (S (S (S (S (S (S (S (S (S (S (S (S (S (S (S
+                 (S (S (S (S (S (S (S (S (S (S (S (S (S (S (S (S (S (S (S (S
+                 (S (S (S (S (S (S (S (S (S (S (S (S (S (S (S (S (S (S (S (S
+                 (S
+                 O))))))))))))))))))))))))))))))))))))))))))))))))))))))))))))
+            then sha1_maj b c d
+            else sha1_parity b c d
+
+(** val sha1_k : nat -> n **)
+
+let sha1_k t =
+  if ltb t (S (S (S (S (S (S (S (S (S (S (S (S (S (S (S (S (S (S (S (S
+       O))))))))))))))))))))
+  then Npos (XI (XO (XO (XI (XI (XO (XO (XI (XI (XO (XO (XI (XI (XI (XI (XO
+         (XO (XI (XO (XO (XO (XO (XO (XI (XO (XI (XO (XI (XI (XO
+         XH))))))))))))))))))))))))))))))
+  else if ltb t (S (S (S (S (S (S (S (S (S (S (S (S (S (S (S (S (S (S (S (S
+            (S (S (S (S (S (S (S (S (S (S (S (S (S (S (S (S (S (S (S (S
+            O))))))))))))))))))))))))))))))))))))))))
+       then Npos (XI (XO (XO (XO (XO (XI (XO (XI (XI (XI (XO (XI (XO (XI (XI
+              (XI (XI (XO (XO (XI (XI (XO (XI (XI (XO (XI (XI (XI (XO (XI
+              XH))))))))))))))))))))))))))))))
+       else if ltb t (S (S (S (S (S (S (S (S (S (S (S (S (S (S (S (S (S (S (S
+                 (S (S (S (S (S (S (S (S (S (S (S (S (S (S (S (S (S (S (S (S
+                 (S (S (S (S (S (S (S (S (S (S (S (S (S (S (S (S (S (S (S (S
+                 (S
+                 O))))))))))))))))))))))))))))))))))))))))))))))))))))))))))))
+            then Npos (XO (XO (XI (XI (XI (XO (XI (XI (XO (XO (XI (XI (XI (XI
+                   (XO (XI (XI (XI (XO (XI (XI (XO (XO (XO (XI (XI (XI (XI
+                   (XO (XO (XO XH)))))))))))))))))))))))))))))))
+            else Npos (XO (XI (XI (XO (XI (XO (XI (XI (XI (XO (XO (XO (XO (XO
+                   (XI (XI (XO (XI (XO (XO (XO (XI (XI (XO (XO (XI (XO (XI
+                   (XO (XO (XI XH)))))))))))))))))))))))))))))))
+
+(** val sha1_step : nat -> sha1_state -> n -> sha1_state **)
+
+let sha1_step t st w =
+  let (p, e) = st in
+  let (p0, d) = p in
+  let (p1, c) = p0 in
+  let (a, b) = p1 in
+  let tmp =
+    sha1_add32
+      (sha1_add32
+        (sha1_add32
+          (sha1_add32 (sha1_rotl32 a (Npos (XI (XO XH)))) (sha1_f t b c d)) e)
+        (sha1_k t)) w
+  in
+  ((((tmp, a), (sha1_rotl32 b (Npos (XO (XI (XI (XI XH))))))), c), d)
+
+(** val sha1_rounds : nat -> n list -> sha1_state -> sha1_state **)
+
+let rec sha1_rounds t ws st =
+  match ws with
+  | [] -> st
+  | w :: tl -> sha1_rounds (S t) tl (sha1_step t st w)
+
+(** val sha1_compress : sha1_state -> n list -> sha1_state **)
+
+let sha1_compress st m =
+  let (p, e0) = st in
+  let (p0, d0) = p in
+  let (p1, c0) = p0 in
+  let (a0, b0) = p1 in
+  let (p2, e) =
+    sha1_rounds O
+      (sha1_schedule (S (S (S (S (S (S (S (S (S (S (S (S (S (S (S (S (S (S (S
+        (S (S (S (S (S (S (S (S (S (S (S (S (S (S (S (S (S (S (S (S (S (S (S
+        (S (S (S (S (S (S (S (S (S (S (S (S (S (S (S (S (S (S (S (S (S (S (S
+        (S (S (S (S (S (S (S (S (S (S (S (S (S (S (S
+        O))))))))))))))))))))))))))))))))))))))))))))))))))))))))))))))))))))))))))))))))
+        m) st
+  in
+  let (p3, d) = p2 in
+  let (p4, c) = p3 in
+  let (a, b) = p4 in
+  (((((sha1_add32 a0 a), (sha1_add32 b0 b)), (sha1_add32 c0 c)),
+  (sha1_add32 d0 d)), (sha1_add32 e0 e))
+
+(** val sha1_process : nat -> sha1_state -> n list -> sha1_state **)
+
+let rec sha1_process fuel st ws =
+  match fuel with
+  | O -> st
+  | S fuel' ->
+    (match ws with
+     | [] -> st
+     | _ :: _ ->
+       sha1_process fuel'
+         (sha1_compress st
+           (firstn (S (S (S (S (S (S (S (S (S (S (S (S (S (S (S (S
+             O)))))))))))))))) ws))
+         (skipn (S (S (S (S (S (S (S (S (S (S (S (S (S (S (S (S
+           O)))))))))))))))) ws))
+
+(** val sha1_serialize : sha1_state -> n list **)
+
+let sha1_serialize = function
+| (p, e) ->
+  let (p0, d) = p in
+  let (p1, c) = p0 in
+  let (a, b) = p1 in
+  (sha1_byte0 a) :: ((sha1_byte1 a) :: ((sha1_byte2 a) :: ((sha1_byte3 a) :: (
+  (sha1_byte0 b) :: ((sha1_byte1 b) :: ((sha1_byte2 b) :: ((sha1_byte3 b) :: (
+  (sha1_byte0 c) :: ((sha1_byte1 c) :: ((sha1_byte2 c) :: ((sha1_byte3 c) :: (
+  (sha1_byte0 d) :: ((sha1_byte1 d) :: ((sha1_byte2 d) :: ((sha1_byte3 d) :: (
+  (sha1_byte0 e) :: ((sha1_byte1 e) :: ((sha1_byte2 e) :: ((sha1_byte3 e) :: [])))))))))))))))))))
+
+(** val sha1 : n list -> n list **)
+
+let sha1 msg =
+  let ws = sha1_words_be (sha1_pad msg) in
+  sha1_serialize (sha1_process (length ws) sha1_init_state ws)
+
+(** val md4_mask32 : n **)
+
+let md4_mask32 =
+  Npos (XI (XI (XI (XI (XI (XI (XI (XI (XI (XI (XI (XI (XI (XI (XI (XI (XI
+    (XI (XI (XI (XI (XI (XI (XI (XI (XI (XI (XI (XI (XI (XI
+    XH)))))))))))))))))))))))))))))))
+
+(** val md4_add32 : n -> n -> n **)
+
+let md4_add32 a b =
+  N.coq_land (N.add a b) md4_mask32
+
+(** val md4_not32 : n -> n **)
+
+let md4_not32 a =
+  N.coq_lxor (N.coq_land a md4_mask32) md4_mask32
+
+(** val md4_rotl32 : n -> n -> n **)
+
+let md4_rotl32 x s =
+  N.coq_lor (N.coq_land (N.shiftl x s) md4_mask32)
+    (N.shiftr x (N.sub (Npos (XO (XO (XO (XO (XO XH)))))) s))
+
+(** val md4_byte0 : n -> n **)
+
+let md4_byte0 w =
+  N.coq_land w (Npos (XI (XI (XI (XI (XI (XI (XI XH))))))))
+
+(** val md4_byte1 : n -> n **)
+
+let md4_byte1 w =
+  N.coq_land (N.shiftr w (Npos (XO (XO (XO XH))))) (Npos (XI (XI (XI (XI (XI
+    (XI (XI XH))))))))
+
+(** val md4_byte2 : n -> n **)
+
+let md4_byte2 w =
+  N.coq_land (N.shiftr w (Npos (XO (XO (XO (XO XH)))))) (Npos (XI (XI (XI (XI
+    (XI (XI (XI XH))))))))
+
+(** val md4_byte3 : n -> n **)
+
+let md4_byte3 w =
+  N.coq_land (N.shiftr w (Npos (XO (XO (XO (XI XH)))))) (Npos (XI (XI (XI (XI
+    (XI (XI (XI XH))))))))
+
+(** val md4_word_le : n -> n -> n -> n -> n **)
+
+let md4_word_le a b c d =
+  N.coq_lor (N.coq_land a (Npos (XI (XI (XI (XI (XI (XI (XI XH)))))))))
+    (N.coq_lor
+      (N.shiftl (N.coq_land b (Npos (XI (XI (XI (XI (XI (XI (XI XH)))))))))
+        (Npos (XO (XO (XO XH)))))
+      (N.coq_lor
+        (N.shiftl (N.coq_land c (Npos (XI (XI (XI (XI (XI (XI (XI XH)))))))))
+          (Npos (XO (XO (XO (XO XH))))))
+        (N.shiftl (N.coq_land d (Npos (XI (XI (XI (XI (XI (XI (XI XH)))))))))
+          (Npos (XO (XO (XO (XI XH))))))))
+
+(** val md4_words_le : n list -> n list **)
+
+let rec md4_words_le = function
+| [] -> []
+| a :: l0 ->
+  (match l0 with
+   | [] -> []
+   | b :: l1 ->
+     (match l1 with
+      | [] -> []
+      | c :: l2 ->
+        (match l2 with
+         | [] -> []
+         | d :: tl -> (md4_word_le a b c d) :: (md4_words_le tl))))
+
+(** val md4_pad_zeros : n -> nat **)
+
+let md4_pad_zeros n0 =
+  N.to_nat
+    (N.modulo
+      (N.sub (Npos (XI (XI (XI (XO (XI (XI XH)))))))
+        (N.modulo n0 (Npos (XO (XO (XO (XO (XO (XO XH))))))))) (Npos (XO (XO
+      (XO (XO (XO (XO XH))))))))
+
+(** val md4_len_bytes_le : n -> n list **)
+
+let md4_len_bytes_le bits =
+  (N.coq_land bits (Npos (XI (XI (XI (XI (XI (XI (XI XH))))))))) :: (
+    (N.coq_land (N.shiftr bits (Npos (XO (XO (XO XH))))) (Npos (XI (XI (XI
+      (XI (XI (XI (XI XH))))))))) :: ((N.coq_land
+                                        (N.shiftr bits (Npos (XO (XO (XO (XO
+                                          XH)))))) (Npos (XI (XI (XI (XI (XI
+                                        (XI (XI XH))))))))) :: ((N.coq_land
+                                                                  (N.shiftr
+                                                                    bits
+                                                                    (Npos (XO
+                                                                    (XO (XO
+                                                                    (XI
+                                                                    XH))))))
+                                                                  (Npos (XI
+                                                                  (XI (XI (XI
+                                                                  (XI (XI (XI
+                                                                  XH))))))))) :: (
+    (N.coq_land (N.shiftr bits (Npos (XO (XO (XO (XO (XO XH))))))) (Npos (XI
+      (XI (XI (XI (XI (XI (XI XH))))))))) :: ((N.coq_land
+                                                (N.shiftr bits (Npos (XO (XO
+                                                  (XO (XI (XO XH))))))) (Npos
+                                                (XI (XI (XI (XI (XI (XI (XI
+                                                XH))))))))) :: ((N.coq_land
+                                                                  (N.shiftr
+                                                                    bits
+                                                                    (Npos (XO
+                                                                    (XO (XO
+                                                                    (XO (XI
+                                                                    XH)))))))
+                                                                  (Npos (XI
+                                                                  (XI (XI (XI
+                                                                  (XI (XI (XI
+                                                                  XH))))))))) :: (
+    (N.coq_land (N.shiftr bits (Npos (XO (XO (XO (XI (XI XH))))))) (Npos (XI
+      (XI (XI (XI (XI (XI (XI XH))))))))) :: [])))))))
+
+(** val md4_pad : n list -> n list **)
+
+let md4_pad msg =
+  let n0 = N.of_nat (length msg) in
+  app msg ((Npos (XO (XO (XO (XO (XO (XO (XO
+    XH)))))))) :: (app (repeat N0 (md4_pad_zeros n0))
+                    (md4_len_bytes_le (N.mul (Npos (XO (XO (XO XH)))) n0))))
+
+type md4_state = ((n * n) * n) * n
+
+(** val md4_init_state : md4_state **)
+
+let md4_init_state =
+  ((((Npos (XI (XO (XO (XO (XO (XO (XO (XO (XI (XI (XO (XO (XO (XI (XO (XO
+    (XI (XO (XI (XO (XO (XO (XI (XO (XI (XI (XI (XO (XO (XI
+    XH))))))))))))))))))))))))))))))), (Npos (XI (XO (XO (XI (XO (XO (XO (XI
+    (XI (XI (XO (XI (XO (XI (XO (XI (XI (XO (XI (XI (XO (XO (XI (XI (XI (XI
+    (XI (XI (XO (XI (XI XH))))))))))))))))))))))))))))))))), (Npos (XO (XI
+    (XI (XI (XI (XI (XI (XI (XO (XO (XI (XI (XI (XO (XI (XI (XO (XI (XO (XI
+    (XI (XI (XO (XI (XO (XO (XO (XI (XI (XO (XO
+    XH))))))))))))))))))))))))))))))))), (Npos (XO (XI (XI (XO (XI (XI (XI
+    (XO (XO (XO (XI (XO (XI (XO (XI (XO (XO (XI (XO (XO (XI (XI (XO (XO (XO
+    (XO (XO (XO XH))))))))))))))))))))))))))))))
+
+(** val md4_fF : n -> n -> n -> n **)
+
+let md4_fF b c d =
+  N.coq_lor (N.coq_land b c) (N.coq_land (md4_not32 b) d)
+
+(** val md4_fG : n -> n -> n -> n **)
+
+let md4_fG b c d =
+  N.coq_lor (N.coq_land b c) (N.coq_lor (N.coq_land b d) (N.coq_land c d))
+
+(** val md4_fH : n -> n -> n -> n **)
+
+let md4_fH b c d =
+  N.coq_lxor b (N.coq_lxor c d)
+
+(** val md4_step :
+    (n -> n -> n -> n) -> n -> n list -> md4_state -> (nat * n) -> md4_state **)
+
+let md4_step f const m st p =
+  let (p0, d) = st in
+  let (p1, c) = p0 in
+  let (a, b) = p1 in
+  let (k, s) = p in
+  let x = md4_add32 (md4_add32 (md4_add32 a (f b c d)) (nth k m N0)) const in
+  (((d, (md4_rotl32 x s)), b), c)
+
+(** val md4_steps1 : (nat * n) list **)
+
+let md4_steps1 =
+  (O, (Npos (XI XH))) :: (((S O), (Npos (XI (XI XH)))) :: (((S (S O)), (Npos
+    (XI (XI (XO XH))))) :: (((S (S (S O))), (Npos (XI (XI (XO (XO
+    XH)))))) :: (((S (S (S (S O)))), (Npos (XI XH))) :: (((S (S (S (S (S
+    O))))), (Npos (XI (XI XH)))) :: (((S (S (S (S (S (S O)))))), (Npos (XI
+    (XI (XO XH))))) :: (((S (S (S (S (S (S (S O))))))), (Npos (XI (XI (XO (XO
+    XH)))))) :: (((S (S (S (S (S (S (S (S O)))))))), (Npos (XI XH))) :: (((S
+    (S (S (S (S (S (S (S (S O))))))))), (Npos (XI (XI XH)))) :: (((S (S (S (S
+    (S (S (S (S (S (S O)))))))))), (Npos (XI (XI (XO XH))))) :: (((S (S (S (S
+    (S (S (S (S (S (S (S O))))))))))), (Npos (XI (XI (XO (XO XH)))))) :: (((S
+    (S (S (S (S (S (S (S (S (S (S (S O)))))))))))), (Npos (XI XH))) :: (((S
+    (S (S (S (S (S (S (S (S (S (S (S (S O))))))))))))), (Npos (XI (XI
+    XH)))) :: (((S (S (S (S (S (S (S (S (S (S (S (S (S (S O)))))))))))))),
+    (Npos (XI (XI (XO XH))))) :: (((S (S (S (S (S (S (S (S (S (S (S (S (S (S
+    (S O))))))))))))))), (Npos (XI (XI (XO (XO XH)))))) :: [])))))))))))))))
+
+(** val md4_steps2 : (nat * n) list **)
+
+let md4_steps2 =
+  (O, (Npos (XI XH))) :: (((S (S (S (S O)))), (Npos (XI (XO XH)))) :: (((S (S
+    (S (S (S (S (S (S O)))))))), (Npos (XI (XO (XO XH))))) :: (((S (S (S (S
+    (S (S (S (S (S (S (S (S O)))))))))))), (Npos (XI (XO (XI XH))))) :: (((S
+    O), (Npos (XI XH))) :: (((S (S (S (S (S O))))), (Npos (XI (XO
+    XH)))) :: (((S (S (S (S (S (S (S (S (S O))))))))), (Npos (XI (XO (XO
+    XH))))) :: (((S (S (S (S (S (S (S (S (S (S (S (S (S O))))))))))))), (Npos
+    (XI (XO (XI XH))))) :: (((S (S O)), (Npos (XI XH))) :: (((S (S (S (S (S
+    (S O)))))), (Npos (XI (XO XH)))) :: (((S (S (S (S (S (S (S (S (S (S
+    O)))))))))), (Npos (XI (XO (XO XH))))) :: (((S (S (S (S (S (S (S (S (S (S
+    (S (S (S (S O)))))))))))))), (Npos (XI (XO (XI XH))))) :: (((S (S (S
+    O))), (Npos (XI XH))) :: (((S (S (S (S (S (S (S O))))))), (Npos (XI (XO
+    XH)))) :: (((S (S (S (S (S (S (S (S (S (S (S O))))))))))), (Npos (XI (XO
+    (XO XH))))) :: (((S (S (S (S (S (S (S (S (S (S (S (S (S (S (S
+    O))))))))))))))), (Npos (XI (XO (XI XH))))) :: [])))))))))))))))
+
+(** val md4_steps3 : (nat * n) list **)
+
+let md4_steps3 =
+  (O, (Npos (XI XH))) :: (((S (S (S (S (S (S (S (S O)))))))), (Npos (XI (XO
+    (XO XH))))) :: (((S (S (S (S O)))), (Npos (XI (XI (XO XH))))) :: (((S (S
+    (S (S (S (S (S (S (S (S (S (S O)))))))))))), (Npos (XI (XI (XI
+    XH))))) :: (((S (S O)), (Npos (XI XH))) :: (((S (S (S (S (S (S (S (S (S
+    (S O)))))))))), (Npos (XI (XO (XO XH))))) :: (((S (S (S (S (S (S O)))))),
+    (Npos (XI (XI (XO XH))))) :: (((S (S (S (S (S (S (S (S (S (S (S (S (S (S
+    O)))))))))))))), (Npos (XI (XI (XI XH))))) :: (((S O), (Npos (XI
+    XH))) :: (((S (S (S (S (S (S (S (S (S O))))))))), (Npos (XI (XO (XO
+    XH))))) :: (((S (S (S (S (S O))))), (Npos (XI (XI (XO XH))))) :: (((S (S
+    (S (S (S (S (S (S (S (S (S (S (S O))))))))))))), (Npos (XI (XI (XI
+    XH))))) :: (((S (S (S O))), (Npos (XI XH))) :: (((S (S (S (S (S (S (S (S
+    (S (S (S O))))))))))), (Npos (XI (XO (XO XH))))) :: (((S (S (S (S (S (S
+    (S O))))))), (Npos (XI (XI (XO XH))))) :: (((S (S (S (S (S (S (S (S (S (S
+    (S (S (S (S (S O))))))))))))))), (Npos (XI (XI (XI
+    XH))))) :: [])))))))))))))))
+
+(** val md4_compress : md4_state -> n list -> md4_state **)
+
+let md4_compress st m =
+  let st1 = fold_left (md4_step md4_fF N0 m) md4_steps1 st in
+  let st2 =
+    fold_left
+      (md4_step md4_fG (Npos (XI (XO (XO (XI (XI (XO (XO (XI (XI (XO (XO (XI
+        (XI (XI (XI (XO (XO (XI (XO (XO (XO (XO (XO (XI (XO (XI (XO (XI (XI
+        (XO XH))))))))))))))))))))))))))))))) m) md4_steps2 st1
+  in
+  let st3 =
+    fold_left
+      (md4_step md4_fH (Npos (XI (XO (XO (XO (XO (XI (XO (XI (XI (XI (XO (XI
+        (XO (XI (XI (XI (XI (XO (XO (XI (XI (XO (XI (XI (XO (XI (XI (XI (XO
+        (XI XH))))))))))))))))))))))))))))))) m) md4_steps3 st2
+  in
+  let (p, d0) = st in
+  let (p0, c0) = p in
+  let (a0, b0) = p0 in
+  let (p1, d) = st3 in
+  let (p2, c) = p1 in
+  let (a, b) = p2 in
+  ((((md4_add32 a0 a), (md4_add32 b0 b)), (md4_add32 c0 c)), (md4_add32 d0 d))
+
+(** val md4_process : nat -> md4_state -> n list -> md4_state **)
+
+let rec md4_process fuel st ws =
+  match fuel with
+  | O -> st
+  | S fuel' ->
+    (match ws with
+     | [] -> st
+     | _ :: _ ->
+       md4_process fuel'
+         (md4_compress st
+           (firstn (S (S (S (S (S (S (S (S (S (S (S (S (S (S (S (S
+             O)))))))))))))))) ws))
+         (skipn (S (S (S (S (S (S (S (S (S (S (S (S (S (S (S (S
+           O)))))))))))))))) ws))
+
+(** val md4_serialize : md4_state -> n list **)
+
+let md4_serialize = function
+| (p, d) ->
+  let (p0, c) = p in
+  let (a, b) = p0 in
+  (md4_byte0 a) :: ((md4_byte1 a) :: ((md4_byte2 a) :: ((md4_byte3 a) :: (
+  (md4_byte0 b) :: ((md4_byte1 b) :: ((md4_byte2 b) :: ((md4_byte3 b) :: (
+  (md4_byte0 c) :: ((md4_byte1 c) :: ((md4_byte2 c) :: ((md4_byte3 c) :: (
+  (md4_byte0 d) :: ((md4_byte1 d) :: ((md4_byte2 d) :: ((md4_byte3 d) :: [])))))))))))))))
+
+(** val md4 : n list -> n list **)
+
+let md4 msg =
+  let ws = md4_words_le (md4_pad msg) in
+  md4_serialize (md4_process (length ws) md4_init_state ws)
+
+(** val des_byte_bits : n -> bool list **)
+
+let des_byte_bits b =
+  (N.testbit b (Npos (XI (XI XH)))) :: ((N.testbit b (Npos (XO (XI XH)))) :: (
+    (N.testbit b (Npos (XI (XO XH)))) :: ((N.testbit b (Npos (XO (XO XH)))) :: (
+    (N.testbit b (Npos (XI XH))) :: ((N.testbit b (Npos (XO XH))) :: (
+    (N.testbit b (Npos XH)) :: ((N.testbit b N0) :: [])))))))
+
+(** val des_bits_of_bytes : n list -> bool list **)
+
+let des_bits_of_bytes l =
+  flat_map des_byte_bits l
+
+(** val des_bits_to_N : bool list -> n **)
+
+let des_bits_to_N l =
+  fold_left (fun acc b -> N.add (N.double acc) (if b then Npos XH else N0)) l
+    N0
+
+(** val des_byte_at : bool list -> nat -> n **)
+
+let des_byte_at bits k =
+  N.coq_land
+    (des_bits_to_N
+      (firstn (S (S (S (S (S (S (S (S O))))))))
+        (skipn (mul (S (S (S (S (S (S (S (S O)))))))) k) bits))) (Npos (XI
+    (XI (XI (XI (XI (XI (XI XH))))))))
+
+(** val des_permute : nat list -> bool list -> bool list **)
+
+let des_permute tbl bits =
+  map (fun i -> nth (pred i) bits false) tbl
+
+(** val des_xor : bool list -> bool list -> bool list **)
+
+let rec des_xor a b =
+  match a with
+  | [] -> []
+  | x :: a' ->
+    (match b with
+     | [] -> []
+     | y :: b' -> (xorb x y) :: (des_xor a' b'))
+
+(** val des_rotl : nat -> bool list -> bool list **)
+
+let des_rotl n0 l =
+  app (skipn n0 l) (firstn n0 l)
+
+(** val des_IP : nat list **)
+
+let des_IP =
+  (S (S (S (S (S (S (S (S (S (S (S (S (S (S (S (S (S (S (S (S (S (S (S (S (S
+    (S (S (S (S (S (S (S (S (S (S (S (S (S (S (S (S (S (S (S (S (S (S (S (S
+    (S (S (S (S (S (S (S (S (S
+    O)))))))))))))))))))))))))))))))))))))))))))))))))))))))))) :: ((S (S (S
+    (S (S (S (S (S (S (S (S (S (S (S (S (S (S (S (S (S (S (S (S (S (S (S (S
+    (S (S (S (S (S (S (S (S (S (S (S (S (S (S (S (S (S (S (S (S (S (S (S
+    O)))))))))))))))))))))))))))))))))))))))))))))))))) :: ((S (S (S (S (S (S
+    (S (S (S (S (S (S (S (S (S (S (S (S (S (S (S (S (S (S (S (S (S (S (S (S
+    (S (S (S (S (S (S (S (S (S (S (S (S
+    O)))))))))))))))))))))))))))))))))))))))))) :: ((S (S (S (S (S (S (S (S
+    (S (S (S (S (S (S (S (S (S (S (S (S (S (S (S (S (S (S (S (S (S (S (S (S
+    (S (S O)))))))))))))))))))))))))))))))))) :: ((S (S (S (S (S (S (S (S (S
+    (S (S (S (S (S (S (S (S (S (S (S (S (S (S (S (S (S
+    O)))))))))))))))))))))))))) :: ((S (S (S (S (S (S (S (S (S (S (S (S (S (S
+    (S (S (S (S O)))))))))))))))))) :: ((S (S (S (S (S (S (S (S (S (S
+    O)))))))))) :: ((S (S O)) :: ((S (S (S (S (S (S (S (S (S (S (S (S (S (S
+    (S (S (S (S (S (S (S (S (S (S (S (S (S (S (S (S (S (S (S (S (S (S (S (S
+    (S (S (S (S (S (S (S (S (S (S (S (S (S (S (S (S (S (S (S (S (S (S
+    O)))))))))))))))))))))))))))))))))))))))))))))))))))))))))))) :: ((S (S
+    (S (S (S (S (S (S (S (S (S (S (S (S (S (S (S (S (S (S (S (S (S (S (S (S
+    (S (S (S (S (S (S (S (S (S (S (S (S (S (S (S (S (S (S (S (S (S (S (S (S
+    (S (S O)))))))))))))))))))))))))))))))))))))))))))))))))))) :: ((S (S (S
+    (S (S (S (S (S (S (S (S (S (S (S (S (S (S (S (S (S (S (S (S (S (S (S (S
+    (S (S (S (S (S (S (S (S (S (S (S (S (S (S (S (S (S
+    O)))))))))))))))))))))))))))))))))))))))))))) :: ((S (S (S (S (S (S (S (S
+    (S (S (S (S (S (S (S (S (S (S (S (S (S (S (S (S (S (S (S (S (S (S (S (S
+    (S (S (S (S O)))))))))))))))))))))))))))))))))))) :: ((S (S (S (S (S (S
+    (S (S (S (S (S (S (S (S (S (S (S (S (S (S (S (S (S (S (S (S (S (S
+    O)))))))))))))))))))))))))))) :: ((S (S (S (S (S (S (S (S (S (S (S (S (S
+    (S (S (S (S (S (S (S O)))))))))))))))))))) :: ((S (S (S (S (S (S (S (S (S
+    (S (S (S O)))))))))))) :: ((S (S (S (S O)))) :: ((S (S (S (S (S (S (S (S
+    (S (S (S (S (S (S (S (S (S (S (S (S (S (S (S (S (S (S (S (S (S (S (S (S
+    (S (S (S (S (S (S (S (S (S (S (S (S (S (S (S (S (S (S (S (S (S (S (S (S
+    (S (S (S (S (S (S
+    O)))))))))))))))))))))))))))))))))))))))))))))))))))))))))))))) :: ((S (S
+    (S (S (S (S (S (S (S (S (S (S (S (S (S (S (S (S (S (S (S (S (S (S (S (S
+    (S (S (S (S (S (S (S (S (S (S (S (S (S (S (S (S (S (S (S (S (S (S (S (S
+    (S (S (S (S
+    O)))))))))))))))))))))))))))))))))))))))))))))))))))))) :: ((S (S (S (S
+    (S (S (S (S (S (S (S (S (S (S (S (S (S (S (S (S (S (S (S (S (S (S (S (S
+    (S (S (S (S (S (S (S (S (S (S (S (S (S (S (S (S (S (S
+    O)))))))))))))))))))))))))))))))))))))))))))))) :: ((S (S (S (S (S (S (S
+    (S (S (S (S (S (S (S (S (S (S (S (S (S (S (S (S (S (S (S (S (S (S (S (S
+    (S (S (S (S (S (S (S O)))))))))))))))))))))))))))))))))))))) :: ((S (S (S
+    (S (S (S (S (S (S (S (S (S (S (S (S (S (S (S (S (S (S (S (S (S (S (S (S
+    (S (S (S O)))))))))))))))))))))))))))))) :: ((S (S (S (S (S (S (S (S (S
+    (S (S (S (S (S (S (S (S (S (S (S (S (S O)))))))))))))))))))))) :: ((S (S
+    (S (S (S (S (S (S (S (S (S (S (S (S O)))))))))))))) :: ((S (S (S (S (S (S
+    O)))))) :: ((S (S (S (S (S (S (S (S (S (S (S (S (S (S (S (S (S (S (S (S
+    (S (S (S (S (S (S (S (S (S (S (S (S (S (S (S (S (S (S (S (S (S (S (S (S
+    (S (S (S (S (S (S (S (S (S (S (S (S (S (S (S (S (S (S (S (S
+    O)))))))))))))))))))))))))))))))))))))))))))))))))))))))))))))))) :: ((S
+    (S (S (S (S (S (S (S (S (S (S (S (S (S (S (S (S (S (S (S (S (S (S (S (S
+    (S (S (S (S (S (S (S (S (S (S (S (S (S (S (S (S (S (S (S (S (S (S (S (S
+    (S (S (S (S (S (S (S
+    O)))))))))))))))))))))))))))))))))))))))))))))))))))))))) :: ((S (S (S (S
+    (S (S (S (S (S (S (S (S (S (S (S (S (S (S (S (S (S (S (S (S (S (S (S (S
+    (S (S (S (S (S (S (S (S (S (S (S (S (S (S (S (S (S (S (S (S
+    O)))))))))))))))))))))))))))))))))))))))))))))))) :: ((S (S (S (S (S (S
+    (S (S (S (S (S (S (S (S (S (S (S (S (S (S (S (S (S (S (S (S (S (S (S (S
+    (S (S (S (S (S (S (S (S (S (S
+    O)))))))))))))))))))))))))))))))))))))))) :: ((S (S (S (S (S (S (S (S (S
+    (S (S (S (S (S (S (S (S (S (S (S (S (S (S (S (S (S (S (S (S (S (S (S
+    O)))))))))))))))))))))))))))))))) :: ((S (S (S (S (S (S (S (S (S (S (S (S
+    (S (S (S (S (S (S (S (S (S (S (S (S O)))))))))))))))))))))))) :: ((S (S
+    (S (S (S (S (S (S (S (S (S (S (S (S (S (S O)))))))))))))))) :: ((S (S (S
+    (S (S (S (S (S O)))))))) :: ((S (S (S (S (S (S (S (S (S (S (S (S (S (S (S
+    (S (S (S (S (S (S (S (S (S (S (S (S (S (S (S (S (S (S (S (S (S (S (S (S
+    (S (S (S (S (S (S (S (S (S (S (S (S (S (S (S (S (S (S
+    O))))))))))))))))))))))))))))))))))))))))))))))))))))))))) :: ((S (S (S
+    (S (S (S (S (S (S (S (S (S (S (S (S (S (S (S (S (S (S (S (S (S (S (S (S
+    (S (S (S (S (S (S (S (S (S (S (S (S (S (S (S (S (S (S (S (S (S (S
+    O))))))))))))))))))))))))))))))))))))))))))))))))) :: ((S (S (S (S (S (S
+    (S (S (S (S (S (S (S (S (S (S (S (S (S (S (S (S (S (S (S (S (S (S (S (S
+    (S (S (S (S (S (S (S (S (S (S (S
+    O))))))))))))))))))))))))))))))))))))))))) :: ((S (S (S (S (S (S (S (S (S
+    (S (S (S (S (S (S (S (S (S (S (S (S (S (S (S (S (S (S (S (S (S (S (S (S
+    O))))))))))))))))))))))))))))))))) :: ((S (S (S (S (S (S (S (S (S (S (S
+    (S (S (S (S (S (S (S (S (S (S (S (S (S (S
+    O))))))))))))))))))))))))) :: ((S (S (S (S (S (S (S (S (S (S (S (S (S (S
+    (S (S (S O))))))))))))))))) :: ((S (S (S (S (S (S (S (S (S
+    O))))))))) :: ((S O) :: ((S (S (S (S (S (S (S (S (S (S (S (S (S (S (S (S
+    (S (S (S (S (S (S (S (S (S (S (S (S (S (S (S (S (S (S (S (S (S (S (S (S
+    (S (S (S (S (S (S (S (S (S (S (S (S (S (S (S (S (S (S (S
+    O))))))))))))))))))))))))))))))))))))))))))))))))))))))))))) :: ((S (S (S
+    (S (S (S (S (S (S (S (S (S (S (S (S (S (S (S (S (S (S (S (S (S (S (S (S
+    (S (S (S (S (S (S (S (S (S (S (S (S (S (S (S (S (S (S (S (S (S (S (S (S
+    O))))))))))))))))))))))))))))))))))))))))))))))))))) :: ((S (S (S (S (S
+    (S (S (S (S (S (S (S (S (S (S (S (S (S (S (S (S (S (S (S (S (S (S (S (S
+    (S (S (S (S (S (S (S (S (S (S (S (S (S (S
+    O))))))))))))))))))))))))))))))))))))))))))) :: ((S (S (S (S (S (S (S (S
+    (S (S (S (S (S (S (S (S (S (S (S (S (S (S (S (S (S (S (S (S (S (S (S (S
+    (S (S (S O))))))))))))))))))))))))))))))))))) :: ((S (S (S (S (S (S (S (S
+    (S (S (S (S (S (S (S (S (S (S (S (S (S (S (S (S (S (S (S
+    O))))))))))))))))))))))))))) :: ((S (S (S (S (S (S (S (S (S (S (S (S (S
+    (S (S (S (S (S (S O))))))))))))))))))) :: ((S (S (S (S (S (S (S (S (S (S
+    (S O))))))))))) :: ((S (S (S O))) :: ((S (S (S (S (S (S (S (S (S (S (S (S
+    (S (S (S (S (S (S (S (S (S (S (S (S (S (S (S (S (S (S (S (S (S (S (S (S
+    (S (S (S (S (S (S (S (S (S (S (S (S (S (S (S (S (S (S (S (S (S (S (S (S
+    (S O))))))))))))))))))))))))))))))))))))))))))))))))))))))))))))) :: ((S
+    (S (S (S (S (S (S (S (S (S (S (S (S (S (S (S (S (S (S (S (S (S (S (S (S
+    (S (S (S (S (S (S (S (S (S (S (S (S (S (S (S (S (S (S (S (S (S (S (S (S
+    (S (S (S (S O))))))))))))))))))))))))))))))))))))))))))))))))))))) :: ((S
+    (S (S (S (S (S (S (S (S (S (S (S (S (S (S (S (S (S (S (S (S (S (S (S (S
+    (S (S (S (S (S (S (S (S (S (S (S (S (S (S (S (S (S (S (S (S
+    O))))))))))))))))))))))))))))))))))))))))))))) :: ((S (S (S (S (S (S (S
+    (S (S (S (S (S (S (S (S (S (S (S (S (S (S (S (S (S (S (S (S (S (S (S (S
+    (S (S (S (S (S (S O))))))))))))))))))))))))))))))))))))) :: ((S (S (S (S
+    (S (S (S (S (S (S (S (S (S (S (S (S (S (S (S (S (S (S (S (S (S (S (S (S
+    (S O))))))))))))))))))))))))))))) :: ((S (S (S (S (S (S (S (S (S (S (S (S
+    (S (S (S (S (S (S (S (S (S O))))))))))))))))))))) :: ((S (S (S (S (S (S
+    (S (S (S (S (S (S (S O))))))))))))) :: ((S (S (S (S (S O))))) :: ((S (S
+    (S (S (S (S (S (S (S (S (S (S (S (S (S (S (S (S (S (S (S (S (S (S (S (S
+    (S (S (S (S (S (S (S (S (S (S (S (S (S (S (S (S (S (S (S (S (S (S (S (S
+    (S (S (S (S (S (S (S (S (S (S (S (S (S
+    O))))))))))))))))))))))))))))))))))))))))))))))))))))))))))))))) :: ((S
+    (S (S (S (S (S (S (S (S (S (S (S (S (S (S (S (S (S (S (S (S (S (S (S (S
+    (S (S (S (S (S (S (S (S (S (S (S (S (S (S (S (S (S (S (S (S (S (S (S (S
+    (S (S (S (S (S (S
+    O))))))))))))))))))))))))))))))))))))))))))))))))))))))) :: ((S (S (S (S
+    (S (S (S (S (S (S (S (S (S (S (S (S (S (S (S (S (S (S (S (S (S (S (S (S
+    (S (S (S (S (S (S (S (S (S (S (S (S (S (S (S (S (S (S (S
+    O))))))))))))))))))))))))))))))))))))))))))))))) :: ((S (S (S (S (S (S (S
+    (S (S (S (S (S (S (S (S (S (S (S (S (S (S (S (S (S (S (S (S (S (S (S (S
+    (S (S (S (S (S (S (S (S O))))))))))))))))))))))))))))))))))))))) :: ((S
+    (S (S (S (S (S (S (S (S (S (S (S (S (S (S (S (S (S (S (S (S (S (S (S (S
+    (S (S (S (S (S (S O))))))))))))))))))))))))))))))) :: ((S (S (S (S (S (S
+    (S (S (S (S (S (S (S (S (S (S (S (S (S (S (S (S (S
+    O))))))))))))))))))))))) :: ((S (S (S (S (S (S (S (S (S (S (S (S (S (S (S
+    O))))))))))))))) :: ((S (S (S (S (S (S (S
+    O))))))) :: [])))))))))))))))))))))))))))))))))))))))))))))))))))))))))))))))
+
+(** val des_FP : nat list **)
+
+let des_FP =
+  (S (S (S (S (S (S (S (S (S (S (S (S (S (S (S (S (S (S (S (S (S (S (S (S (S
+    (S (S (S (S (S (S (S (S (S (S (S (S (S (S (S
+    O)))))))))))))))))))))))))))))))))))))))) :: ((S (S (S (S (S (S (S (S
+    O)))))))) :: ((S (S (S (S (S (S (S (S (S (S (S (S (S (S (S (S (S (S (S (S
+    (S (S (S (S (S (S (S (S (S (S (S (S (S (S (S (S (S (S (S (S (S (S (S (S
+    (S (S (S (S O)))))))))))))))))))))))))))))))))))))))))))))))) :: ((S (S
+    (S (S (S (S (S (S (S (S (S (S (S (S (S (S O)))))))))))))))) :: ((S (S (S
+    (S (S (S (S (S (S (S (S (S (S (S (S (S (S (S (S (S (S (S (S (S (S (S (S
+    (S (S (S (S (S (S (S (S (S (S (S (S (S (S (S (S (S (S (S (S (S (S (S (S
+    (S (S (S (S (S
+    O)))))))))))))))))))))))))))))))))))))))))))))))))))))))) :: ((S (S (S (S
+    (S (S (S (S (S (S (S (S (S (S (S (S (S (S (S (S (S (S (S (S
+    O)))))))))))))))))))))))) :: ((S (S (S (S (S (S (S (S (S (S (S (S (S (S
+    (S (S (S (S (S (S (S (S (S (S (S (S (S (S (S (S (S (S (S (S (S (S (S (S
+    (S (S (S (S (S (S (S (S (S (S (S (S (S (S (S (S (S (S (S (S (S (S (S (S
+    (S (S
+    O)))))))))))))))))))))))))))))))))))))))))))))))))))))))))))))))) :: ((S
+    (S (S (S (S (S (S (S (S (S (S (S (S (S (S (S (S (S (S (S (S (S (S (S (S
+    (S (S (S (S (S (S (S O)))))))))))))))))))))))))))))))) :: ((S (S (S (S (S
+    (S (S (S (S (S (S (S (S (S (S (S (S (S (S (S (S (S (S (S (S (S (S (S (S
+    (S (S (S (S (S (S (S (S (S (S
+    O))))))))))))))))))))))))))))))))))))))) :: ((S (S (S (S (S (S (S
+    O))))))) :: ((S (S (S (S (S (S (S (S (S (S (S (S (S (S (S (S (S (S (S (S
+    (S (S (S (S (S (S (S (S (S (S (S (S (S (S (S (S (S (S (S (S (S (S (S (S
+    (S (S (S O))))))))))))))))))))))))))))))))))))))))))))))) :: ((S (S (S (S
+    (S (S (S (S (S (S (S (S (S (S (S O))))))))))))))) :: ((S (S (S (S (S (S
+    (S (S (S (S (S (S (S (S (S (S (S (S (S (S (S (S (S (S (S (S (S (S (S (S
+    (S (S (S (S (S (S (S (S (S (S (S (S (S (S (S (S (S (S (S (S (S (S (S (S
+    (S O))))))))))))))))))))))))))))))))))))))))))))))))))))))) :: ((S (S (S
+    (S (S (S (S (S (S (S (S (S (S (S (S (S (S (S (S (S (S (S (S
+    O))))))))))))))))))))))) :: ((S (S (S (S (S (S (S (S (S (S (S (S (S (S (S
+    (S (S (S (S (S (S (S (S (S (S (S (S (S (S (S (S (S (S (S (S (S (S (S (S
+    (S (S (S (S (S (S (S (S (S (S (S (S (S (S (S (S (S (S (S (S (S (S (S (S
+    O))))))))))))))))))))))))))))))))))))))))))))))))))))))))))))))) :: ((S
+    (S (S (S (S (S (S (S (S (S (S (S (S (S (S (S (S (S (S (S (S (S (S (S (S
+    (S (S (S (S (S (S O))))))))))))))))))))))))))))))) :: ((S (S (S (S (S (S
+    (S (S (S (S (S (S (S (S (S (S (S (S (S (S (S (S (S (S (S (S (S (S (S (S
+    (S (S (S (S (S (S (S (S O)))))))))))))))))))))))))))))))))))))) :: ((S (S
+    (S (S (S (S O)))))) :: ((S (S (S (S (S (S (S (S (S (S (S (S (S (S (S (S
+    (S (S (S (S (S (S (S (S (S (S (S (S (S (S (S (S (S (S (S (S (S (S (S (S
+    (S (S (S (S (S (S O)))))))))))))))))))))))))))))))))))))))))))))) :: ((S
+    (S (S (S (S (S (S (S (S (S (S (S (S (S O)))))))))))))) :: ((S (S (S (S (S
+    (S (S (S (S (S (S (S (S (S (S (S (S (S (S (S (S (S (S (S (S (S (S (S (S
+    (S (S (S (S (S (S (S (S (S (S (S (S (S (S (S (S (S (S (S (S (S (S (S (S
+    (S O)))))))))))))))))))))))))))))))))))))))))))))))))))))) :: ((S (S (S
+    (S (S (S (S (S (S (S (S (S (S (S (S (S (S (S (S (S (S (S
+    O)))))))))))))))))))))) :: ((S (S (S (S (S (S (S (S (S (S (S (S (S (S (S
+    (S (S (S (S (S (S (S (S (S (S (S (S (S (S (S (S (S (S (S (S (S (S (S (S
+    (S (S (S (S (S (S (S (S (S (S (S (S (S (S (S (S (S (S (S (S (S (S (S
+    O)))))))))))))))))))))))))))))))))))))))))))))))))))))))))))))) :: ((S (S
+    (S (S (S (S (S (S (S (S (S (S (S (S (S (S (S (S (S (S (S (S (S (S (S (S
+    (S (S (S (S O)))))))))))))))))))))))))))))) :: ((S (S (S (S (S (S (S (S
+    (S (S (S (S (S (S (S (S (S (S (S (S (S (S (S (S (S (S (S (S (S (S (S (S
+    (S (S (S (S (S O))))))))))))))))))))))))))))))))))))) :: ((S (S (S (S (S
+    O))))) :: ((S (S (S (S (S (S (S (S (S (S (S (S (S (S (S (S (S (S (S (S (S
+    (S (S (S (S (S (S (S (S (S (S (S (S (S (S (S (S (S (S (S (S (S (S (S (S
+    O))))))))))))))))))))))))))))))))))))))))))))) :: ((S (S (S (S (S (S (S
+    (S (S (S (S (S (S O))))))))))))) :: ((S (S (S (S (S (S (S (S (S (S (S (S
+    (S (S (S (S (S (S (S (S (S (S (S (S (S (S (S (S (S (S (S (S (S (S (S (S
+    (S (S (S (S (S (S (S (S (S (S (S (S (S (S (S (S (S
+    O))))))))))))))))))))))))))))))))))))))))))))))))))))) :: ((S (S (S (S (S
+    (S (S (S (S (S (S (S (S (S (S (S (S (S (S (S (S
+    O))))))))))))))))))))) :: ((S (S (S (S (S (S (S (S (S (S (S (S (S (S (S
+    (S (S (S (S (S (S (S (S (S (S (S (S (S (S (S (S (S (S (S (S (S (S (S (S
+    (S (S (S (S (S (S (S (S (S (S (S (S (S (S (S (S (S (S (S (S (S (S
+    O))))))))))))))))))))))))))))))))))))))))))))))))))))))))))))) :: ((S (S
+    (S (S (S (S (S (S (S (S (S (S (S (S (S (S (S (S (S (S (S (S (S (S (S (S
+    (S (S (S O))))))))))))))))))))))))))))) :: ((S (S (S (S (S (S (S (S (S (S
+    (S (S (S (S (S (S (S (S (S (S (S (S (S (S (S (S (S (S (S (S (S (S (S (S
+    (S (S O)))))))))))))))))))))))))))))))))))) :: ((S (S (S (S O)))) :: ((S
+    (S (S (S (S (S (S (S (S (S (S (S (S (S (S (S (S (S (S (S (S (S (S (S (S
+    (S (S (S (S (S (S (S (S (S (S (S (S (S (S (S (S (S (S (S
+    O)))))))))))))))))))))))))))))))))))))))))))) :: ((S (S (S (S (S (S (S (S
+    (S (S (S (S O)))))))))))) :: ((S (S (S (S (S (S (S (S (S (S (S (S (S (S
+    (S (S (S (S (S (S (S (S (S (S (S (S (S (S (S (S (S (S (S (S (S (S (S (S
+    (S (S (S (S (S (S (S (S (S (S (S (S (S (S
+    O)))))))))))))))))))))))))))))))))))))))))))))))))))) :: ((S (S (S (S (S
+    (S (S (S (S (S (S (S (S (S (S (S (S (S (S (S O)))))))))))))))))))) :: ((S
+    (S (S (S (S (S (S (S (S (S (S (S (S (S (S (S (S (S (S (S (S (S (S (S (S
+    (S (S (S (S (S (S (S (S (S (S (S (S (S (S (S (S (S (S (S (S (S (S (S (S
+    (S (S (S (S (S (S (S (S (S (S (S
+    O)))))))))))))))))))))))))))))))))))))))))))))))))))))))))))) :: ((S (S
+    (S (S (S (S (S (S (S (S (S (S (S (S (S (S (S (S (S (S (S (S (S (S (S (S
+    (S (S O)))))))))))))))))))))))))))) :: ((S (S (S (S (S (S (S (S (S (S (S
+    (S (S (S (S (S (S (S (S (S (S (S (S (S (S (S (S (S (S (S (S (S (S (S (S
+    O))))))))))))))))))))))))))))))))))) :: ((S (S (S O))) :: ((S (S (S (S (S
+    (S (S (S (S (S (S (S (S (S (S (S (S (S (S (S (S (S (S (S (S (S (S (S (S
+    (S (S (S (S (S (S (S (S (S (S (S (S (S (S
+    O))))))))))))))))))))))))))))))))))))))))))) :: ((S (S (S (S (S (S (S (S
+    (S (S (S O))))))))))) :: ((S (S (S (S (S (S (S (S (S (S (S (S (S (S (S (S
+    (S (S (S (S (S (S (S (S (S (S (S (S (S (S (S (S (S (S (S (S (S (S (S (S
+    (S (S (S (S (S (S (S (S (S (S (S
+    O))))))))))))))))))))))))))))))))))))))))))))))))))) :: ((S (S (S (S (S
+    (S (S (S (S (S (S (S (S (S (S (S (S (S (S O))))))))))))))))))) :: ((S (S
+    (S (S (S (S (S (S (S (S (S (S (S (S (S (S (S (S (S (S (S (S (S (S (S (S
+    (S (S (S (S (S (S (S (S (S (S (S (S (S (S (S (S (S (S (S (S (S (S (S (S
+    (S (S (S (S (S (S (S (S (S
+    O))))))))))))))))))))))))))))))))))))))))))))))))))))))))))) :: ((S (S (S
+    (S (S (S (S (S (S (S (S (S (S (S (S (S (S (S (S (S (S (S (S (S (S (S (S
+    O))))))))))))))))))))))))))) :: ((S (S (S (S (S (S (S (S (S (S (S (S (S
+    (S (S (S (S (S (S (S (S (S (S (S (S (S (S (S (S (S (S (S (S (S
+    O)))))))))))))))))))))))))))))))))) :: ((S (S O)) :: ((S (S (S (S (S (S
+    (S (S (S (S (S (S (S (S (S (S (S (S (S (S (S (S (S (S (S (S (S (S (S (S
+    (S (S (S (S (S (S (S (S (S (S (S (S
+    O)))))))))))))))))))))))))))))))))))))))))) :: ((S (S (S (S (S (S (S (S
+    (S (S O)))))))))) :: ((S (S (S (S (S (S (S (S (S (S (S (S (S (S (S (S (S
+    (S (S (S (S (S (S (S (S (S (S (S (S (S (S (S (S (S (S (S (S (S (S (S (S
+    (S (S (S (S (S (S (S (S (S
+    O)))))))))))))))))))))))))))))))))))))))))))))))))) :: ((S (S (S (S (S (S
+    (S (S (S (S (S (S (S (S (S (S (S (S O)))))))))))))))))) :: ((S (S (S (S
+    (S (S (S (S (S (S (S (S (S (S (S (S (S (S (S (S (S (S (S (S (S (S (S (S
+    (S (S (S (S (S (S (S (S (S (S (S (S (S (S (S (S (S (S (S (S (S (S (S (S
+    (S (S (S (S (S (S
+    O)))))))))))))))))))))))))))))))))))))))))))))))))))))))))) :: ((S (S (S
+    (S (S (S (S (S (S (S (S (S (S (S (S (S (S (S (S (S (S (S (S (S (S (S
+    O)))))))))))))))))))))))))) :: ((S (S (S (S (S (S (S (S (S (S (S (S (S (S
+    (S (S (S (S (S (S (S (S (S (S (S (S (S (S (S (S (S (S (S
+    O))))))))))))))))))))))))))))))))) :: ((S O) :: ((S (S (S (S (S (S (S (S
+    (S (S (S (S (S (S (S (S (S (S (S (S (S (S (S (S (S (S (S (S (S (S (S (S
+    (S (S (S (S (S (S (S (S (S
+    O))))))))))))))))))))))))))))))))))))))))) :: ((S (S (S (S (S (S (S (S (S
+    O))))))))) :: ((S (S (S (S (S (S (S (S (S (S (S (S (S (S (S (S (S (S (S
+    (S (S (S (S (S (S (S (S (S (S (S (S (S (S (S (S (S (S (S (S (S (S (S (S
+    (S (S (S (S (S (S
+    O))))))))))))))))))))))))))))))))))))))))))))))))) :: ((S (S (S (S (S (S
+    (S (S (S (S (S (S (S (S (S (S (S O))))))))))))))))) :: ((S (S (S (S (S (S
+    (S (S (S (S (S (S (S (S (S (S (S (S (S (S (S (S (S (S (S (S (S (S (S (S
+    (S (S (S (S (S (S (S (S (S (S (S (S (S (S (S (S (S (S (S (S (S (S (S (S
+    (S (S (S
+    O))))))))))))))))))))))))))))))))))))))))))))))))))))))))) :: ((S (S (S
+    (S (S (S (S (S (S (S (S (S (S (S (S (S (S (S (S (S (S (S (S (S (S
+    O))))))))))))))))))))))))) :: [])))))))))))))))))))))))))))))))))))))))))))))))))))))))))))))))
+
+(** val des_E : nat list **)
+
+let des_E =
+  (S (S (S (S (S (S (S (S (S (S (S (S (S (S (S (S (S (S (S (S (S (S (S (S (S
+    (S (S (S (S (S (S (S O)))))))))))))))))))))))))))))))) :: ((S O) :: ((S
+    (S O)) :: ((S (S (S O))) :: ((S (S (S (S O)))) :: ((S (S (S (S (S
+    O))))) :: ((S (S (S (S O)))) :: ((S (S (S (S (S O))))) :: ((S (S (S (S (S
+    (S O)))))) :: ((S (S (S (S (S (S (S O))))))) :: ((S (S (S (S (S (S (S (S
+    O)))))))) :: ((S (S (S (S (S (S (S (S (S O))))))))) :: ((S (S (S (S (S (S
+    (S (S O)))))))) :: ((S (S (S (S (S (S (S (S (S O))))))))) :: ((S (S (S (S
+    (S (S (S (S (S (S O)))))))))) :: ((S (S (S (S (S (S (S (S (S (S (S
+    O))))))))))) :: ((S (S (S (S (S (S (S (S (S (S (S (S O)))))))))))) :: ((S
+    (S (S (S (S (S (S (S (S (S (S (S (S O))))))))))))) :: ((S (S (S (S (S (S
+    (S (S (S (S (S (S O)))))))))))) :: ((S (S (S (S (S (S (S (S (S (S (S (S
+    (S O))))))))))))) :: ((S (S (S (S (S (S (S (S (S (S (S (S (S (S
+    O)))))))))))))) :: ((S (S (S (S (S (S (S (S (S (S (S (S (S (S (S
+    O))))))))))))))) :: ((S (S (S (S (S (S (S (S (S (S (S (S (S (S (S (S
+    O)))))))))))))))) :: ((S (S (S (S (S (S (S (S (S (S (S (S (S (S (S (S (S
+    O))))))))))))))))) :: ((S (S (S (S (S (S (S (S (S (S (S (S (S (S (S (S
+    O)))))))))))))))) :: ((S (S (S (S (S (S (S (S (S (S (S (S (S (S (S (S (S
+    O))))))))))))))))) :: ((S (S (S (S (S (S (S (S (S (S (S (S (S (S (S (S (S
+    (S O)))))))))))))))))) :: ((S (S (S (S (S (S (S (S (S (S (S (S (S (S (S
+    (S (S (S (S O))))))))))))))))))) :: ((S (S (S (S (S (S (S (S (S (S (S (S
+    (S (S (S (S (S (S (S (S O)))))))))))))))))))) :: ((S (S (S (S (S (S (S (S
+    (S (S (S (S (S (S (S (S (S (S (S (S (S O))))))))))))))))))))) :: ((S (S
+    (S (S (S (S (S (S (S (S (S (S (S (S (S (S (S (S (S (S
+    O)))))))))))))))))))) :: ((S (S (S (S (S (S (S (S (S (S (S (S (S (S (S (S
+    (S (S (S (S (S O))))))))))))))))))))) :: ((S (S (S (S (S (S (S (S (S (S
+    (S (S (S (S (S (S (S (S (S (S (S (S O)))))))))))))))))))))) :: ((S (S (S
+    (S (S (S (S (S (S (S (S (S (S (S (S (S (S (S (S (S (S (S (S
+    O))))))))))))))))))))))) :: ((S (S (S (S (S (S (S (S (S (S (S (S (S (S (S
+    (S (S (S (S (S (S (S (S (S O)))))))))))))))))))))))) :: ((S (S (S (S (S
+    (S (S (S (S (S (S (S (S (S (S (S (S (S (S (S (S (S (S (S (S
+    O))))))))))))))))))))))))) :: ((S (S (S (S (S (S (S (S (S (S (S (S (S (S
+    (S (S (S (S (S (S (S (S (S (S O)))))))))))))))))))))))) :: ((S (S (S (S
+    (S (S (S (S (S (S (S (S (S (S (S (S (S (S (S (S (S (S (S (S (S
+    O))))))))))))))))))))))))) :: ((S (S (S (S (S (S (S (S (S (S (S (S (S (S
+    (S (S (S (S (S (S (S (S (S (S (S (S O)))))))))))))))))))))))))) :: ((S (S
+    (S (S (S (S (S (S (S (S (S (S (S (S (S (S (S (S (S (S (S (S (S (S (S (S
+    (S O))))))))))))))))))))))))))) :: ((S (S (S (S (S (S (S (S (S (S (S (S
+    (S (S (S (S (S (S (S (S (S (S (S (S (S (S (S (S
+    O)))))))))))))))))))))))))))) :: ((S (S (S (S (S (S (S (S (S (S (S (S (S
+    (S (S (S (S (S (S (S (S (S (S (S (S (S (S (S (S
+    O))))))))))))))))))))))))))))) :: ((S (S (S (S (S (S (S (S (S (S (S (S (S
+    (S (S (S (S (S (S (S (S (S (S (S (S (S (S (S
+    O)))))))))))))))))))))))))))) :: ((S (S (S (S (S (S (S (S (S (S (S (S (S
+    (S (S (S (S (S (S (S (S (S (S (S (S (S (S (S (S
+    O))))))))))))))))))))))))))))) :: ((S (S (S (S (S (S (S (S (S (S (S (S (S
+    (S (S (S (S (S (S (S (S (S (S (S (S (S (S (S (S (S
+    O)))))))))))))))))))))))))))))) :: ((S (S (S (S (S (S (S (S (S (S (S (S
+    (S (S (S (S (S (S (S (S (S (S (S (S (S (S (S (S (S (S (S
+    O))))))))))))))))))))))))))))))) :: ((S (S (S (S (S (S (S (S (S (S (S (S
+    (S (S (S (S (S (S (S (S (S (S (S (S (S (S (S (S (S (S (S (S
+    O)))))))))))))))))))))))))))))))) :: ((S
+    O) :: [])))))))))))))))))))))))))))))))))))))))))))))))
+
+(** val des_P : nat list **)
+
+let des_P =
+  (S (S (S (S (S (S (S (S (S (S (S (S (S (S (S (S O)))))))))))))))) :: ((S (S
+    (S (S (S (S (S O))))))) :: ((S (S (S (S (S (S (S (S (S (S (S (S (S (S (S
+    (S (S (S (S (S O)))))))))))))))))))) :: ((S (S (S (S (S (S (S (S (S (S (S
+    (S (S (S (S (S (S (S (S (S (S O))))))))))))))))))))) :: ((S (S (S (S (S
+    (S (S (S (S (S (S (S (S (S (S (S (S (S (S (S (S (S (S (S (S (S (S (S (S
+    O))))))))))))))))))))))))))))) :: ((S (S (S (S (S (S (S (S (S (S (S (S
+    O)))))))))))) :: ((S (S (S (S (S (S (S (S (S (S (S (S (S (S (S (S (S (S
+    (S (S (S (S (S (S (S (S (S (S O)))))))))))))))))))))))))))) :: ((S (S (S
+    (S (S (S (S (S (S (S (S (S (S (S (S (S (S O))))))))))))))))) :: ((S
+    O) :: ((S (S (S (S (S (S (S (S (S (S (S (S (S (S (S
+    O))))))))))))))) :: ((S (S (S (S (S (S (S (S (S (S (S (S (S (S (S (S (S
+    (S (S (S (S (S (S O))))))))))))))))))))))) :: ((S (S (S (S (S (S (S (S (S
+    (S (S (S (S (S (S (S (S (S (S (S (S (S (S (S (S (S
+    O)))))))))))))))))))))))))) :: ((S (S (S (S (S O))))) :: ((S (S (S (S (S
+    (S (S (S (S (S (S (S (S (S (S (S (S (S O)))))))))))))))))) :: ((S (S (S
+    (S (S (S (S (S (S (S (S (S (S (S (S (S (S (S (S (S (S (S (S (S (S (S (S
+    (S (S (S (S O))))))))))))))))))))))))))))))) :: ((S (S (S (S (S (S (S (S
+    (S (S O)))))))))) :: ((S (S O)) :: ((S (S (S (S (S (S (S (S
+    O)))))))) :: ((S (S (S (S (S (S (S (S (S (S (S (S (S (S (S (S (S (S (S (S
+    (S (S (S (S O)))))))))))))))))))))))) :: ((S (S (S (S (S (S (S (S (S (S
+    (S (S (S (S O)))))))))))))) :: ((S (S (S (S (S (S (S (S (S (S (S (S (S (S
+    (S (S (S (S (S (S (S (S (S (S (S (S (S (S (S (S (S (S
+    O)))))))))))))))))))))))))))))))) :: ((S (S (S (S (S (S (S (S (S (S (S (S
+    (S (S (S (S (S (S (S (S (S (S (S (S (S (S (S
+    O))))))))))))))))))))))))))) :: ((S (S (S O))) :: ((S (S (S (S (S (S (S
+    (S (S O))))))))) :: ((S (S (S (S (S (S (S (S (S (S (S (S (S (S (S (S (S
+    (S (S O))))))))))))))))))) :: ((S (S (S (S (S (S (S (S (S (S (S (S (S
+    O))))))))))))) :: ((S (S (S (S (S (S (S (S (S (S (S (S (S (S (S (S (S (S
+    (S (S (S (S (S (S (S (S (S (S (S (S
+    O)))))))))))))))))))))))))))))) :: ((S (S (S (S (S (S O)))))) :: ((S (S
+    (S (S (S (S (S (S (S (S (S (S (S (S (S (S (S (S (S (S (S (S
+    O)))))))))))))))))))))) :: ((S (S (S (S (S (S (S (S (S (S (S
+    O))))))))))) :: ((S (S (S (S O)))) :: ((S (S (S (S (S (S (S (S (S (S (S
+    (S (S (S (S (S (S (S (S (S (S (S (S (S (S
+    O))))))))))))))))))))))))) :: [])))))))))))))))))))))))))))))))
+
+(** val des_PC1 : nat list **)
+
+let des_PC1 =
+  (S (S (S (S (S (S (S (S (S (S (S (S (S (S (S (S (S (S (S (S (S (S (S (S (S
+    (S (S (S (S (S (S (S (S (S (S (S (S (S (S (S (S (S (S (S (S (S (S (S (S
+    (S (S (S (S (S (S (S (S
+    O))))))))))))))))))))))))))))))))))))))))))))))))))))))))) :: ((S (S (S
+    (S (S (S (S (S (S (S (S (S (S (S (S (S (S (S (S (S (S (S (S (S (S (S (S
+    (S (S (S (S (S (S (S (S (S (S (S (S (S (S (S (S (S (S (S (S (S (S
+    O))))))))))))))))))))))))))))))))))))))))))))))))) :: ((S (S (S (S (S (S
+    (S (S (S (S (S (S (S (S (S (S (S (S (S (S (S (S (S (S (S (S (S (S (S (S
+    (S (S (S (S (S (S (S (S (S (S (S
+    O))))))))))))))))))))))))))))))))))))))))) :: ((S (S (S (S (S (S (S (S (S
+    (S (S (S (S (S (S (S (S (S (S (S (S (S (S (S (S (S (S (S (S (S (S (S (S
+    O))))))))))))))))))))))))))))))))) :: ((S (S (S (S (S (S (S (S (S (S (S
+    (S (S (S (S (S (S (S (S (S (S (S (S (S (S
+    O))))))))))))))))))))))))) :: ((S (S (S (S (S (S (S (S (S (S (S (S (S (S
+    (S (S (S O))))))))))))))))) :: ((S (S (S (S (S (S (S (S (S
+    O))))))))) :: ((S O) :: ((S (S (S (S (S (S (S (S (S (S (S (S (S (S (S (S
+    (S (S (S (S (S (S (S (S (S (S (S (S (S (S (S (S (S (S (S (S (S (S (S (S
+    (S (S (S (S (S (S (S (S (S (S (S (S (S (S (S (S (S (S
+    O)))))))))))))))))))))))))))))))))))))))))))))))))))))))))) :: ((S (S (S
+    (S (S (S (S (S (S (S (S (S (S (S (S (S (S (S (S (S (S (S (S (S (S (S (S
+    (S (S (S (S (S (S (S (S (S (S (S (S (S (S (S (S (S (S (S (S (S (S (S
+    O)))))))))))))))))))))))))))))))))))))))))))))))))) :: ((S (S (S (S (S (S
+    (S (S (S (S (S (S (S (S (S (S (S (S (S (S (S (S (S (S (S (S (S (S (S (S
+    (S (S (S (S (S (S (S (S (S (S (S (S
+    O)))))))))))))))))))))))))))))))))))))))))) :: ((S (S (S (S (S (S (S (S
+    (S (S (S (S (S (S (S (S (S (S (S (S (S (S (S (S (S (S (S (S (S (S (S (S
+    (S (S O)))))))))))))))))))))))))))))))))) :: ((S (S (S (S (S (S (S (S (S
+    (S (S (S (S (S (S (S (S (S (S (S (S (S (S (S (S (S
+    O)))))))))))))))))))))))))) :: ((S (S (S (S (S (S (S (S (S (S (S (S (S (S
+    (S (S (S (S O)))))))))))))))))) :: ((S (S (S (S (S (S (S (S (S (S
+    O)))))))))) :: ((S (S O)) :: ((S (S (S (S (S (S (S (S (S (S (S (S (S (S
+    (S (S (S (S (S (S (S (S (S (S (S (S (S (S (S (S (S (S (S (S (S (S (S (S
+    (S (S (S (S (S (S (S (S (S (S (S (S (S (S (S (S (S (S (S (S (S
+    O))))))))))))))))))))))))))))))))))))))))))))))))))))))))))) :: ((S (S (S
+    (S (S (S (S (S (S (S (S (S (S (S (S (S (S (S (S (S (S (S (S (S (S (S (S
+    (S (S (S (S (S (S (S (S (S (S (S (S (S (S (S (S (S (S (S (S (S (S (S (S
+    O))))))))))))))))))))))))))))))))))))))))))))))))))) :: ((S (S (S (S (S
+    (S (S (S (S (S (S (S (S (S (S (S (S (S (S (S (S (S (S (S (S (S (S (S (S
+    (S (S (S (S (S (S (S (S (S (S (S (S (S (S
+    O))))))))))))))))))))))))))))))))))))))))))) :: ((S (S (S (S (S (S (S (S
+    (S (S (S (S (S (S (S (S (S (S (S (S (S (S (S (S (S (S (S (S (S (S (S (S
+    (S (S (S O))))))))))))))))))))))))))))))))))) :: ((S (S (S (S (S (S (S (S
+    (S (S (S (S (S (S (S (S (S (S (S (S (S (S (S (S (S (S (S
+    O))))))))))))))))))))))))))) :: ((S (S (S (S (S (S (S (S (S (S (S (S (S
+    (S (S (S (S (S (S O))))))))))))))))))) :: ((S (S (S (S (S (S (S (S (S (S
+    (S O))))))))))) :: ((S (S (S O))) :: ((S (S (S (S (S (S (S (S (S (S (S (S
+    (S (S (S (S (S (S (S (S (S (S (S (S (S (S (S (S (S (S (S (S (S (S (S (S
+    (S (S (S (S (S (S (S (S (S (S (S (S (S (S (S (S (S (S (S (S (S (S (S (S
+    O)))))))))))))))))))))))))))))))))))))))))))))))))))))))))))) :: ((S (S
+    (S (S (S (S (S (S (S (S (S (S (S (S (S (S (S (S (S (S (S (S (S (S (S (S
+    (S (S (S (S (S (S (S (S (S (S (S (S (S (S (S (S (S (S (S (S (S (S (S (S
+    (S (S O)))))))))))))))))))))))))))))))))))))))))))))))))))) :: ((S (S (S
+    (S (S (S (S (S (S (S (S (S (S (S (S (S (S (S (S (S (S (S (S (S (S (S (S
+    (S (S (S (S (S (S (S (S (S (S (S (S (S (S (S (S (S
+    O)))))))))))))))))))))))))))))))))))))))))))) :: ((S (S (S (S (S (S (S (S
+    (S (S (S (S (S (S (S (S (S (S (S (S (S (S (S (S (S (S (S (S (S (S (S (S
+    (S (S (S (S O)))))))))))))))))))))))))))))))))))) :: ((S (S (S (S (S (S
+    (S (S (S (S (S (S (S (S (S (S (S (S (S (S (S (S (S (S (S (S (S (S (S (S
+    (S (S (S (S (S (S (S (S (S (S (S (S (S (S (S (S (S (S (S (S (S (S (S (S
+    (S (S (S (S (S (S (S (S (S
+    O))))))))))))))))))))))))))))))))))))))))))))))))))))))))))))))) :: ((S
+    (S (S (S (S (S (S (S (S (S (S (S (S (S (S (S (S (S (S (S (S (S (S (S (S
+    (S (S (S (S (S (S (S (S (S (S (S (S (S (S (S (S (S (S (S (S (S (S (S (S
+    (S (S (S (S (S (S
+    O))))))))))))))))))))))))))))))))))))))))))))))))))))))) :: ((S (S (S (S
+    (S (S (S (S (S (S (S (S (S (S (S (S (S (S (S (S (S (S (S (S (S (S (S (S
+    (S (S (S (S (S (S (S (S (S (S (S (S (S (S (S (S (S (S (S
+    O))))))))))))))))))))))))))))))))))))))))))))))) :: ((S (S (S (S (S (S (S
+    (S (S (S (S (S (S (S (S (S (S (S (S (S (S (S (S (S (S (S (S (S (S (S (S
+    (S (S (S (S (S (S (S (S O))))))))))))))))))))))))))))))))))))))) :: ((S
+    (S (S (S (S (S (S (S (S (S (S (S (S (S (S (S (S (S (S (S (S (S (S (S (S
+    (S (S (S (S (S (S O))))))))))))))))))))))))))))))) :: ((S (S (S (S (S (S
+    (S (S (S (S (S (S (S (S (S (S (S (S (S (S (S (S (S
+    O))))))))))))))))))))))) :: ((S (S (S (S (S (S (S (S (S (S (S (S (S (S (S
+    O))))))))))))))) :: ((S (S (S (S (S (S (S O))))))) :: ((S (S (S (S (S (S
+    (S (S (S (S (S (S (S (S (S (S (S (S (S (S (S (S (S (S (S (S (S (S (S (S
+    (S (S (S (S (S (S (S (S (S (S (S (S (S (S (S (S (S (S (S (S (S (S (S (S
+    (S (S (S (S (S (S (S (S
+    O)))))))))))))))))))))))))))))))))))))))))))))))))))))))))))))) :: ((S (S
+    (S (S (S (S (S (S (S (S (S (S (S (S (S (S (S (S (S (S (S (S (S (S (S (S
+    (S (S (S (S (S (S (S (S (S (S (S (S (S (S (S (S (S (S (S (S (S (S (S (S
+    (S (S (S (S
+    O)))))))))))))))))))))))))))))))))))))))))))))))))))))) :: ((S (S (S (S
+    (S (S (S (S (S (S (S (S (S (S (S (S (S (S (S (S (S (S (S (S (S (S (S (S
+    (S (S (S (S (S (S (S (S (S (S (S (S (S (S (S (S (S (S
+    O)))))))))))))))))))))))))))))))))))))))))))))) :: ((S (S (S (S (S (S (S
+    (S (S (S (S (S (S (S (S (S (S (S (S (S (S (S (S (S (S (S (S (S (S (S (S
+    (S (S (S (S (S (S (S O)))))))))))))))))))))))))))))))))))))) :: ((S (S (S
+    (S (S (S (S (S (S (S (S (S (S (S (S (S (S (S (S (S (S (S (S (S (S (S (S
+    (S (S (S O)))))))))))))))))))))))))))))) :: ((S (S (S (S (S (S (S (S (S
+    (S (S (S (S (S (S (S (S (S (S (S (S (S O)))))))))))))))))))))) :: ((S (S
+    (S (S (S (S (S (S (S (S (S (S (S (S O)))))))))))))) :: ((S (S (S (S (S (S
+    O)))))) :: ((S (S (S (S (S (S (S (S (S (S (S (S (S (S (S (S (S (S (S (S
+    (S (S (S (S (S (S (S (S (S (S (S (S (S (S (S (S (S (S (S (S (S (S (S (S
+    (S (S (S (S (S (S (S (S (S (S (S (S (S (S (S (S (S
+    O))))))))))))))))))))))))))))))))))))))))))))))))))))))))))))) :: ((S (S
+    (S (S (S (S (S (S (S (S (S (S (S (S (S (S (S (S (S (S (S (S (S (S (S (S
+    (S (S (S (S (S (S (S (S (S (S (S (S (S (S (S (S (S (S (S (S (S (S (S (S
+    (S (S (S O))))))))))))))))))))))))))))))))))))))))))))))))))))) :: ((S (S
+    (S (S (S (S (S (S (S (S (S (S (S (S (S (S (S (S (S (S (S (S (S (S (S (S
+    (S (S (S (S (S (S (S (S (S (S (S (S (S (S (S (S (S (S (S
+    O))))))))))))))))))))))))))))))))))))))))))))) :: ((S (S (S (S (S (S (S
+    (S (S (S (S (S (S (S (S (S (S (S (S (S (S (S (S (S (S (S (S (S (S (S (S
+    (S (S (S (S (S (S O))))))))))))))))))))))))))))))))))))) :: ((S (S (S (S
+    (S (S (S (S (S (S (S (S (S (S (S (S (S (S (S (S (S (S (S (S (S (S (S (S
+    (S O))))))))))))))))))))))))))))) :: ((S (S (S (S (S (S (S (S (S (S (S (S
+    (S (S (S (S (S (S (S (S (S O))))))))))))))))))))) :: ((S (S (S (S (S (S
+    (S (S (S (S (S (S (S O))))))))))))) :: ((S (S (S (S (S O))))) :: ((S (S
+    (S (S (S (S (S (S (S (S (S (S (S (S (S (S (S (S (S (S (S (S (S (S (S (S
+    (S (S O)))))))))))))))))))))))))))) :: ((S (S (S (S (S (S (S (S (S (S (S
+    (S (S (S (S (S (S (S (S (S O)))))))))))))))))))) :: ((S (S (S (S (S (S (S
+    (S (S (S (S (S O)))))))))))) :: ((S (S (S (S
+    O)))) :: [])))))))))))))))))))))))))))))))))))))))))))))))))))))))
+
+(** val des_PC2 : nat list **)
+
+let des_PC2 =
+  (S (S (S (S (S (S (S (S (S (S (S (S (S (S O)))))))))))))) :: ((S (S (S (S
+    (S (S (S (S (S (S (S (S (S (S (S (S (S O))))))))))))))))) :: ((S (S (S (S
+    (S (S (S (S (S (S (S O))))))))))) :: ((S (S (S (S (S (S (S (S (S (S (S (S
+    (S (S (S (S (S (S (S (S (S (S (S (S O)))))))))))))))))))))))) :: ((S
+    O) :: ((S (S (S (S (S O))))) :: ((S (S (S O))) :: ((S (S (S (S (S (S (S
+    (S (S (S (S (S (S (S (S (S (S (S (S (S (S (S (S (S (S (S (S (S
+    O)))))))))))))))))))))))))))) :: ((S (S (S (S (S (S (S (S (S (S (S (S (S
+    (S (S O))))))))))))))) :: ((S (S (S (S (S (S O)))))) :: ((S (S (S (S (S
+    (S (S (S (S (S (S (S (S (S (S (S (S (S (S (S (S
+    O))))))))))))))))))))) :: ((S (S (S (S (S (S (S (S (S (S
+    O)))))))))) :: ((S (S (S (S (S (S (S (S (S (S (S (S (S (S (S (S (S (S (S
+    (S (S (S (S O))))))))))))))))))))))) :: ((S (S (S (S (S (S (S (S (S (S (S
+    (S (S (S (S (S (S (S (S O))))))))))))))))))) :: ((S (S (S (S (S (S (S (S
+    (S (S (S (S O)))))))))))) :: ((S (S (S (S O)))) :: ((S (S (S (S (S (S (S
+    (S (S (S (S (S (S (S (S (S (S (S (S (S (S (S (S (S (S (S
+    O)))))))))))))))))))))))))) :: ((S (S (S (S (S (S (S (S O)))))))) :: ((S
+    (S (S (S (S (S (S (S (S (S (S (S (S (S (S (S O)))))))))))))))) :: ((S (S
+    (S (S (S (S (S O))))))) :: ((S (S (S (S (S (S (S (S (S (S (S (S (S (S (S
+    (S (S (S (S (S (S (S (S (S (S (S (S O))))))))))))))))))))))))))) :: ((S
+    (S (S (S (S (S (S (S (S (S (S (S (S (S (S (S (S (S (S (S
+    O)))))))))))))))))))) :: ((S (S (S (S (S (S (S (S (S (S (S (S (S
+    O))))))))))))) :: ((S (S O)) :: ((S (S (S (S (S (S (S (S (S (S (S (S (S
+    (S (S (S (S (S (S (S (S (S (S (S (S (S (S (S (S (S (S (S (S (S (S (S (S
+    (S (S (S (S O))))))))))))))))))))))))))))))))))))))))) :: ((S (S (S (S (S
+    (S (S (S (S (S (S (S (S (S (S (S (S (S (S (S (S (S (S (S (S (S (S (S (S
+    (S (S (S (S (S (S (S (S (S (S (S (S (S (S (S (S (S (S (S (S (S (S (S
+    O)))))))))))))))))))))))))))))))))))))))))))))))))))) :: ((S (S (S (S (S
+    (S (S (S (S (S (S (S (S (S (S (S (S (S (S (S (S (S (S (S (S (S (S (S (S
+    (S (S O))))))))))))))))))))))))))))))) :: ((S (S (S (S (S (S (S (S (S (S
+    (S (S (S (S (S (S (S (S (S (S (S (S (S (S (S (S (S (S (S (S (S (S (S (S
+    (S (S (S O))))))))))))))))))))))))))))))))))))) :: ((S (S (S (S (S (S (S
+    (S (S (S (S (S (S (S (S (S (S (S (S (S (S (S (S (S (S (S (S (S (S (S (S
+    (S (S (S (S (S (S (S (S (S (S (S (S (S (S (S (S
+    O))))))))))))))))))))))))))))))))))))))))))))))) :: ((S (S (S (S (S (S (S
+    (S (S (S (S (S (S (S (S (S (S (S (S (S (S (S (S (S (S (S (S (S (S (S (S
+    (S (S (S (S (S (S (S (S (S (S (S (S (S (S (S (S (S (S (S (S (S (S (S (S
+    O))))))))))))))))))))))))))))))))))))))))))))))))))))))) :: ((S (S (S (S
+    (S (S (S (S (S (S (S (S (S (S (S (S (S (S (S (S (S (S (S (S (S (S (S (S
+    (S (S O)))))))))))))))))))))))))))))) :: ((S (S (S (S (S (S (S (S (S (S
+    (S (S (S (S (S (S (S (S (S (S (S (S (S (S (S (S (S (S (S (S (S (S (S (S
+    (S (S (S (S (S (S O)))))))))))))))))))))))))))))))))))))))) :: ((S (S (S
+    (S (S (S (S (S (S (S (S (S (S (S (S (S (S (S (S (S (S (S (S (S (S (S (S
+    (S (S (S (S (S (S (S (S (S (S (S (S (S (S (S (S (S (S (S (S (S (S (S (S
+    O))))))))))))))))))))))))))))))))))))))))))))))))))) :: ((S (S (S (S (S
+    (S (S (S (S (S (S (S (S (S (S (S (S (S (S (S (S (S (S (S (S (S (S (S (S
+    (S (S (S (S (S (S (S (S (S (S (S (S (S (S (S (S
+    O))))))))))))))))))))))))))))))))))))))))))))) :: ((S (S (S (S (S (S (S
+    (S (S (S (S (S (S (S (S (S (S (S (S (S (S (S (S (S (S (S (S (S (S (S (S
+    (S (S O))))))))))))))))))))))))))))))))) :: ((S (S (S (S (S (S (S (S (S
+    (S (S (S (S (S (S (S (S (S (S (S (S (S (S (S (S (S (S (S (S (S (S (S (S
+    (S (S (S (S (S (S (S (S (S (S (S (S (S (S (S
+    O)))))))))))))))))))))))))))))))))))))))))))))))) :: ((S (S (S (S (S (S
+    (S (S (S (S (S (S (S (S (S (S (S (S (S (S (S (S (S (S (S (S (S (S (S (S
+    (S (S (S (S (S (S (S (S (S (S (S (S (S (S
+    O)))))))))))))))))))))))))))))))))))))))))))) :: ((S (S (S (S (S (S (S (S
+    (S (S (S (S (S (S (S (S (S (S (S (S (S (S (S (S (S (S (S (S (S (S (S (S
+    (S (S (S (S (S (S (S (S (S (S (S (S (S (S (S (S (S
+    O))))))))))))))))))))))))))))))))))))))))))))))))) :: ((S (S (S (S (S (S
+    (S (S (S (S (S (S (S (S (S (S (S (S (S (S (S (S (S (S (S (S (S (S (S (S
+    (S (S (S (S (S (S (S (S (S
+    O))))))))))))))))))))))))))))))))))))))) :: ((S (S (S (S (S (S (S (S (S
+    (S (S (S (S (S (S (S (S (S (S (S (S (S (S (S (S (S (S (S (S (S (S (S (S
+    (S (S (S (S (S (S (S (S (S (S (S (S (S (S (S (S (S (S (S (S (S (S (S
+    O)))))))))))))))))))))))))))))))))))))))))))))))))))))))) :: ((S (S (S (S
+    (S (S (S (S (S (S (S (S (S (S (S (S (S (S (S (S (S (S (S (S (S (S (S (S
+    (S (S (S (S (S (S O)))))))))))))))))))))))))))))))))) :: ((S (S (S (S (S
+    (S (S (S (S (S (S (S (S (S (S (S (S (S (S (S (S (S (S (S (S (S (S (S (S
+    (S (S (S (S (S (S (S (S (S (S (S (S (S (S (S (S (S (S (S (S (S (S (S (S
+    O))))))))))))))))))))))))))))))))))))))))))))))))))))) :: ((S (S (S (S (S
+    (S (S (S (S (S (S (S (S (S (S (S (S (S (S (S (S (S (S (S (S (S (S (S (S
+    (S (S (S (S (S (S (S (S (S (S (S (S (S (S (S (S (S
+    O)))))))))))))))))))))))))))))))))))))))))))))) :: ((S (S (S (S (S (S (S
+    (S (S (S (S (S (S (S (S (S (S (S (S (S (S (S (S (S (S (S (S (S (S (S (S
+    (S (S (S (S (S (S (S (S (S (S (S
+    O)))))))))))))))))))))))))))))))))))))))))) :: ((S (S (S (S (S (S (S (S
+    (S (S (S (S (S (S (S (S (S (S (S (S (S (S (S (S (S (S (S (S (S (S (S (S
+    (S (S (S (S (S (S (S (S (S (S (S (S (S (S (S (S (S (S
+    O)))))))))))))))))))))))))))))))))))))))))))))))))) :: ((S (S (S (S (S (S
+    (S (S (S (S (S (S (S (S (S (S (S (S (S (S (S (S (S (S (S (S (S (S (S (S
+    (S (S (S (S (S (S O)))))))))))))))))))))))))))))))))))) :: ((S (S (S (S
+    (S (S (S (S (S (S (S (S (S (S (S (S (S (S (S (S (S (S (S (S (S (S (S (S
+    (S O))))))))))))))))))))))))))))) :: ((S (S (S (S (S (S (S (S (S (S (S (S
+    (S (S (S (S (S (S (S (S (S (S (S (S (S (S (S (S (S (S (S (S
+    O)))))))))))))))))))))))))))))))) :: [])))))))))))))))))))))))))))))))))))))))))))))))
+
+(** val des_shifts : nat list **)
+
+let des_shifts =
+  (S O) :: ((S O) :: ((S (S O)) :: ((S (S O)) :: ((S (S O)) :: ((S (S
+    O)) :: ((S (S O)) :: ((S (S O)) :: ((S O) :: ((S (S O)) :: ((S (S
+    O)) :: ((S (S O)) :: ((S (S O)) :: ((S (S O)) :: ((S (S O)) :: ((S
+    O) :: [])))))))))))))))
+
+(** val des_S1 : n list **)
+
+let des_S1 =
+  (Npos (XO (XI (XI XH)))) :: ((Npos (XO (XO XH))) :: ((Npos (XI (XO (XI
+    XH)))) :: ((Npos XH) :: ((Npos (XO XH)) :: ((Npos (XI (XI (XI
+    XH)))) :: ((Npos (XI (XI (XO XH)))) :: ((Npos (XO (XO (XO
+    XH)))) :: ((Npos (XI XH)) :: ((Npos (XO (XI (XO XH)))) :: ((Npos (XO (XI
+    XH))) :: ((Npos (XO (XO (XI XH)))) :: ((Npos (XI (XO XH))) :: ((Npos (XI
+    (XO (XO XH)))) :: (N0 :: ((Npos (XI (XI XH))) :: (N0 :: ((Npos (XI (XI
+    (XI XH)))) :: ((Npos (XI (XI XH))) :: ((Npos (XO (XO XH))) :: ((Npos (XO
+    (XI (XI XH)))) :: ((Npos (XO XH)) :: ((Npos (XI (XO (XI XH)))) :: ((Npos
+    XH) :: ((Npos (XO (XI (XO XH)))) :: ((Npos (XO (XI XH))) :: ((Npos (XO
+    (XO (XI XH)))) :: ((Npos (XI (XI (XO XH)))) :: ((Npos (XI (XO (XO
+    XH)))) :: ((Npos (XI (XO XH))) :: ((Npos (XI XH)) :: ((Npos (XO (XO (XO
+    XH)))) :: ((Npos (XO (XO XH))) :: ((Npos XH) :: ((Npos (XO (XI (XI
+    XH)))) :: ((Npos (XO (XO (XO XH)))) :: ((Npos (XI (XO (XI
+    XH)))) :: ((Npos (XO (XI XH))) :: ((Npos (XO XH)) :: ((Npos (XI (XI (XO
+    XH)))) :: ((Npos (XI (XI (XI XH)))) :: ((Npos (XO (XO (XI
+    XH)))) :: ((Npos (XI (XO (XO XH)))) :: ((Npos (XI (XI XH))) :: ((Npos (XI
+    XH)) :: ((Npos (XO (XI (XO XH)))) :: ((Npos (XI (XO
+    XH))) :: (N0 :: ((Npos (XI (XI (XI XH)))) :: ((Npos (XO (XO (XI
+    XH)))) :: ((Npos (XO (XO (XO XH)))) :: ((Npos (XO XH)) :: ((Npos (XO (XO
+    XH))) :: ((Npos (XI (XO (XO XH)))) :: ((Npos XH) :: ((Npos (XI (XI
+    XH))) :: ((Npos (XI (XO XH))) :: ((Npos (XI (XI (XO XH)))) :: ((Npos (XI
+    XH)) :: ((Npos (XO (XI (XI XH)))) :: ((Npos (XO (XI (XO
+    XH)))) :: (N0 :: ((Npos (XO (XI XH))) :: ((Npos (XI (XO (XI
+    XH)))) :: [])))))))))))))))))))))))))))))))))))))))))))))))))))))))))))))))
+
+(** val des_S2 : n list **)
+
+let des_S2 =
+  (Npos (XI (XI (XI XH)))) :: ((Npos XH) :: ((Npos (XO (XO (XO
+    XH)))) :: ((Npos (XO (XI (XI XH)))) :: ((Npos (XO (XI XH))) :: ((Npos (XI
+    (XI (XO XH)))) :: ((Npos (XI XH)) :: ((Npos (XO (XO XH))) :: ((Npos (XI
+    (XO (XO XH)))) :: ((Npos (XI (XI XH))) :: ((Npos (XO XH)) :: ((Npos (XI
+    (XO (XI XH)))) :: ((Npos (XO (XO (XI XH)))) :: (N0 :: ((Npos (XI (XO
+    XH))) :: ((Npos (XO (XI (XO XH)))) :: ((Npos (XI XH)) :: ((Npos (XI (XO
+    (XI XH)))) :: ((Npos (XO (XO XH))) :: ((Npos (XI (XI XH))) :: ((Npos (XI
+    (XI (XI XH)))) :: ((Npos (XO XH)) :: ((Npos (XO (XO (XO XH)))) :: ((Npos
+    (XO (XI (XI XH)))) :: ((Npos (XO (XO (XI XH)))) :: (N0 :: ((Npos
+    XH) :: ((Npos (XO (XI (XO XH)))) :: ((Npos (XO (XI XH))) :: ((Npos (XI
+    (XO (XO XH)))) :: ((Npos (XI (XI (XO XH)))) :: ((Npos (XI (XO
+    XH))) :: (N0 :: ((Npos (XO (XI (XI XH)))) :: ((Npos (XI (XI
+    XH))) :: ((Npos (XI (XI (XO XH)))) :: ((Npos (XO (XI (XO XH)))) :: ((Npos
+    (XO (XO XH))) :: ((Npos (XI (XO (XI XH)))) :: ((Npos XH) :: ((Npos (XI
+    (XO XH))) :: ((Npos (XO (XO (XO XH)))) :: ((Npos (XO (XO (XI
+    XH)))) :: ((Npos (XO (XI XH))) :: ((Npos (XI (XO (XO XH)))) :: ((Npos (XI
+    XH)) :: ((Npos (XO XH)) :: ((Npos (XI (XI (XI XH)))) :: ((Npos (XI (XO
+    (XI XH)))) :: ((Npos (XO (XO (XO XH)))) :: ((Npos (XO (XI (XO
+    XH)))) :: ((Npos XH) :: ((Npos (XI XH)) :: ((Npos (XI (XI (XI
+    XH)))) :: ((Npos (XO (XO XH))) :: ((Npos (XO XH)) :: ((Npos (XI (XI (XO
+    XH)))) :: ((Npos (XO (XI XH))) :: ((Npos (XI (XI XH))) :: ((Npos (XO (XO
+    (XI XH)))) :: (N0 :: ((Npos (XI (XO XH))) :: ((Npos (XO (XI (XI
+    XH)))) :: ((Npos (XI (XO (XO
+    XH)))) :: [])))))))))))))))))))))))))))))))))))))))))))))))))))))))))))))))
+
+(** val des_S3 : n list **)
+
+let des_S3 =
+  (Npos (XO (XI (XO XH)))) :: (N0 :: ((Npos (XI (XO (XO XH)))) :: ((Npos (XO
+    (XI (XI XH)))) :: ((Npos (XO (XI XH))) :: ((Npos (XI XH)) :: ((Npos (XI
+    (XI (XI XH)))) :: ((Npos (XI (XO XH))) :: ((Npos XH) :: ((Npos (XI (XO
+    (XI XH)))) :: ((Npos (XO (XO (XI XH)))) :: ((Npos (XI (XI XH))) :: ((Npos
+    (XI (XI (XO XH)))) :: ((Npos (XO (XO XH))) :: ((Npos (XO XH)) :: ((Npos
+    (XO (XO (XO XH)))) :: ((Npos (XI (XO (XI XH)))) :: ((Npos (XI (XI
+    XH))) :: (N0 :: ((Npos (XI (XO (XO XH)))) :: ((Npos (XI XH)) :: ((Npos
+    (XO (XO XH))) :: ((Npos (XO (XI XH))) :: ((Npos (XO (XI (XO
+    XH)))) :: ((Npos (XO XH)) :: ((Npos (XO (XO (XO XH)))) :: ((Npos (XI (XO
+    XH))) :: ((Npos (XO (XI (XI XH)))) :: ((Npos (XO (XO (XI XH)))) :: ((Npos
+    (XI (XI (XO XH)))) :: ((Npos (XI (XI (XI XH)))) :: ((Npos XH) :: ((Npos
+    (XI (XO (XI XH)))) :: ((Npos (XO (XI XH))) :: ((Npos (XO (XO
+    XH))) :: ((Npos (XI (XO (XO XH)))) :: ((Npos (XO (XO (XO XH)))) :: ((Npos
+    (XI (XI (XI XH)))) :: ((Npos (XI XH)) :: (N0 :: ((Npos (XI (XI (XO
+    XH)))) :: ((Npos XH) :: ((Npos (XO XH)) :: ((Npos (XO (XO (XI
+    XH)))) :: ((Npos (XI (XO XH))) :: ((Npos (XO (XI (XO XH)))) :: ((Npos (XO
+    (XI (XI XH)))) :: ((Npos (XI (XI XH))) :: ((Npos XH) :: ((Npos (XO (XI
+    (XO XH)))) :: ((Npos (XI (XO (XI XH)))) :: (N0 :: ((Npos (XO (XI
+    XH))) :: ((Npos (XI (XO (XO XH)))) :: ((Npos (XO (XO (XO XH)))) :: ((Npos
+    (XI (XI XH))) :: ((Npos (XO (XO XH))) :: ((Npos (XI (XI (XI
+    XH)))) :: ((Npos (XO (XI (XI XH)))) :: ((Npos (XI XH)) :: ((Npos (XI (XI
+    (XO XH)))) :: ((Npos (XI (XO XH))) :: ((Npos (XO XH)) :: ((Npos (XO (XO
+    (XI
+    XH)))) :: [])))))))))))))))))))))))))))))))))))))))))))))))))))))))))))))))
+
+(** val des_S4 : n list **)
+
+let des_S4 =
+  (Npos (XI (XI XH))) :: ((Npos (XI (XO (XI XH)))) :: ((Npos (XO (XI (XI
+    XH)))) :: ((Npos (XI XH)) :: (N0 :: ((Npos (XO (XI XH))) :: ((Npos (XI
+    (XO (XO XH)))) :: ((Npos (XO (XI (XO XH)))) :: ((Npos XH) :: ((Npos (XO
+    XH)) :: ((Npos (XO (XO (XO XH)))) :: ((Npos (XI (XO XH))) :: ((Npos (XI
+    (XI (XO XH)))) :: ((Npos (XO (XO (XI XH)))) :: ((Npos (XO (XO
+    XH))) :: ((Npos (XI (XI (XI XH)))) :: ((Npos (XI (XO (XI XH)))) :: ((Npos
+    (XO (XO (XO XH)))) :: ((Npos (XI (XI (XO XH)))) :: ((Npos (XI (XO
+    XH))) :: ((Npos (XO (XI XH))) :: ((Npos (XI (XI (XI
+    XH)))) :: (N0 :: ((Npos (XI XH)) :: ((Npos (XO (XO XH))) :: ((Npos (XI
+    (XI XH))) :: ((Npos (XO XH)) :: ((Npos (XO (XO (XI XH)))) :: ((Npos
+    XH) :: ((Npos (XO (XI (XO XH)))) :: ((Npos (XO (XI (XI XH)))) :: ((Npos
+    (XI (XO (XO XH)))) :: ((Npos (XO (XI (XO XH)))) :: ((Npos (XO (XI
+    XH))) :: ((Npos (XI (XO (XO XH)))) :: (N0 :: ((Npos (XO (XO (XI
+    XH)))) :: ((Npos (XI (XI (XO XH)))) :: ((Npos (XI (XI XH))) :: ((Npos (XI
+    (XO (XI XH)))) :: ((Npos (XI (XI (XI XH)))) :: ((Npos XH) :: ((Npos (XI
+    XH)) :: ((Npos (XO (XI (XI XH)))) :: ((Npos (XI (XO XH))) :: ((Npos (XO
+    XH)) :: ((Npos (XO (XO (XO XH)))) :: ((Npos (XO (XO XH))) :: ((Npos (XI
+    XH)) :: ((Npos (XI (XI (XI XH)))) :: (N0 :: ((Npos (XO (XI
+    XH))) :: ((Npos (XO (XI (XO XH)))) :: ((Npos XH) :: ((Npos (XI (XO (XI
+    XH)))) :: ((Npos (XO (XO (XO XH)))) :: ((Npos (XI (XO (XO
+    XH)))) :: ((Npos (XO (XO XH))) :: ((Npos (XI (XO XH))) :: ((Npos (XI (XI
+    (XO XH)))) :: ((Npos (XO (XO (XI XH)))) :: ((Npos (XI (XI XH))) :: ((Npos
+    (XO XH)) :: ((Npos (XO (XI (XI
+    XH)))) :: [])))))))))))))))))))))))))))))))))))))))))))))))))))))))))))))))
+
+(** val des_S5 : n list **)
+
+let des_S5 =
+  (Npos (XO XH)) :: ((Npos (XO (XO (XI XH)))) :: ((Npos (XO (XO
+    XH))) :: ((Npos XH) :: ((Npos (XI (XI XH))) :: ((Npos (XO (XI (XO
+    XH)))) :: ((Npos (XI (XI (XO XH)))) :: ((Npos (XO (XI XH))) :: ((Npos (XO
+    (XO (XO XH)))) :: ((Npos (XI (XO XH))) :: ((Npos (XI XH)) :: ((Npos (XI
+    (XI (XI XH)))) :: ((Npos (XI (XO (XI XH)))) :: (N0 :: ((Npos (XO (XI (XI
+    XH)))) :: ((Npos (XI (XO (XO XH)))) :: ((Npos (XO (XI (XI
+    XH)))) :: ((Npos (XI (XI (XO XH)))) :: ((Npos (XO XH)) :: ((Npos (XO (XO
+    (XI XH)))) :: ((Npos (XO (XO XH))) :: ((Npos (XI (XI XH))) :: ((Npos (XI
+    (XO (XI XH)))) :: ((Npos XH) :: ((Npos (XI (XO XH))) :: (N0 :: ((Npos (XI
+    (XI (XI XH)))) :: ((Npos (XO (XI (XO XH)))) :: ((Npos (XI XH)) :: ((Npos
+    (XI (XO (XO XH)))) :: ((Npos (XO (XO (XO XH)))) :: ((Npos (XO (XI
+    XH))) :: ((Npos (XO (XO XH))) :: ((Npos (XO XH)) :: ((Npos XH) :: ((Npos
+    (XI (XI (XO XH)))) :: ((Npos (XO (XI (XO XH)))) :: ((Npos (XI (XO (XI
+    XH)))) :: ((Npos (XI (XI XH))) :: ((Npos (XO (XO (XO XH)))) :: ((Npos (XI
+    (XI (XI XH)))) :: ((Npos (XI (XO (XO XH)))) :: ((Npos (XO (XO (XI
+    XH)))) :: ((Npos (XI (XO XH))) :: ((Npos (XO (XI XH))) :: ((Npos (XI
+    XH)) :: (N0 :: ((Npos (XO (XI (XI XH)))) :: ((Npos (XI (XI (XO
+    XH)))) :: ((Npos (XO (XO (XO XH)))) :: ((Npos (XO (XO (XI
+    XH)))) :: ((Npos (XI (XI XH))) :: ((Npos XH) :: ((Npos (XO (XI (XI
+    XH)))) :: ((Npos (XO XH)) :: ((Npos (XI (XO (XI XH)))) :: ((Npos (XO (XI
+    XH))) :: ((Npos (XI (XI (XI XH)))) :: (N0 :: ((Npos (XI (XO (XO
+    XH)))) :: ((Npos (XO (XI (XO XH)))) :: ((Npos (XO (XO XH))) :: ((Npos (XI
+    (XO XH))) :: ((Npos (XI
+    XH)) :: [])))))))))))))))))))))))))))))))))))))))))))))))))))))))))))))))
+
+(** val des_S6 : n list **)
+
+let des_S6 =
+  (Npos (XO (XO (XI XH)))) :: ((Npos XH) :: ((Npos (XO (XI (XO
+    XH)))) :: ((Npos (XI (XI (XI XH)))) :: ((Npos (XI (XO (XO
+    XH)))) :: ((Npos (XO XH)) :: ((Npos (XO (XI XH))) :: ((Npos (XO (XO (XO
+    XH)))) :: (N0 :: ((Npos (XI (XO (XI XH)))) :: ((Npos (XI XH)) :: ((Npos
+    (XO (XO XH))) :: ((Npos (XO (XI (XI XH)))) :: ((Npos (XI (XI
+    XH))) :: ((Npos (XI (XO XH))) :: ((Npos (XI (XI (XO XH)))) :: ((Npos (XO
+    (XI (XO XH)))) :: ((Npos (XI (XI (XI XH)))) :: ((Npos (XO (XO
+    XH))) :: ((Npos (XO XH)) :: ((Npos (XI (XI XH))) :: ((Npos (XO (XO (XI
+    XH)))) :: ((Npos (XI (XO (XO XH)))) :: ((Npos (XI (XO XH))) :: ((Npos (XO
+    (XI XH))) :: ((Npos XH) :: ((Npos (XI (XO (XI XH)))) :: ((Npos (XO (XI
+    (XI XH)))) :: (N0 :: ((Npos (XI (XI (XO XH)))) :: ((Npos (XI
+    XH)) :: ((Npos (XO (XO (XO XH)))) :: ((Npos (XI (XO (XO XH)))) :: ((Npos
+    (XO (XI (XI XH)))) :: ((Npos (XI (XI (XI XH)))) :: ((Npos (XI (XO
+    XH))) :: ((Npos (XO XH)) :: ((Npos (XO (XO (XO XH)))) :: ((Npos (XO (XO
+    (XI XH)))) :: ((Npos (XI XH)) :: ((Npos (XI (XI XH))) :: (N0 :: ((Npos
+    (XO (XO XH))) :: ((Npos (XO (XI (XO XH)))) :: ((Npos XH) :: ((Npos (XI
+    (XO (XI XH)))) :: ((Npos (XI (XI (XO XH)))) :: ((Npos (XO (XI
+    XH))) :: ((Npos (XO (XO XH))) :: ((Npos (XI XH)) :: ((Npos (XO
+    XH)) :: ((Npos (XO (XO (XI XH)))) :: ((Npos (XI (XO (XO XH)))) :: ((Npos
+    (XI (XO XH))) :: ((Npos (XI (XI (XI XH)))) :: ((Npos (XO (XI (XO
+    XH)))) :: ((Npos (XI (XI (XO XH)))) :: ((Npos (XO (XI (XI
+    XH)))) :: ((Npos XH) :: ((Npos (XI (XI XH))) :: ((Npos (XO (XI
+    XH))) :: (N0 :: ((Npos (XO (XO (XO XH)))) :: ((Npos (XI (XO (XI
+    XH)))) :: [])))))))))))))))))))))))))))))))))))))))))))))))))))))))))))))))
+
+(** val des_S7 : n list **)
+
+let des_S7 =
+  (Npos (XO (XO XH))) :: ((Npos (XI (XI (XO XH)))) :: ((Npos (XO
+    XH)) :: ((Npos (XO (XI (XI XH)))) :: ((Npos (XI (XI (XI
+    XH)))) :: (N0 :: ((Npos (XO (XO (XO XH)))) :: ((Npos (XI (XO (XI
+    XH)))) :: ((Npos (XI XH)) :: ((Npos (XO (XO (XI XH)))) :: ((Npos (XI (XO
+    (XO XH)))) :: ((Npos (XI (XI XH))) :: ((Npos (XI (XO XH))) :: ((Npos (XO
+    (XI (XO XH)))) :: ((Npos (XO (XI XH))) :: ((Npos XH) :: ((Npos (XI (XO
+    (XI XH)))) :: (N0 :: ((Npos (XI (XI (XO XH)))) :: ((Npos (XI (XI
+    XH))) :: ((Npos (XO (XO XH))) :: ((Npos (XI (XO (XO XH)))) :: ((Npos
+    XH) :: ((Npos (XO (XI (XO XH)))) :: ((Npos (XO (XI (XI XH)))) :: ((Npos
+    (XI XH)) :: ((Npos (XI (XO XH))) :: ((Npos (XO (XO (XI XH)))) :: ((Npos
+    (XO XH)) :: ((Npos (XI (XI (XI XH)))) :: ((Npos (XO (XO (XO
+    XH)))) :: ((Npos (XO (XI XH))) :: ((Npos XH) :: ((Npos (XO (XO
+    XH))) :: ((Npos (XI (XI (XO XH)))) :: ((Npos (XI (XO (XI XH)))) :: ((Npos
+    (XO (XO (XI XH)))) :: ((Npos (XI XH)) :: ((Npos (XI (XI XH))) :: ((Npos
+    (XO (XI (XI XH)))) :: ((Npos (XO (XI (XO XH)))) :: ((Npos (XI (XI (XI
+    XH)))) :: ((Npos (XO (XI XH))) :: ((Npos (XO (XO (XO
+    XH)))) :: (N0 :: ((Npos (XI (XO XH))) :: ((Npos (XI (XO (XO
+    XH)))) :: ((Npos (XO XH)) :: ((Npos (XO (XI XH))) :: ((Npos (XI (XI (XO
+    XH)))) :: ((Npos (XI (XO (XI XH)))) :: ((Npos (XO (XO (XO
+    XH)))) :: ((Npos XH) :: ((Npos (XO (XO XH))) :: ((Npos (XO (XI (XO
+    XH)))) :: ((Npos (XI (XI XH))) :: ((Npos (XI (XO (XO XH)))) :: ((Npos (XI
+    (XO XH))) :: (N0 :: ((Npos (XI (XI (XI XH)))) :: ((Npos (XO (XI (XI
+    XH)))) :: ((Npos (XO XH)) :: ((Npos (XI XH)) :: ((Npos (XO (XO (XI
+    XH)))) :: [])))))))))))))))))))))))))))))))))))))))))))))))))))))))))))))))
+
+(** val des_S8 : n list **)
+
+let des_S8 =
+  (Npos (XI (XO (XI XH)))) :: ((Npos (XO XH)) :: ((Npos (XO (XO (XO
+    XH)))) :: ((Npos (XO (XO XH))) :: ((Npos (XO (XI XH))) :: ((Npos (XI (XI
+    (XI XH)))) :: ((Npos (XI (XI (XO XH)))) :: ((Npos XH) :: ((Npos (XO (XI
+    (XO XH)))) :: ((Npos (XI (XO (XO XH)))) :: ((Npos (XI XH)) :: ((Npos (XO
+    (XI (XI XH)))) :: ((Npos (XI (XO XH))) :: (N0 :: ((Npos (XO (XO (XI
+    XH)))) :: ((Npos (XI (XI XH))) :: ((Npos XH) :: ((Npos (XI (XI (XI
+    XH)))) :: ((Npos (XI (XO (XI XH)))) :: ((Npos (XO (XO (XO
+    XH)))) :: ((Npos (XO (XI (XO XH)))) :: ((Npos (XI XH)) :: ((Npos (XI (XI
+    XH))) :: ((Npos (XO (XO XH))) :: ((Npos (XO (XO (XI XH)))) :: ((Npos (XI
+    (XO XH))) :: ((Npos (XO (XI XH))) :: ((Npos (XI (XI (XO
+    XH)))) :: (N0 :: ((Npos (XO (XI (XI XH)))) :: ((Npos (XI (XO (XO
+    XH)))) :: ((Npos (XO XH)) :: ((Npos (XI (XI XH))) :: ((Npos (XI (XI (XO
+    XH)))) :: ((Npos (XO (XO XH))) :: ((Npos XH) :: ((Npos (XI (XO (XO
+    XH)))) :: ((Npos (XO (XO (XI XH)))) :: ((Npos (XO (XI (XI
+    XH)))) :: ((Npos (XO XH)) :: (N0 :: ((Npos (XO (XI XH))) :: ((Npos (XO
+    (XI (XO XH)))) :: ((Npos (XI (XO (XI XH)))) :: ((Npos (XI (XI (XI
+    XH)))) :: ((Npos (XI XH)) :: ((Npos (XI (XO XH))) :: ((Npos (XO (XO (XO
+    XH)))) :: ((Npos (XO XH)) :: ((Npos XH) :: ((Npos (XO (XI (XI
+    XH)))) :: ((Npos (XI (XI XH))) :: ((Npos (XO (XO XH))) :: ((Npos (XO (XI
+    (XO XH)))) :: ((Npos (XO (XO (XO XH)))) :: ((Npos (XI (XO (XI
+    XH)))) :: ((Npos (XI (XI (XI XH)))) :: ((Npos (XO (XO (XI
+    XH)))) :: ((Npos (XI (XO (XO XH)))) :: (N0 :: ((Npos (XI XH)) :: ((Npos
+    (XI (XO XH))) :: ((Npos (XO (XI XH))) :: ((Npos (XI (XI (XO
+    XH)))) :: [])))))))))))))))))))))))))))))))))))))))))))))))))))))))))))))))
+
+(** val des_SBOXES : n list list **)
+
+let des_SBOXES =
+  des_S1 :: (des_S2 :: (des_S3 :: (des_S4 :: (des_S5 :: (des_S6 :: (des_S7 :: (des_S8 :: [])))))))
+
+(** val des_nibble_bits : n -> bool list **)
+
+let des_nibble_bits v =
+  (N.testbit v (Npos (XI XH))) :: ((N.testbit v (Npos (XO XH))) :: ((N.testbit
+                                                                    v (Npos
+                                                                    XH)) :: (
+    (N.testbit v N0) :: [])))
+
+(** val des_b2n : bool -> nat -> nat **)
+
+let des_b2n b w =
+  if b then w else O
+
+(** val des_sboxes : n list list -> bool list -> bool list **)
+
+let rec des_sboxes boxes bits =
+  match boxes with
+  | [] -> []
+  | box :: boxes' ->
+    (match bits with
+     | [] -> []
+     | b6 :: l ->
+       (match l with
+        | [] -> []
+        | b7 :: l0 ->
+          (match l0 with
+           | [] -> []
+           | b8 :: l1 ->
+             (match l1 with
+              | [] -> []
+              | b9 :: l2 ->
+                (match l2 with
+                 | [] -> []
+                 | b10 :: l3 ->
+                   (match l3 with
+                    | [] -> []
+                    | b11 :: tl ->
+                      let idx =
+                        add
+                          (add
+                            (add
+                              (add
+                                (add
+                                  (des_b2n b6 (S (S (S (S (S (S (S (S (S (S
+                                    (S (S (S (S (S (S (S (S (S (S (S (S (S (S
+                                    (S (S (S (S (S (S (S (S
+                                    O)))))))))))))))))))))))))))))))))
+                                  (des_b2n b11 (S (S (S (S (S (S (S (S (S (S
+                                    (S (S (S (S (S (S O))))))))))))))))))
+                                (des_b2n b7 (S (S (S (S (S (S (S (S O))))))))))
+                              (des_b2n b8 (S (S (S (S O))))))
+                            (des_b2n b9 (S (S O)))) (des_b2n b10 (S O))
+                      in
+                      app (des_nibble_bits (nth idx box N0))
+                        (des_sboxes boxes' tl)))))))
+
+(** val des_f : bool list -> bool list -> bool list **)
+
+let des_f r k =
+  des_permute des_P (des_sboxes des_SBOXES (des_xor (des_permute des_E r) k))
+
+(** val des_subkeys_from :
+    nat list -> bool list -> bool list -> bool list list **)
+
+let rec des_subkeys_from shifts c d =
+  match shifts with
+  | [] -> []
+  | s :: shifts' ->
+    let c' = des_rotl s c in
+    let d' = des_rotl s d in
+    (des_permute des_PC2 (app c' d')) :: (des_subkeys_from shifts' c' d')
+
+(** val des_subkeys : bool list -> bool list list **)
+
+let des_subkeys keybits =
+  let cd = des_permute des_PC1 keybits in
+  des_subkeys_from des_shifts
+    (firstn (S (S (S (S (S (S (S (S (S (S (S (S (S (S (S (S (S (S (S (S (S (S
+      (S (S (S (S (S (S O)))))))))))))))))))))))))))) cd)
+    (skipn (S (S (S (S (S (S (S (S (S (S (S (S (S (S (S (S (S (S (S (S (S (S
+      (S (S (S (S (S (S O)))))))))))))))))))))))))))) cd)
+
+(** val des_rounds :
+    bool list list -> bool list -> bool list -> bool list * bool list **)
+
+let rec des_rounds keys l r =
+  match keys with
+  | [] -> (l, r)
+  | k :: keys' -> des_rounds keys' r (des_xor l (des_f r k))
+
+(** val des_block_bits : bool list list -> bool list -> bool list **)
+
+let des_block_bits keys blockbits =
+  let ip = des_permute des_IP blockbits in
+  let (l16, r16) =
+    des_rounds keys
+      (firstn (S (S (S (S (S (S (S (S (S (S (S (S (S (S (S (S (S (S (S (S (S
+        (S (S (S (S (S (S (S (S (S (S (S O)))))))))))))))))))))))))))))))) ip)
+      (skipn (S (S (S (S (S (S (S (S (S (S (S (S (S (S (S (S (S (S (S (S (S
+        (S (S (S (S (S (S (S (S (S (S (S O)))))))))))))))))))))))))))))))) ip)
+  in
+  des_permute des_FP (app r16 l16)
+
+(** val des_serialize : bool list -> n list **)
+
+let des_serialize bits =
+  (des_byte_at bits O) :: ((des_byte_at bits (S O)) :: ((des_byte_at bits (S
+                                                          (S O))) :: (
+    (des_byte_at bits (S (S (S O)))) :: ((des_byte_at bits (S (S (S (S O))))) :: (
+    (des_byte_at bits (S (S (S (S (S O)))))) :: ((des_byte_at bits (S (S (S
+                                                   (S (S (S O))))))) :: (
+    (des_byte_at bits (S (S (S (S (S (S (S O)))))))) :: [])))))))
+
+(** val des_encrypt : n list -> n list -> n list **)
+
+let des_encrypt key0 block =
+  if (&&) (eqb (length key0) (S (S (S (S (S (S (S (S O)))))))))
+       (eqb (length block) (S (S (S (S (S (S (S (S O)))))))))
+  then des_serialize
+         (des_block_bits (des_subkeys (des_bits_of_bytes key0))
+           (des_bits_of_bytes block))
+  else []
+
+(** val utf16_rune_error : n **)
+
+let utf16_rune_error =
+  Npos (XI (XO (XI (XI (XI (XI (XI (XI (XI (XI (XI (XI (XI (XI (XI
+    XH)))))))))))))))
+
+(** val utf16_in_range : n -> n -> n -> bool **)
+
+let utf16_in_range lo hi b =
+  (&&) (N.leb lo b) (N.leb b hi)
+
+(** val utf16_cont : n -> bool **)
+
+let utf16_cont b =
+  utf16_in_range (Npos (XO (XO (XO (XO (XO (XO (XO XH)))))))) (Npos (XI (XI
+    (XI (XI (XI (XI (XO XH)))))))) b
+
+(** val utf16_invalid : n * nat **)
+
+let utf16_invalid =
+  (utf16_rune_error, (S O))
+
+(** val utf16_decode : n -> n list -> n * nat **)
+
+let utf16_decode b0 tl =
+  if N.ltb b0 (Npos (XO (XO (XO (XO (XO (XO (XO XH))))))))
+  then (b0, (S O))
+  else if N.ltb b0 (Npos (XO (XI (XO (XO (XO (XO (XI XH))))))))
+       then utf16_invalid
+       else if N.ltb b0 (Npos (XO (XO (XO (XO (XO (XI (XI XH))))))))
+            then (match tl with
+                  | [] -> utf16_invalid
+                  | b6 :: _ ->
+                    if utf16_cont b6
+                    then ((N.coq_lor
+                            (N.shiftl
+                              (N.coq_land b0 (Npos (XI (XI (XI (XI XH))))))
+                              (Npos (XO (XI XH))))
+                            (N.coq_land b6 (Npos (XI (XI (XI (XI (XI XH)))))))),
+                           (S (S O)))
+                    else utf16_invalid)
+            else if N.ltb b0 (Npos (XO (XO (XO (XO (XI (XI (XI XH))))))))
+                 then let lo =
+                        if N.eqb b0 (Npos (XO (XO (XO (XO (XO (XI (XI
+                             XH))))))))
+                        then Npos (XO (XO (XO (XO (XO (XI (XO XH)))))))
+                        else Npos (XO (XO (XO (XO (XO (XO (XO XH)))))))
+                      in
+                      let hi =
+                        if N.eqb b0 (Npos (XI (XO (XI (XI (XO (XI (XI
+                             XH))))))))
+                        then Npos (XI (XI (XI (XI (XI (XO (XO XH)))))))
+                        else Npos (XI (XI (XI (XI (XI (XI (XO XH)))))))
+                      in
+                      (match tl with
+                       | [] -> utf16_invalid
+                       | b6 :: l ->
+                         (match l with
+                          | [] -> utf16_invalid
+                          | b7 :: _ ->
+                            if (&&) (utf16_in_range lo hi b6) (utf16_cont b7)
+                            then ((N.coq_lor
+                                    (N.shiftl
+                                      (N.coq_land b0 (Npos (XI (XI (XI XH)))))
+                                      (Npos (XO (XO (XI XH)))))
+                                    (N.coq_lor
+                                      (N.shiftl
+                                        (N.coq_land b6 (Npos (XI (XI (XI (XI
+                                          (XI XH))))))) (Npos (XO (XI XH))))
+                                      (N.coq_land b7 (Npos (XI (XI (XI (XI
+                                        (XI XH))))))))), (S (S (S O))))
+                            else utf16_invalid))
+                 else if N.ltb b0 (Npos (XI (XO (XI (XO (XI (XI (XI XH))))))))
+                      then let lo =
+                             if N.eqb b0 (Npos (XO (XO (XO (XO (XI (XI (XI
+                                  XH))))))))
+                             then Npos (XO (XO (XO (XO (XI (XO (XO XH)))))))
+                             else Npos (XO (XO (XO (XO (XO (XO (XO XH)))))))
+                           in
+                           let hi =
+                             if N.eqb b0 (Npos (XO (XO (XI (XO (XI (XI (XI
+                                  XH))))))))
+                             then Npos (XI (XI (XI (XI (XO (XO (XO XH)))))))
+                             else Npos (XI (XI (XI (XI (XI (XI (XO XH)))))))
+                           in
+                           (match tl with
+                            | [] -> utf16_invalid
+                            | b6 :: l ->
+                              (match l with
+                               | [] -> utf16_invalid
+                               | b7 :: l0 ->
+                                 (match l0 with
+                                  | [] -> utf16_invalid
+                                  | b8 :: _ ->
+                                    if (&&)
+                                         ((&&) (utf16_in_range lo hi b6)
+                                           (utf16_cont b7)) (utf16_cont b8)
+                                    then ((N.coq_lor
+                                            (N.shiftl
+                                              (N.coq_land b0 (Npos (XI (XI
+                                                XH)))) (Npos (XO (XI (XO (XO
+                                              XH))))))
+                                            (N.coq_lor
+                                              (N.shiftl
+                                                (N.coq_land b6 (Npos (XI (XI
+                                                  (XI (XI (XI XH))))))) (Npos
+                                                (XO (XO (XI XH)))))
+                                              (N.coq_lor
+                                                (N.shiftl
+                                                  (N.coq_land b7 (Npos (XI
+                                                    (XI (XI (XI (XI XH)))))))
+                                                  (Npos (XO (XI XH))))
+                                                (N.coq_land b8 (Npos (XI (XI
+                                                  (XI (XI (XI XH)))))))))),
+                                           (S (S (S (S O)))))
+                                    else utf16_invalid)))
+                      else utf16_invalid
+
+(** val utf16_unit_le : n -> n list **)
+
+let utf16_unit_le u =
+  (N.coq_land u (Npos (XI (XI (XI (XI (XI (XI (XI XH))))))))) :: ((N.coq_land
+                                                                    (N.shiftr
+                                                                    u (Npos
+                                                                    (XO (XO
+                                                                    (XO
+                                                                    XH)))))
+                                                                    (Npos (XI
+                                                                    (XI (XI
+                                                                    (XI (XI
+                                                                    (XI (XI
+                                                                    XH))))))))) :: [])
+
+(** val utf16_emit : n -> n list **)
+
+let utf16_emit r =
+  if N.ltb r (Npos (XO (XO (XO (XO (XO (XO (XO (XO (XO (XO (XO (XO (XO (XO
+       (XO (XO XH)))))))))))))))))
+  then utf16_unit_le r
+  else let r' =
+         N.sub r (Npos (XO (XO (XO (XO (XO (XO (XO (XO (XO (XO (XO (XO (XO
+           (XO (XO (XO XH)))))))))))))))))
+       in
+       app
+         (utf16_unit_le
+           (N.add (Npos (XO (XO (XO (XO (XO (XO (XO (XO (XO (XO (XO (XI (XI
+             (XO (XI XH))))))))))))))))
+             (N.coq_land (N.shiftr r' (Npos (XO (XI (XO XH))))) (Npos (XI (XI
+               (XI (XI (XI (XI (XI (XI (XI XH)))))))))))))
+         (utf16_unit_le
+           (N.add (Npos (XO (XO (XO (XO (XO (XO (XO (XO (XO (XO (XI (XI (XI
+             (XO (XI XH))))))))))))))))
+             (N.coq_land r' (Npos (XI (XI (XI (XI (XI (XI (XI (XI (XI
+               XH)))))))))))))
+
+(** val utf16_go : nat -> n list -> n list **)
+
+let rec utf16_go skip = function
+| [] -> []
+| b0 :: tl ->
+  (match skip with
+   | O ->
+     let (r, size) = utf16_decode b0 tl in
+     app (utf16_emit r) (utf16_go (pred size) tl)
+   | S k -> utf16_go k tl)
+
+(** val utf8_to_utf16le : n list -> n list **)
+
+let utf8_to_utf16le s =
+  utf16_go O s
 
 type tok =
 | TI of z
@@ -12401,6 +15120,908 @@ let dispatch_merge name bs _ =
         | None -> Some ((TI (Zneg (XI (XO (XI (XI (XI (XO XH)))))))) :: []))
   else None
 
+(** val b5 : bytes list -> bytes **)
+
+let b5 bs =
+  nth (S (S (S (S O)))) bs []
+
+(** val dispatch_mschap : bytes -> bytes list -> z list -> tok list option **)
+
+let dispatch_mschap name bs zs =
+  if name_is name (String ((Ascii (true, false, true, true, false, true,
+       true, false)), (String ((Ascii (false, true, true, true, false, true,
+       false, false)), (String ((Ascii (false, true, true, true, false, true,
+       true, false)), (String ((Ascii (false, false, true, false, true, true,
+       true, false)), (String ((Ascii (false, true, false, false, true, true,
+       true, false)), (String ((Ascii (true, false, true, false, false, true,
+       true, false)), (String ((Ascii (true, true, false, false, true, true,
+       true, false)), (String ((Ascii (false, false, false, false, true,
+       true, true, false)), EmptyString))))))))))))))))
+  then Some ((TB
+         (generate_nt_response sha1 md4 utf8_to_utf16le des_encrypt (b1 bs)
+           (b2 bs) (b3 bs) (b4 bs))) :: [])
+  else if name_is name (String ((Ascii (true, true, false, false, true, true,
+            true, false)), (String ((Ascii (false, true, true, true, false,
+            true, false, false)), (String ((Ascii (false, true, true, true,
+            false, true, true, false)), (String ((Ascii (false, false, true,
+            false, true, true, true, false)), (String ((Ascii (false, true,
+            false, false, true, true, true, false)), (String ((Ascii (true,
+            false, true, false, false, true, true, false)), (String ((Ascii
+            (true, true, false, false, true, true, true, false)), (String
+            ((Ascii (false, false, false, false, true, true, true, false)),
+            EmptyString))))))))))))))))
+       then Some ((TB
+              (rfc_generate_nt_response sha1 md4 utf8_to_utf16le des_encrypt
+                (b1 bs) (b2 bs) (b3 bs) (b4 bs))) :: [])
+       else if name_is name (String ((Ascii (true, false, true, true, false,
+                 true, true, false)), (String ((Ascii (false, true, true,
+                 true, false, true, false, false)), (String ((Ascii (true,
+                 false, false, false, false, true, true, false)), (String
+                 ((Ascii (true, false, true, false, true, true, true,
+                 false)), (String ((Ascii (false, false, true, false, true,
+                 true, true, false)), (String ((Ascii (false, false, false,
+                 true, false, true, true, false)), (String ((Ascii (false,
+                 true, false, false, true, true, true, false)), (String
+                 ((Ascii (true, false, true, false, false, true, true,
+                 false)), (String ((Ascii (true, true, false, false, true,
+                 true, true, false)), (String ((Ascii (false, false, false,
+                 false, true, true, true, false)),
+                 EmptyString))))))))))))))))))))
+            then Some ((TB
+                   (generate_authenticator_response sha1 md4 utf8_to_utf16le
+                     (b1 bs) (b2 bs) (b3 bs) (b4 bs) (b5 bs))) :: [])
+            else if name_is name (String ((Ascii (true, true, false, false,
+                      true, true, true, false)), (String ((Ascii (false,
+                      true, true, true, false, true, false, false)), (String
+                      ((Ascii (true, false, false, false, false, true, true,
+                      false)), (String ((Ascii (true, false, true, false,
+                      true, true, true, false)), (String ((Ascii (false,
+                      false, true, false, true, true, true, false)), (String
+                      ((Ascii (false, false, false, true, false, true, true,
+                      false)), (String ((Ascii (false, true, false, false,
+                      true, true, true, false)), (String ((Ascii (true,
+                      false, true, false, false, true, true, false)), (String
+                      ((Ascii (true, true, false, false, true, true, true,
+                      false)), (String ((Ascii (false, false, false, false,
+                      true, true, true, false)),
+                      EmptyString))))))))))))))))))))
+                 then Some ((TB
+                        (rfc_generate_authenticator_response sha1 md4
+                          utf8_to_utf16le (b1 bs) (b2 bs) (b3 bs) (b4 bs)
+                          (b5 bs))) :: [])
+                 else if name_is name (String ((Ascii (true, false, true,
+                           true, false, true, true, false)), (String ((Ascii
+                           (false, true, true, true, false, true, false,
+                           false)), (String ((Ascii (true, true, false,
+                           false, false, true, true, false)), (String ((Ascii
+                           (false, false, false, true, false, true, true,
+                           false)), (String ((Ascii (true, false, false,
+                           false, false, true, true, false)), (String ((Ascii
+                           (true, true, false, false, true, true, true,
+                           false)), (String ((Ascii (false, false, false,
+                           true, false, true, true, false)),
+                           EmptyString))))))))))))))
+                      then Some ((TB
+                             (challenge_hash sha1 (b1 bs) (b2 bs) (b3 bs))) :: [])
+                      else if name_is name (String ((Ascii (true, true,
+                                false, false, true, true, true, false)),
+                                (String ((Ascii (false, true, true, true,
+                                false, true, false, false)), (String ((Ascii
+                                (true, true, false, false, false, true, true,
+                                false)), (String ((Ascii (false, false,
+                                false, true, false, true, true, false)),
+                                (String ((Ascii (true, false, false, false,
+                                false, true, true, false)), (String ((Ascii
+                                (true, true, false, false, true, true, true,
+                                false)), (String ((Ascii (false, false,
+                                false, true, false, true, true, false)),
+                                EmptyString))))))))))))))
+                           then Some ((TB
+                                  (rfc_challenge_hash sha1 (b1 bs) (b2 bs)
+                                    (b3 bs))) :: [])
+                           else if name_is name (String ((Ascii (true, false,
+                                     true, true, false, true, true, false)),
+                                     (String ((Ascii (false, true, true,
+                                     true, false, true, false, false)),
+                                     (String ((Ascii (false, true, true,
+                                     true, false, true, true, false)),
+                                     (String ((Ascii (false, false, true,
+                                     false, true, true, true, false)),
+                                     (String ((Ascii (false, false, false,
+                                     true, false, true, true, false)),
+                                     (String ((Ascii (true, false, false,
+                                     false, false, true, true, false)),
+                                     (String ((Ascii (true, true, false,
+                                     false, true, true, true, false)),
+                                     (String ((Ascii (false, false, false,
+                                     true, false, true, true, false)),
+                                     EmptyString))))))))))))))))
+                                then Some ((TB
+                                       (nt_password_hash md4 (b1 bs))) :: [])
+                                else if name_is name (String ((Ascii (true,
+                                          true, false, false, true, true,
+                                          true, false)), (String ((Ascii
+                                          (false, true, true, true, false,
+                                          true, false, false)), (String
+                                          ((Ascii (false, true, true, true,
+                                          false, true, true, false)), (String
+                                          ((Ascii (false, false, true, false,
+                                          true, true, true, false)), (String
+                                          ((Ascii (false, false, false, true,
+                                          false, true, true, false)), (String
+                                          ((Ascii (true, false, false, false,
+                                          false, true, true, false)), (String
+                                          ((Ascii (true, true, false, false,
+                                          true, true, true, false)), (String
+                                          ((Ascii (false, false, false, true,
+                                          false, true, true, false)),
+                                          EmptyString))))))))))))))))
+                                     then Some ((TB
+                                            (rfc_nt_password_hash md4 (b1 bs))) :: [])
+                                     else if (||)
+                                               (name_is name (String ((Ascii
+                                                 (true, false, true, true,
+                                                 false, true, true, false)),
+                                                 (String ((Ascii (false,
+                                                 true, true, true, false,
+                                                 true, false, false)),
+                                                 (String ((Ascii (true,
+                                                 false, true, false, true,
+                                                 true, true, false)), (String
+                                                 ((Ascii (false, false, true,
+                                                 false, true, true, true,
+                                                 false)), (String ((Ascii
+                                                 (false, true, true, false,
+                                                 false, true, true, false)),
+                                                 (String ((Ascii (true,
+                                                 false, false, false, true,
+                                                 true, false, false)),
+                                                 (String ((Ascii (false,
+                                                 true, true, false, true,
+                                                 true, false, false)),
+                                                 EmptyString)))))))))))))))
+                                               (name_is name (String ((Ascii
+                                                 (true, true, false, false,
+                                                 true, true, true, false)),
+                                                 (String ((Ascii (false,
+                                                 true, true, true, false,
+                                                 true, false, false)),
+                                                 (String ((Ascii (true,
+                                                 false, true, false, true,
+                                                 true, true, false)), (String
+                                                 ((Ascii (false, false, true,
+                                                 false, true, true, true,
+                                                 false)), (String ((Ascii
+                                                 (false, true, true, false,
+                                                 false, true, true, false)),
+                                                 (String ((Ascii (true,
+                                                 false, false, false, true,
+                                                 true, false, false)),
+                                                 (String ((Ascii (false,
+                                                 true, true, false, true,
+                                                 true, false, false)),
+                                                 EmptyString)))))))))))))))
+                                          then Some ((TB
+                                                 (utf8_to_utf16le (b1 bs))) :: [])
+                                          else if name_is name (String
+                                                    ((Ascii (true, false,
+                                                    true, true, false, true,
+                                                    true, false)), (String
+                                                    ((Ascii (false, true,
+                                                    true, true, false, true,
+                                                    false, false)), (String
+                                                    ((Ascii (false, false,
+                                                    true, false, false, true,
+                                                    true, false)), (String
+                                                    ((Ascii (true, false,
+                                                    true, false, false, true,
+                                                    true, false)), (String
+                                                    ((Ascii (true, true,
+                                                    false, false, true, true,
+                                                    true, false)), (String
+                                                    ((Ascii (true, true,
+                                                    false, false, false,
+                                                    true, true, false)),
+                                                    (String ((Ascii (false,
+                                                    true, false, false, true,
+                                                    true, true, false)),
+                                                    (String ((Ascii (true,
+                                                    false, false, true, true,
+                                                    true, true, false)),
+                                                    (String ((Ascii (false,
+                                                    false, false, false,
+                                                    true, true, true,
+                                                    false)), (String ((Ascii
+                                                    (false, false, true,
+                                                    false, true, true, true,
+                                                    false)), (String ((Ascii
+                                                    (true, true, true, false,
+                                                    true, true, false,
+                                                    false)),
+                                                    EmptyString))))))))))))))))))))))
+                                               then Some ((TB
+                                                      (des_crypt des_encrypt
+                                                        (b1 bs) (b2 bs))) :: [])
+                                               else if name_is name (String
+                                                         ((Ascii (true, true,
+                                                         false, false, true,
+                                                         true, true, false)),
+                                                         (String ((Ascii
+                                                         (false, true, true,
+                                                         true, false, true,
+                                                         false, false)),
+                                                         (String ((Ascii
+                                                         (false, false, true,
+                                                         false, false, true,
+                                                         true, false)),
+                                                         (String ((Ascii
+                                                         (true, false, true,
+                                                         false, false, true,
+                                                         true, false)),
+                                                         (String ((Ascii
+                                                         (true, true, false,
+                                                         false, true, true,
+                                                         true, false)),
+                                                         (String ((Ascii
+                                                         (true, true, false,
+                                                         false, false, true,
+                                                         true, false)),
+                                                         (String ((Ascii
+                                                         (false, true, false,
+                                                         false, true, true,
+                                                         true, false)),
+                                                         (String ((Ascii
+                                                         (true, false, false,
+                                                         true, true, true,
+                                                         true, false)),
+                                                         (String ((Ascii
+                                                         (false, false,
+                                                         false, false, true,
+                                                         true, true, false)),
+                                                         (String ((Ascii
+                                                         (false, false, true,
+                                                         false, true, true,
+                                                         true, false)),
+                                                         (String ((Ascii
+                                                         (true, true, true,
+                                                         false, true, true,
+                                                         false, false)),
+                                                         EmptyString))))))))))))))))))))))
+                                                    then Some ((TB
+                                                           (rfc_des_encrypt
+                                                             des_encrypt
+                                                             (b2 bs) 
+                                                             (b1 bs))) :: [])
+                                                    else if name_is name
+                                                              (String ((Ascii
+                                                              (true, false,
+                                                              true, true,
+                                                              false, true,
+                                                              true, false)),
+                                                              (String ((Ascii
+                                                              (false, true,
+                                                              true, true,
+                                                              false, true,
+                                                              false, false)),
+                                                              (String ((Ascii
+                                                              (true, false,
+                                                              true, true,
+                                                              false, true,
+                                                              true, false)),
+                                                              (String ((Ascii
+                                                              (true, false,
+                                                              false, false,
+                                                              false, true,
+                                                              true, false)),
+                                                              (String ((Ascii
+                                                              (true, true,
+                                                              false, false,
+                                                              true, true,
+                                                              true, false)),
+                                                              (String ((Ascii
+                                                              (false, false,
+                                                              true, false,
+                                                              true, true,
+                                                              true, false)),
+                                                              (String ((Ascii
+                                                              (true, false,
+                                                              true, false,
+                                                              false, true,
+                                                              true, false)),
+                                                              (String ((Ascii
+                                                              (false, true,
+                                                              false, false,
+                                                              true, true,
+                                                              true, false)),
+                                                              (String ((Ascii
+                                                              (true, true,
+                                                              false, true,
+                                                              false, true,
+                                                              true, false)),
+                                                              (String ((Ascii
+                                                              (true, false,
+                                                              true, false,
+                                                              false, true,
+                                                              true, false)),
+                                                              (String ((Ascii
+                                                              (true, false,
+                                                              false, true,
+                                                              true, true,
+                                                              true, false)),
+                                                              EmptyString))))))))))))))))))))))
+                                                         then Some ((TB
+                                                                (get_master_key
+                                                                  sha1
+                                                                  (b1 bs)
+                                                                  (b2 bs))) :: [])
+                                                         else if name_is name
+                                                                   (String
+                                                                   ((Ascii
+                                                                   (true,
+                                                                   true,
+                                                                   false,
+                                                                   false,
+                                                                   true,
+                                                                   true,
+                                                                   true,
+                                                                   false)),
+                                                                   (String
+                                                                   ((Ascii
+                                                                   (false,
+                                                                   true,
+                                                                   true,
+                                                                   true,
+                                                                   false,
+                                                                   true,
+                                                                   false,
+                                                                   false)),
+                                                                   (String
+                                                                   ((Ascii
+                                                                   (true,
+                                                                   false,
+                                                                   true,
+                                                                   true,
+                                                                   false,
+                                                                   true,
+                                                                   true,
+                                                                   false)),
+                                                                   (String
+                                                                   ((Ascii
+                                                                   (true,
+                                                                   false,
+                                                                   false,
+                                                                   false,
+                                                                   false,
+                                                                   true,
+                                                                   true,
+                                                                   false)),
+                                                                   (String
+                                                                   ((Ascii
+                                                                   (true,
+                                                                   true,
+                                                                   false,
+                                                                   false,
+                                                                   true,
+                                                                   true,
+                                                                   true,
+                                                                   false)),
+                                                                   (String
+                                                                   ((Ascii
+                                                                   (false,
+                                                                   false,
+                                                                   true,
+                                                                   false,
+                                                                   true,
+                                                                   true,
+                                                                   true,
+                                                                   false)),
+                                                                   (String
+                                                                   ((Ascii
+                                                                   (true,
+                                                                   false,
+                                                                   true,
+                                                                   false,
+                                                                   false,
+                                                                   true,
+                                                                   true,
+                                                                   false)),
+                                                                   (String
+                                                                   ((Ascii
+                                                                   (false,
+                                                                   true,
+                                                                   false,
+                                                                   false,
+                                                                   true,
+                                                                   true,
+                                                                   true,
+                                                                   false)),
+                                                                   (String
+                                                                   ((Ascii
+                                                                   (true,
+                                                                   true,
+                                                                   false,
+                                                                   true,
+                                                                   false,
+                                                                   true,
+                                                                   true,
+                                                                   false)),
+                                                                   (String
+                                                                   ((Ascii
+                                                                   (true,
+                                                                   false,
+                                                                   true,
+                                                                   false,
+                                                                   false,
+                                                                   true,
+                                                                   true,
+                                                                   false)),
+                                                                   (String
+                                                                   ((Ascii
+                                                                   (true,
+                                                                   false,
+                                                                   false,
+                                                                   true,
+                                                                   true,
+                                                                   true,
+                                                                   true,
+                                                                   false)),
+                                                                   EmptyString))))))))))))))))))))))
+                                                              then Some ((TB
+                                                                    (rfc_get_master_key
+                                                                    sha1
+                                                                    (b1 bs)
+                                                                    (b2 bs))) :: [])
+                                                              else if 
+                                                                    name_is
+                                                                    name
+                                                                    (String
+                                                                    ((Ascii
+                                                                    (true,
+                                                                    false,
+                                                                    true,
+                                                                    true,
+                                                                    false,
+                                                                    true,
+                                                                    true,
+                                                                    false)),
+                                                                    (String
+                                                                    ((Ascii
+                                                                    (false,
+                                                                    true,
+                                                                    true,
+                                                                    true,
+                                                                    false,
+                                                                    true,
+                                                                    false,
+                                                                    false)),
+                                                                    (String
+                                                                    ((Ascii
+                                                                    (true,
+                                                                    true,
+                                                                    false,
+                                                                    false,
+                                                                    true,
+                                                                    true,
+                                                                    true,
+                                                                    false)),
+                                                                    (String
+                                                                    ((Ascii
+                                                                    (false,
+                                                                    false,
+                                                                    true,
+                                                                    false,
+                                                                    true,
+                                                                    true,
+                                                                    true,
+                                                                    false)),
+                                                                    (String
+                                                                    ((Ascii
+                                                                    (true,
+                                                                    false,
+                                                                    false,
+                                                                    false,
+                                                                    false,
+                                                                    true,
+                                                                    true,
+                                                                    false)),
+                                                                    (String
+                                                                    ((Ascii
+                                                                    (false,
+                                                                    true,
+                                                                    false,
+                                                                    false,
+                                                                    true,
+                                                                    true,
+                                                                    true,
+                                                                    false)),
+                                                                    (String
+                                                                    ((Ascii
+                                                                    (false,
+                                                                    false,
+                                                                    true,
+                                                                    false,
+                                                                    true,
+                                                                    true,
+                                                                    true,
+                                                                    false)),
+                                                                    (String
+                                                                    ((Ascii
+                                                                    (true,
+                                                                    true,
+                                                                    false,
+                                                                    true,
+                                                                    false,
+                                                                    true,
+                                                                    true,
+                                                                    false)),
+                                                                    (String
+                                                                    ((Ascii
+                                                                    (true,
+                                                                    false,
+                                                                    true,
+                                                                    false,
+                                                                    false,
+                                                                    true,
+                                                                    true,
+                                                                    false)),
+                                                                    (String
+                                                                    ((Ascii
+                                                                    (true,
+                                                                    false,
+                                                                    false,
+                                                                    true,
+                                                                    true,
+                                                                    true,
+                                                                    true,
+                                                                    false)),
+                                                                    EmptyString))))))))))))))))))))
+                                                                   then 
+                                                                    Some
+                                                                    (t_res
+                                                                    (get_asymmetric_start_key
+                                                                    sha1
+                                                                    (b1 bs)
+                                                                    (Z.to_nat
+                                                                    (z1 zs))
+                                                                    (Z.eqb
+                                                                    (nth (S
+                                                                    O) zs Z0)
+                                                                    (Zpos XH)))
+                                                                    t_bytes)
+                                                                   else 
+                                                                    if 
+                                                                    name_is
+                                                                    name
+                                                                    (String
+                                                                    ((Ascii
+                                                                    (true,
+                                                                    true,
+                                                                    false,
+                                                                    false,
+                                                                    true,
+                                                                    true,
+                                                                    true,
+                                                                    false)),
+                                                                    (String
+                                                                    ((Ascii
+                                                                    (false,
+                                                                    true,
+                                                                    true,
+                                                                    true,
+                                                                    false,
+                                                                    true,
+                                                                    false,
+                                                                    false)),
+                                                                    (String
+                                                                    ((Ascii
+                                                                    (true,
+                                                                    true,
+                                                                    false,
+                                                                    false,
+                                                                    true,
+                                                                    true,
+                                                                    true,
+                                                                    false)),
+                                                                    (String
+                                                                    ((Ascii
+                                                                    (false,
+                                                                    false,
+                                                                    true,
+                                                                    false,
+                                                                    true,
+                                                                    true,
+                                                                    true,
+                                                                    false)),
+                                                                    (String
+                                                                    ((Ascii
+                                                                    (true,
+                                                                    false,
+                                                                    false,
+                                                                    false,
+                                                                    false,
+                                                                    true,
+                                                                    true,
+                                                                    false)),
+                                                                    (String
+                                                                    ((Ascii
+                                                                    (false,
+                                                                    true,
+                                                                    false,
+                                                                    false,
+                                                                    true,
+                                                                    true,
+                                                                    true,
+                                                                    false)),
+                                                                    (String
+                                                                    ((Ascii
+                                                                    (false,
+                                                                    false,
+                                                                    true,
+                                                                    false,
+                                                                    true,
+                                                                    true,
+                                                                    true,
+                                                                    false)),
+                                                                    (String
+                                                                    ((Ascii
+                                                                    (true,
+                                                                    true,
+                                                                    false,
+                                                                    true,
+                                                                    false,
+                                                                    true,
+                                                                    true,
+                                                                    false)),
+                                                                    (String
+                                                                    ((Ascii
+                                                                    (true,
+                                                                    false,
+                                                                    true,
+                                                                    false,
+                                                                    false,
+                                                                    true,
+                                                                    true,
+                                                                    false)),
+                                                                    (String
+                                                                    ((Ascii
+                                                                    (true,
+                                                                    false,
+                                                                    false,
+                                                                    true,
+                                                                    true,
+                                                                    true,
+                                                                    true,
+                                                                    false)),
+                                                                    EmptyString))))))))))))))))))))
+                                                                    then 
+                                                                    Some
+                                                                    (t_res_s
+                                                                    (spec_get_asymmetric_start_key
+                                                                    sha1
+                                                                    (b1 bs)
+                                                                    (Z.to_nat
+                                                                    (z1 zs))
+                                                                    (Z.eqb
+                                                                    (nth (S
+                                                                    O) zs Z0)
+                                                                    (Zpos XH)))
+                                                                    t_bytes)
+                                                                    else 
+                                                                    if 
+                                                                    name_is
+                                                                    name
+                                                                    (String
+                                                                    ((Ascii
+                                                                    (true,
+                                                                    false,
+                                                                    true,
+                                                                    true,
+                                                                    false,
+                                                                    true,
+                                                                    true,
+                                                                    false)),
+                                                                    (String
+                                                                    ((Ascii
+                                                                    (false,
+                                                                    true,
+                                                                    true,
+                                                                    true,
+                                                                    false,
+                                                                    true,
+                                                                    false,
+                                                                    false)),
+                                                                    (String
+                                                                    ((Ascii
+                                                                    (true,
+                                                                    false,
+                                                                    true,
+                                                                    true,
+                                                                    false,
+                                                                    true,
+                                                                    true,
+                                                                    false)),
+                                                                    (String
+                                                                    ((Ascii
+                                                                    (true,
+                                                                    false,
+                                                                    false,
+                                                                    false,
+                                                                    false,
+                                                                    true,
+                                                                    true,
+                                                                    false)),
+                                                                    (String
+                                                                    ((Ascii
+                                                                    (true,
+                                                                    true,
+                                                                    false,
+                                                                    true,
+                                                                    false,
+                                                                    true,
+                                                                    true,
+                                                                    false)),
+                                                                    (String
+                                                                    ((Ascii
+                                                                    (true,
+                                                                    false,
+                                                                    true,
+                                                                    false,
+                                                                    false,
+                                                                    true,
+                                                                    true,
+                                                                    false)),
+                                                                    (String
+                                                                    ((Ascii
+                                                                    (true,
+                                                                    true,
+                                                                    false,
+                                                                    true,
+                                                                    false,
+                                                                    true,
+                                                                    true,
+                                                                    false)),
+                                                                    (String
+                                                                    ((Ascii
+                                                                    (true,
+                                                                    false,
+                                                                    true,
+                                                                    false,
+                                                                    false,
+                                                                    true,
+                                                                    true,
+                                                                    false)),
+                                                                    (String
+                                                                    ((Ascii
+                                                                    (true,
+                                                                    false,
+                                                                    false,
+                                                                    true,
+                                                                    true,
+                                                                    true,
+                                                                    true,
+                                                                    false)),
+                                                                    EmptyString))))))))))))))))))
+                                                                    then 
+                                                                    Some
+                                                                    (t_res
+                                                                    (make_key
+                                                                    sha1 md4
+                                                                    utf8_to_utf16le
+                                                                    (b1 bs)
+                                                                    (b2 bs)
+                                                                    (Z.eqb
+                                                                    (z1 zs)
+                                                                    (Zpos XH)))
+                                                                    t_bytes)
+                                                                    else 
+                                                                    if 
+                                                                    name_is
+                                                                    name
+                                                                    (String
+                                                                    ((Ascii
+                                                                    (true,
+                                                                    true,
+                                                                    false,
+                                                                    false,
+                                                                    true,
+                                                                    true,
+                                                                    true,
+                                                                    false)),
+                                                                    (String
+                                                                    ((Ascii
+                                                                    (false,
+                                                                    true,
+                                                                    true,
+                                                                    true,
+                                                                    false,
+                                                                    true,
+                                                                    false,
+                                                                    false)),
+                                                                    (String
+                                                                    ((Ascii
+                                                                    (true,
+                                                                    false,
+                                                                    true,
+                                                                    true,
+                                                                    false,
+                                                                    true,
+                                                                    true,
+                                                                    false)),
+                                                                    (String
+                                                                    ((Ascii
+                                                                    (true,
+                                                                    false,
+                                                                    false,
+                                                                    false,
+                                                                    false,
+                                                                    true,
+                                                                    true,
+                                                                    false)),
+                                                                    (String
+                                                                    ((Ascii
+                                                                    (true,
+                                                                    true,
+                                                                    false,
+                                                                    true,
+                                                                    false,
+                                                                    true,
+                                                                    true,
+                                                                    false)),
+                                                                    (String
+                                                                    ((Ascii
+                                                                    (true,
+                                                                    false,
+                                                                    true,
+                                                                    false,
+                                                                    false,
+                                                                    true,
+                                                                    true,
+                                                                    false)),
+                                                                    (String
+                                                                    ((Ascii
+                                                                    (true,
+                                                                    true,
+                                                                    false,
+                                                                    true,
+                                                                    false,
+                                                                    true,
+                                                                    true,
+                                                                    false)),
+                                                                    (String
+                                                                    ((Ascii
+                                                                    (true,
+                                                                    false,
+                                                                    true,
+                                                                    false,
+                                                                    false,
+                                                                    true,
+                                                                    true,
+                                                                    false)),
+                                                                    (String
+                                                                    ((Ascii
+                                                                    (true,
+                                                                    false,
+                                                                    false,
+                                                                    true,
+                                                                    true,
+                                                                    true,
+                                                                    true,
+                                                                    false)),
+                                                                    EmptyString))))))))))))))))))
+                                                                    then 
+                                                                    Some
+                                                                    (t_res_s
+                                                                    (spec_make_key
+                                                                    sha1 md4
+                                                                    utf8_to_utf16le
+                                                                    (b1 bs)
+                                                                    (b2 bs)
+                                                                    (Z.eqb
+                                                                    (z1 zs)
+                                                                    (Zpos XH)))
+                                                                    t_bytes)
+                                                                    else None
+
 (** val dispatch : bytes -> bytes list -> z list -> tok list **)
 
 let dispatch name bs zs =
@@ -12466,5 +16087,8 @@ let dispatch name bs zs =
                                          (match dispatch_merge name bs zs with
                                           | Some t -> t
                                           | None ->
-                                            (TI (Zneg (XI (XO (XO (XO (XO (XI
-                                              XH)))))))) :: [])))))))))
+                                            (match dispatch_mschap name bs zs with
+                                             | Some t -> t
+                                             | None ->
+                                               (TI (Zneg (XI (XO (XO (XO (XO
+                                                 (XI XH)))))))) :: []))))))))))
